@@ -1,5 +1,55 @@
-(* Servers2.v -- T2 for C04 (server exclusivity) and C05 (work conservation) on the STAGE-2 engine model (Engine2.v).
-   HEADER TO BE COMPLETED AT THE END. *)
+(* Servers2.v -- T2 for C04 (server exclusivity) and C05 (work conservation) on the STAGE-2 engine model (Engine2.v): routers,
+   reneging and jockeying, priority pre-emption, server schedules (pre-emptive or not) with overtime and retired servers, slotted
+   services, class change while waiting, server priority functions, blocking.
+
+   C04.  SrvInv2 cf s (spelt out in SrvInv2_means): customers are conserved (WFx2 of Conserve2.v) and, at every node that is
+   not slotted: with infinitely many servers nobody records a server; otherwise the servers present at the node (on duty or
+   finishing overtime) have distinct ids <= highest_id, a server is busy exactly when it holds a customer, the customer a server
+   holds is in a queue of that node and records exactly that server, and a customer of the node that records a server is
+   EITHER the customer of exactly that server (so: no two customers share a server, no server has two customers, at most
+   |n_servers| customers are in service, and a blocked customer still holds its server) OR its server has been retired and it is on
+   the node's list of interrupted customers (distinct, flagged `interrupted`, recording a server that is no longer there:
+   interrupted customers are not in service).  Ids of retired servers are never reused (<= highest_id, new ids are above).
+   Plus three facts about the candidates of the next event (NextOK) that make the invariant inductive.
+   C05.  NonIdle2 cf s (NonIdle2_means): at a finite, not slotted node, whenever some customer is waiting (in a queue of the node,
+   recording no server) every server of the node that is on duty is busy.
+
+   Main theorems (every configuration in the scope, every state satisfying the invariant, every oracle of draws, any number of
+   events; partial correctness):
+     event_step_srv2, run_many_srv2              SrvInv2 is kept
+     event_step_nonidle2, run_many_nonidle2      NonIdle2 is kept (given SrvInv2)
+     SrvInv2_means, NonIdle2_means               the invariants in the words of C04 / C05
+     srvinv2_b, srvinv2_b_sound, nonidle2_b, nonidle2_b_sound     executable tests (sound)
+     links_b, links_b_complete                   a weaker executable test that is COMPLETE for SrvInv2 (used for refutations)
+     ex_in_scope, ex_invariant, ex_run_invariant, ex_nonidle, ex_run_nonidle    a node with priority pre-emption AND a
+                                                 pre-emptive schedule: interruption, resumption on the new server, pre-emption
+   No hypothesis on the draws.  Scope srv_scope cf (executable, per node):
+     (1) priority_preempt is not 'reroute' (4)               link_refuted_reroute_preempt (region of F-11a; from a state that
+                                                             satisfies the invariant, not claimed reachable: two customers end up
+                                                             recording the same server)
+     (2) a Schedule is not 'reroute' (4)                     link_refuted_F12a (reachable from an empty system, self-loop routing)
+     (3) no priority pre-emption at a node with a NON-pre-emptive Schedule     link_refuted_F12d (reachable: the pre-emptor is
+                                                             attached to an overtime server that has just been retired)
+     (4) class_change_time (cf_dyn) only without priority pre-emption          NOT refuted: proof economy (the candidate of a
+                                                             class-change-while-waiting event would have to be shown to be waiting)
+     (5) no pre-emptive capacitated slots                    NOT refuted for C04 proper: the invariant says that a slotted node
+                                                             has no servers and no interrupted customers, which is what keeps
+                                                             slotted nodes from disturbing the others
+   The regions of F-02a (pre-empting a BLOCKED customer) and F-02b (interrupting a BLOCKED customer) are INSIDE the scope: the link
+   invariant and non-idling survive them (the other defects there: clock, counters, crashes, are not about C04 / C05).
+   NOT proved here: the temporal clause "the same server from service start until the customer leaves" as a statement over
+   several events (stage 1's event_step_stays); what is proved is its state form at every event boundary.
+
+   Method.  (Part 1-2) The view VW s of a state: per node (id, population, queues, servers as (id, customer, busy, off duty),
+   infinite?, highest id, interrupted list), exit list and counters, per customer (id, recorded server, interrupted flag).
+   PV K m = "m leaves the view alone" (K remembers the nodes / records read, as in Conserve2): one line per engine function.
+   (Part 3) LV fl vm xs w, the link invariant on views with holes: fl customers in flight, vm a customer that has left its queue
+   but still holds its server, xs customers exempt from the clauses about interrupted customers; NIv ej hs wx w, non-idling with
+   an exempt node, idle servers (holes) and customers not counted; pure lemmas for every way the view changes.
+   (Part 4) ht P m Q, a Hoare logic whose assertions are predicates on views; attach_server / detatch_server / kill_server as view
+   transformers.  (Part 5) the recursive core release / release_blocked_individual / accept / preempt by induction on the fuel,
+   for LN b = LV and (if b) NIv.  (Part 6) the event functions, the candidates of the next event, one event.  (Part 7-11) runs,
+   meaning, executable tests, examples and closed witnesses. *)
 From Coq Require Import ZArith List Bool Lia Permutation.
 From RecordUpdate Require Import RecordUpdate.
 From CiwV Require Import Sx Prelude Routing Sched.
@@ -128,6 +178,10 @@ Proof.
   induction l as [|y r IH]; cbn; [discriminate|]. destruct (s_id y =? i) eqn:E.
   - intros H. injection H as <-. apply Z.eqb_eq in E. auto.
   - intros H. destruct (IH H). auto.
+Qed.
+Lemma find_server_none_b0 k l : find_server k l = None -> ~ In k (map sv_id l).
+Proof.
+  induction l as [|y r IH]; cbn; [tauto|]. destruct (sv_id y =? k) eqn:E; [discriminate|]. apply Z.eqb_neq in E. intros H [F|F]; [contradiction|]. exact (IH H F).
 Qed.
 Lemma find_server_id i l sv : find_server i l = Some sv -> sv_id sv = i /\ In sv l.
 Proof.
@@ -1385,6 +1439,161 @@ Section Link.
   Qed.
 
 
+  (* ====================================================================================================================== *)
+  (* The non-idling invariant (C05) on views.  ej = a node that is exempt (in the middle of a shift change), hs = servers     *)
+  (* (node, id) that may be idle although somebody waits, wx = customers not counted as waiting (inside an event)           *)
+  (* ====================================================================================================================== *)
+  Definition waitv (w : view) (c : Z) : Prop := exists b, fiv c (w_is w) = Some (None, b).
+  Definition NIv (ej : Z) (hs : list (Z * Z)) (wx : list Z) (w : view) : Prop :=
+    forall k n nc, nth_error (w_ns w) k = Some n -> nth_error (cf_nodes cf) k = Some nc -> nc_slotted nc = false -> v_inf n = false -> v_id n <> ej ->
+      (exists c, In c (mem n) /\ ~ In c wx /\ waitv w c) ->
+      forall t, In t (v_srv n) -> s_off t = false -> ~ In (v_id n, s_id t) hs -> s_busy t = true.
+  (* the invariant of the walk: the link invariant, and (when b = true) the non-idling invariant *)
+  Definition LN (b : bool) (fl : list Z) (vm : option (Z * Z)) (xs : list Z) (ej : Z) (hs : list (Z * Z)) (wx : list Z) (w : view) : Prop :=
+    LV fl vm xs w /\ (b = true -> NIv ej hs wx w).
+
+  Lemma N_mono ej hs hs' wx wx' w : (forall h, In h hs -> In h hs') -> (forall c, In c wx -> In c wx') -> NIv ej hs wx w -> NIv ej hs' wx' w.
+  Proof.
+    intros Hh Hw H k n nc Hk Hc Hs Hi He (c & Hc1 & Hc2 & Hc3) t Ht Ho Hn.
+    refine (H k n nc Hk Hc Hs Hi He _ t Ht Ho _); [|intros F; apply Hn, Hh, F].
+    exists c. split; [exact Hc1|]. split; [|exact Hc3]. intros F. apply Hc2, Hw, F.
+  Qed.
+  Lemma mem_memv vm n c : In c (mem n) -> In c (memv vm n).
+  Proof. intros H. unfold memv. apply in_or_app. left. exact H. Qed.
+
+  Lemma N_step fl vm xs ej hs hs' wx wx' w w' k n n' :
+    LV fl vm xs w -> NIv ej hs wx w -> nth_error (w_ns w) k = Some n -> w_ns w' = upd (w_ns w) k n' -> v_id n' = v_id n ->
+    (forall i, ~ In i (memv vm n) -> fiv i (w_is w') = fiv i (w_is w)) ->
+    (forall h, In h hs -> fst h <> v_id n -> In h hs') -> (forall c, In c wx -> In c wx') ->
+    (forall nc, nth_error (cf_nodes cf) k = Some nc -> nc_slotted nc = false -> v_inf n' = false -> v_id n <> ej ->
+       (exists c, In c (mem n') /\ ~ In c wx' /\ waitv w' c) ->
+       forall t, In t (v_srv n') -> s_off t = false -> ~ In (v_id n, s_id t) hs' -> s_busy t = true) ->
+    NIv ej hs' wx' w'.
+  Proof.
+    intros HL HN Hk Ens Eid Hoth Hh Hw Hnode k1 n1 nc Hk1 Hc Hs Hi He Hex t Ht Ho Hnh.
+    pose proof (LV_idx _ _ _ _ HL) as HI. destruct HL as (HW & _).
+    rewrite Ens in Hk1. destruct (nth_error_upd_cases _ _ _ _ _ Hk1) as [[-> ->]|[Hne Hk1']].
+    - rewrite Eid in *. exact (Hnode nc Hc Hs Hi He Hex t Ht Ho Hnh).
+    - destruct Hex as (c & Hc1 & Hc2 & (bb & Hc3)).
+      assert (Hcn : ~ In c (memv vm n)).
+      { intros F. apply Hne. eapply (memv_one _ vm w k1 k n1 n c HW Hk1' Hk); [apply mem_memv; exact Hc1|exact F]. }
+      refine (HN k1 n1 nc Hk1' Hc Hs Hi He _ t Ht Ho _).
+      + exists c. split; [exact Hc1|]. split; [intros F; apply Hc2, Hw, F|]. exists bb. rewrite <- (Hoth c Hcn). exact Hc3.
+      + intros F. apply Hnh. apply Hh; [exact F|]. cbn. rewrite (HI _ _ Hk1'), (HI _ _ Hk). lia.
+  Qed.
+
+  (* the node is replaced by one with the same servers and no new customer *)
+  Lemma N_node fl vm xs ej hs wx w k n n' :
+    LV fl vm xs w -> NIv ej hs wx w -> nth_error (w_ns w) k = Some n -> v_id n' = v_id n -> v_srv n' = v_srv n -> v_inf n' = v_inf n ->
+    (forall c, In c (mem n') -> In c (mem n)) -> NIv ej hs wx (wputn n' w).
+  Proof.
+    intros HL HN Hk Eid Es Ei Hm. pose proof (LV_idx _ _ _ _ HL) as HI.
+    assert (Ek : v_id n' - 1 = Z.of_nat k) by (rewrite Eid; eapply idx_k; eauto).
+    eapply N_step with (k := k) (n := n) (n' := n') (hs := hs) (wx := wx); try exact HL; try exact HN; try exact Hk; try exact Eid; auto.
+    - apply wputn_ns. exact Ek.
+    - intros nc Hc Hs Hi He (c & Hc1 & Hc2 & Hc3) t Ht Ho Hnh. rewrite Es in Ht. rewrite Ei in Hi.
+      refine (HN k n nc Hk Hc Hs Hi He _ t Ht Ho Hnh). exists c. split; [apply Hm; exact Hc1|]. split; [exact Hc2|exact Hc3].
+  Qed.
+  (* a customer joins the node: it is not counted yet *)
+  Lemma N_add fl vm xs ej hs wx w k n n' i :
+    LV fl vm xs w -> NIv ej hs wx w -> nth_error (w_ns w) k = Some n -> v_id n' = v_id n -> v_srv n' = v_srv n -> v_inf n' = v_inf n ->
+    (forall c, In c (mem n') -> c = i \/ In c (mem n)) -> NIv ej hs (i :: wx) (wputn n' w).
+  Proof.
+    intros HL HN Hk Eid Es Ei Hm. pose proof (LV_idx _ _ _ _ HL) as HI.
+    assert (Ek : v_id n' - 1 = Z.of_nat k) by (rewrite Eid; eapply idx_k; eauto).
+    eapply N_step with (k := k) (n := n) (n' := n') (hs := hs) (wx := wx); try exact HL; try exact HN; try exact Hk; try exact Eid; auto.
+    - apply wputn_ns. exact Ek.
+    - intros c Hc. right. exact Hc.
+    - intros nc Hc Hs Hi He (c & Hc1 & Hc2 & Hc3) t Ht Ho Hnh. rewrite Es in Ht. rewrite Ei in Hi.
+      refine (HN k n nc Hk Hc Hs Hi He _ t Ht Ho Hnh). exists c. destruct (Hm c Hc1) as [->|Hc1']; [exfalso; apply Hc2; left; reflexivity|].
+      split; [exact Hc1'|]. split; [intros F; apply Hc2; right; exact F|exact Hc3].
+  Qed.
+  (* only the records change, and no customer of a node gets a new entry *)
+  Lemma N_inds ej hs wx w w' :
+    NIv ej hs wx w -> w_ns w' = w_ns w ->
+    (forall k n c, nth_error (w_ns w) k = Some n -> In c (mem n) -> fiv c (w_is w') = fiv c (w_is w)) -> NIv ej hs wx w'.
+  Proof.
+    intros HN Ens Hf k n nc Hk Hc Hs Hi He (c & Hc1 & Hc2 & (bb & Hc3)) t Ht Ho Hnh. rewrite Ens in Hk.
+    refine (HN k n nc Hk Hc Hs Hi He _ t Ht Ho Hnh). exists c. split; [exact Hc1|]. split; [exact Hc2|]. exists bb. rewrite <- (Hf k n c Hk Hc1). exact Hc3.
+  Qed.
+  (* the record of one customer changes without making it wait *)
+  Lemma N_wputi ej hs wx w c o b' ob : NIv ej hs wx w -> fiv c (w_is w) = Some ob ->
+    (o = None -> fst ob = None) -> NIv ej hs wx (wputi (c, (o, b')) w).
+  Proof.
+    intros HN Hob Ho k n nc Hk Hc Hs Hi He (c' & Hc1 & Hc2 & (bb & Hc3)) t Ht Hoff Hnh. cbn in Hk.
+    refine (HN k n nc Hk Hc Hs Hi He _ t Ht Hoff Hnh). exists c'. split; [exact Hc1|]. split; [exact Hc2|]. cbn in Hc3. rewrite fiv_putiv in Hc3. cbn in Hc3.
+    destruct (c =? c') eqn:E; [|exists bb; exact Hc3]. apply Z.eqb_eq in E. subst c'. injection Hc3 as -> _.
+    destruct ob as [o' b0]. cbn in Ho. rewrite (Ho eq_refl) in Hob. exists b0. exact Hob.
+  Qed.
+  (* a hole is dropped when the server is busy (or not there), or nobody waits at the node *)
+  Lemma N_hole_drop ej hs wx w j sid : NIv ej ((j, sid) :: hs) wx w ->
+    (forall k n, nth_error (w_ns w) k = Some n -> v_id n = j ->
+       (forall t, In t (v_srv n) -> s_id t = sid -> s_off t = false -> s_busy t = true) \/
+       (forall c, In c (mem n) -> ~ In c wx -> ~ waitv w c)) ->
+    NIv ej hs wx w.
+  Proof.
+    intros HN Hd k n nc Hk Hc Hs Hi He Hex t Ht Ho Hnh.
+    destruct (Z.eq_dec (v_id n) j) as [Ej|Ej].
+    - destruct (Hd k n Hk Ej) as [D|D].
+      + destruct (Z.eq_dec (s_id t) sid) as [Es|Es]; [apply D; assumption|].
+        refine (HN k n nc Hk Hc Hs Hi He Hex t Ht Ho _). intros [F|F]; [injection F as F1 F2; congruence|contradiction].
+      + exfalso. destruct Hex as (c & Hc1 & Hc2 & Hc3). exact (D c Hc1 Hc2 Hc3).
+    - refine (HN k n nc Hk Hc Hs Hi He Hex t Ht Ho _). intros [F|F]; [injection F as F1 F2; congruence|contradiction].
+  Qed.
+  (* a customer is counted again: it does not wait, or the servers of its node that should be busy are *)
+  Lemma N_wx_drop fl vm xs ej hs wx w j n i : LV fl vm xs w -> NIv ej hs (i :: wx) w -> wnode w j = Some n -> In i (mem n) ->
+    (waitv w i -> v_inf n = false -> (forall nc, nthZ (cf_nodes cf) (j - 1) = Some nc -> nc_slotted nc = false) ->
+       forall t, In t (v_srv n) -> s_off t = false -> ~ In (j, s_id t) hs -> s_busy t = true) ->
+    NIv ej hs wx w.
+  Proof.
+    intros HL HN Hn Hi Hb k n1 nc Hk Hc Hs Hinf He (c & Hc1 & Hc2 & Hc3) t Ht Ho Hnh.
+    pose proof (LV_idx _ _ _ _ HL) as HI. destruct (wnode_nth _ _ _ Hn) as (kj & Hjk & Hkj).
+    destruct (Z.eq_dec c i) as [->|Hne].
+    - assert (k = kj) by (destruct HL as (HW & _); eapply (W_one _ w k kj n1 n i); eauto). subst kj.
+      rewrite Hkj in Hk. injection Hk as <-. rewrite (wnode_id _ _ _ HI Hn) in Hnh. refine (Hb Hc3 Hinf _ t Ht Ho Hnh).
+      intros nc' Hc'. rewrite Hjk, nthZ_of_nat in Hc'. congruence.
+    - refine (HN k n1 nc Hk Hc Hs Hinf He _ t Ht Ho Hnh). exists c. split; [exact Hc1|]. split; [|exact Hc3]. intros [F|F]; [congruence|contradiction].
+  Qed.
+  (* the exempt node: anything may happen to its servers and to the records of its customers *)
+  Lemma N_ex_step fl vm xs ej hs wx w w' k n n' :
+    LV fl vm xs w -> NIv ej hs wx w -> nth_error (w_ns w) k = Some n -> v_id n = ej -> w_ns w' = upd (w_ns w) k n' -> v_id n' = v_id n ->
+    (forall i, ~ In i (memv vm n) -> fiv i (w_is w') = fiv i (w_is w)) -> NIv ej hs wx w'.
+  Proof.
+    intros HL HN Hk Hej Ens Eid Hoth. eapply N_step with (k := k) (n := n) (n' := n') (hs := hs) (wx := wx); try exact HL; try exact HN; try exact Hk; try exact Eid; auto;
+      try (intros nc _ _ _ F; contradiction).
+  Qed.
+  Lemma N_ex_n fl vm xs ej hs wx w k n n' : LV fl vm xs w -> NIv ej hs wx w -> nth_error (w_ns w) k = Some n -> v_id n = ej -> v_id n' = v_id n ->
+    NIv ej hs wx (wputn n' w).
+  Proof.
+    intros HL HN Hk Hej Eid. pose proof (LV_idx _ _ _ _ HL) as HI.
+    assert (Ek : v_id n' - 1 = Z.of_nat k) by (rewrite Eid; eapply idx_k; eauto).
+    eapply N_ex_step with (k := k) (n := n) (n' := n'); eauto. apply wputn_ns. exact Ek.
+  Qed.
+  Lemma N_ex_io fl vm xs ej hs wx w k n n' c o b' : LV fl vm xs w -> NIv ej hs wx w -> nth_error (w_ns w) k = Some n -> v_id n = ej -> v_id n' = v_id n ->
+    In c (memv vm n) -> NIv ej hs wx (wputi (c, (o, b')) (wputn n' w)).
+  Proof.
+    intros HL HN Hk Hej Eid Hc. pose proof (LV_idx _ _ _ _ HL) as HI.
+    assert (Ek : v_id n' - 1 = Z.of_nat k) by (rewrite Eid; eapply idx_k; eauto).
+    eapply N_ex_step with (k := k) (n := n) (n' := n'); eauto.
+    - cbn. rewrite Ek, updZ_nat. reflexivity.
+    - intros i Hi. cbn. rewrite fiv_putiv. cbn. destruct (c =? i) eqn:E; [apply Z.eqb_eq in E; subst i; contradiction|reflexivity].
+  Qed.
+  (* entering the exemption of node j (no node is exempt so far; the holes are at j) *)
+  Lemma N_ex_enter hs wx w j : idxv w -> (forall h, In h hs -> fst h = j) -> NIv 0 hs wx w -> NIv j [] wx w.
+  Proof.
+    intros HI Hh HN k n nc Hk Hc Hs Hi Hne Hex t Ht Ho _. assert (E0 : v_id n <> 0) by (rewrite (HI _ _ Hk); lia).
+    refine (HN k n nc Hk Hc Hs Hi E0 Hex t Ht Ho _). intros F. apply Hh in F. cbn in F. contradiction.
+  Qed.
+  (* leaving it: the holes are the servers of node j that are on duty and not busy *)
+  Lemma N_ex_leave hs wx w j n : idxv w -> NIv j [] wx w -> wnode w j = Some n ->
+    (forall t, In t (v_srv n) -> s_off t = false -> s_busy t = false -> In (j, s_id t) hs) -> NIv 0 hs wx w.
+  Proof.
+    intros HI HN Hn Hh k n1 nc Hk Hc Hs Hi _ Hex t Ht Ho Hnh. destruct (Z.eq_dec (v_id n1) j) as [Ej|Ej].
+    - pose proof (nth_wnode _ _ _ HI Hk) as Hn1. rewrite Ej, Hn in Hn1. injection Hn1 as <-.
+      destruct (s_busy t) eqn:Eb; [reflexivity|]. exfalso. apply Hnh. rewrite Ej. apply Hh; assumption.
+    - refine (HN k n1 nc Hk Hc Hs Hi Ej Hex t Ht Ho _). intros [].
+  Qed.
+
   (* ---------- assertions ---------- *)
   (* node j exists, has finitely many servers, and the servers of S are at the node and idle *)
   Definition PF (j : Z) (S : list Z) (w : view) : Prop :=
@@ -1422,43 +1631,6 @@ Section Link.
   Lemma attv_unfold w j n sid t c ob : wnode w j = Some n -> fiv c (w_is w) = Some ob -> fsv sid (v_srv n) = Some t ->
     attv j sid c w = wputi (c, (Some sid, snd ob)) (wputn (with_srv n (putsv (mkSv (s_id t) (Some c) true (s_off t)) (v_srv n))) w).
   Proof. intros H1 H2 H3. unfold attv. rewrite H1, H2, H3. reflexivity. Qed.
-
-  Lemma ht_attach fl vm xs j sid S c : ~ In sid S ->
-    ht (fun w => LV fl vm xs w /\ PF j (sid :: S) w /\ Wt vm xs j c w) (attach_server j sid c)
-       (fun _ w => LV fl vm xs w /\ PF j S w /\ Lk j sid c w).
-  Proof.
-    intros HnS. eapply ht_vw with (F := attv j sid c); [intros s a s' E HI; apply (attach_server_vw _ _ _ _ _ _ E HI)|].
-    intros _ w HI (HL & (n & Hn & Hinf & HS) & (n0 & Hn0 & Hc & Hunl & Hcx)). rewrite Hn in Hn0. injection Hn0 as <-.
-    destruct (HS sid (or_introl eq_refl)) as (t0 & Hfs & Hc0).
-    pose proof (LV_attv _ _ _ _ _ _ _ _ _ HL Hn Hinf Hfs Hc0 Hc Hunl Hcx) as HL'.
-    split; [eapply LV_idx; eauto|]. split; [exact HL'|].
-    destruct (wnode_nth _ _ _ Hn) as (k & Hjk & Hk).
-    destruct (fiv_some c (w_is w) (memv_rec _ _ _ _ _ _ _ HL Hk Hc)) as (ob & Hob).
-    rewrite (attv_unfold _ _ _ _ _ _ _ Hn Hob Hfs). destruct (fsv_id _ _ _ Hfs) as [Hsid Ht0].
-    set (n' := with_srv n (putsv (mkSv (s_id t0) (Some c) true (s_off t0)) (v_srv n))).
-    assert (Hn' : wnode (wputi (c, (Some sid, snd ob)) (wputn n' w)) j = Some n') by (rewrite wnode_wputi; eapply wnode_wputn; eauto).
-    split.
-    - exists n'. split; [exact Hn'|]. split; [exact Hinf|]. intros sid' Hs'. destruct (HS sid' (or_intror Hs')) as (t & Ht & Hct).
-      exists t. split; [|exact Hct]. cbn [n' with_srv v_srv]. rewrite fsv_putsv. cbn [s_id]. rewrite Hsid.
-      destruct (sid =? sid') eqn:E; [apply Z.eqb_eq in E; subst sid'; contradiction|exact Ht].
-    - split; [rewrite isvv_wputi, Z.eqb_refl; reflexivity|]. exists n'. split; [exact Hn'|]. cbn [n' with_srv v_srv]. rewrite sids_putsv.
-      rewrite <- Hsid. apply in_map. exact Ht0.
-  Qed.
-
-  (* the three blocks that start a service on a given server: attach, then view-neutral steps *)
-  Lemma ht_start_give fl vm xs j sid S c : ~ In sid S ->
-    ht (fun w => LV fl vm xs w /\ PF j (sid :: S) w /\ Wt vm xs j c w) (start_give cf j c sid)
-       (fun _ w => LV fl vm xs w /\ PF j S w /\ Lk j sid c w).
-  Proof. intros HnS. unfold start_give. eapply ht_bind; [apply ht_attach; exact HnS|intros ?]. hk. Qed.
-  Lemma ht_start_preemptor fl vm xs j sid S c : ~ In sid S ->
-    ht (fun w => LV fl vm xs w /\ PF j (sid :: S) w /\ Wt vm xs j c w) (start_preemptor cf j c sid)
-       (fun _ w => LV fl vm xs w /\ PF j S w /\ Lk j sid c w).
-  Proof. intros HnS. unfold start_preemptor. eapply ht_bind; [apply ht_attach; exact HnS|intros ?]. hk. Qed.
-  Lemma ht_start_fresh fl vm xs j sid S c count : ~ In sid S ->
-    ht (fun w => LV fl vm xs w /\ PF j (sid :: S) w /\ Wt vm xs j c w) (start_fresh cf j c (Some sid) count)
-       (fun _ w => LV fl vm xs w /\ PF j S w /\ Lk j sid c w).
-  Proof. intros HnS. unfold start_fresh. eapply ht_bind; [apply ht_attach; exact HnS|intros ?]. hk. Qed.
-
 
   (* ---------- what the selection functions return ---------- *)
   Lemma waiting_of_spec q il c : In c (waiting_of q il) -> In c q /\ exists x, find_ind c il = Some x /\ i_server x = None.
@@ -1696,105 +1868,6 @@ Section Link.
   Lemma fsv_sids sid l t : fsv sid l = Some t -> In sid (sids l).
   Proof. intros H. destruct (fsv_id _ _ _ H) as [<- Ht]. apply in_map. exact Ht. Qed.
 
-  (* begin_interrupted_individuals_service: the first interrupted customer resumes on the idle server sid *)
-  Lemma ht_biis fl vm j sid S : ~ In sid S ->
-    ht (fun w => LV fl vm [] w /\ PF j (sid :: S) w) (begin_interrupted_individuals_service j sid) (fun _ w => LV fl vm [] w /\ PF j S w).
-  Proof.
-    intros HnS. unfold begin_interrupted_individuals_service.
-    hnode nd. hlift i. hind x.
-    eapply ht_bind; [eapply ht_KK with (K := fun w => oki w x); [pva|intros w Hw; apply (curi_oki i); apply Hw]|intros ?].
-    eapply ht_bind.
-    { eapply ht_pre; [|apply (ht_attach fl vm [i] j sid S i HnS)].
-      intros w HI ((((HL & HP) & Hcur) & Hhd) & Hx). destruct Hcur as [Hid Hn]. apply hd_error_In in Hhd.
-      destruct HP as (n & Hn' & Hinf & HSv). rewrite Hn in Hn'. injection Hn' as <-.
-      destruct (LV_node _ _ _ _ _ _ HL Hn) as (k & nc & Hjk & Hk & Hc & Hcz & HN).
-      destruct (HSv sid (or_introl eq_refl)) as (t0 & Hfs & Hc0).
-      assert (Hns : nc_slotted nc = false) by (eapply PF_slot; eauto; eapply fsv_sids; eauto).
-      pose proof (NodeOK_fin _ _ _ _ _ _ Hns Hinf HN) as HF.
-      destruct (fo_int _ _ _ _ _ _ _ _ HF i Hhd) as [Hm Hst]. destruct (Hst (fun F => F)) as (_ & k' & Hfk & Hsk).
-      split; [eapply LV_xs; [|exact HL]; intros ? []|]. split; [exists (nv nd); auto|].
-      exists (nv nd). split; [exact Hn|]. split; [exact Hm|]. split; [right; eauto|]. intros _. left. reflexivity. }
-    intros ?. hK. hK. hind x1. hK.
-    eapply ht_bind.
-    { eapply ht_post; [apply ht_put_ind|]. intros ? w HI (w0 & HI0 & ((HL & HP & HK) & Hx1) & ->).
-      instantiate (1 := fun _ w => LV fl vm [i] w /\ PF j S w /\ Lk j sid i w). cbn beta.
-      destruct Hx1 as [Hid1 Hf1].
-      match goal with |- context [wputi (iv ?y) _] => replace (iv y) with (i, (i_server x1, false)) by (rewrite <- Hid1; reflexivity) end.
-      split; [eapply LV_flag; [exact HL|left; reflexivity|exact Hf1]|]. split; [exact HP|].
-      destruct HK as [Hs Hn]. split; [|exact Hn]. rewrite isvv_wputi, Z.eqb_refl. unfold isvv in Hs. rewrite Hf1 in Hs. exact Hs. }
-    intros ?. hK. hK. hnode nd2. hlift l'.
-    eapply ht_post; [apply ht_put_node|]. intros ? w HI (w0 & HI0 & (((HL & HP & HK) & Hcur) & Hrm) & ->).
-    destruct Hcur as [Hid Hn]. destruct HK as [Hs (n & Hn' & Hsid)]. rewrite Hn in Hn'. injection Hn' as <-.
-    destruct HP as (n & Hn' & Hinf & HSv). rewrite Hn in Hn'. injection Hn' as <-.
-    destruct (LV_node _ _ _ _ _ _ HL Hn) as (k & nc & Hjk & Hk & Hc & Hcz & HN).
-    assert (Hns : nc_slotted nc = false) by (eapply PF_slot; eauto).
-    pose proof (NodeOK_fin _ _ _ _ _ _ Hns Hinf HN) as HF.
-    pose proof (Conserve2.remove_first_perm _ _ _ Hrm) as HPm. pose proof (remove_first_In _ _ _ Hrm) as Hin.
-    replace (nv (nd2 <| n_interrupted := l' |> <| n_nint := n_nint nd2 - 1 |>)) with (with_int (nv nd2) l') by reflexivity.
-    assert (HL1 : LV fl vm [i] (wputn (with_int (nv nd2) l') w0)).
-    { eapply LV_int; [exact HL|exact Hn|exact Hinf|]. intros nc' Hc'. rewrite Hcz in Hc'. injection Hc' as <-. split; [exact Hns|].
-      intros HF'. eapply FinOK_int_rm; [exact HPm|left; reflexivity|exact HF']. }
-    assert (Hn1 : wnode (wputn (with_int (nv nd2) l') w0) j = Some (with_int (nv nd2) l')) by (eapply wnode_wputn; eauto).
-    split.
-    - eapply LV_unexempt with (i := i); [exact HL1|exact Hn1| | | |].
-      + apply (fo_int _ _ _ _ _ _ _ _ HF i Hin).
-      + cbn. pose proof (fo_intnd _ _ _ _ _ _ _ _ HF) as HNd. cbn in HNd. eapply Permutation_NoDup in HNd; [|exact HPm]. inversion HNd; assumption.
-      + intros k' Hk'. rewrite isvv_wputn, Hs in Hk'. injection Hk' as <-. exact Hsid.
-      + intros i' [<-|[]]. left. reflexivity.
-    - exists (with_int (nv nd2) l'). split; [exact Hn1|]. split; [exact Hinf|]. exact HSv.
-  Qed.
-
-
-  Lemma PF_weak j S S' w : (forall s, In s S' -> In s S) -> PF j S w -> PF j S' w.
-  Proof. intros H (n & Hn & Hi & Hs). exists n. split; [exact Hn|]. split; [exact Hi|]. intros s Hs'. apply Hs, H, Hs'. Qed.
-
-  (* a customer that waits (records no server) at a node where server sid is present can be given a server *)
-  Lemma Cn_Wt fl vm w j sid c : LV fl vm [] w -> PF j [sid] w -> Cn j (Some c) w -> Wt vm [] j c w.
-  Proof.
-    intros HL (n & Hn & Hinf & HSv) (n' & Hn' & Hc & Hf). rewrite Hn in Hn'. injection Hn' as <-.
-    destruct (LV_node _ _ _ _ _ _ HL Hn) as (k & nc & Hjk & Hk & Hcf & Hcz & HN).
-    destruct (HSv sid (or_introl eq_refl)) as (t0 & Hfs & _).
-    assert (Hns : nc_slotted nc = false) by (eapply PF_slot; eauto; eapply fsv_sids; eauto).
-    pose proof (NodeOK_fin _ _ _ _ _ _ Hns Hinf HN) as HF.
-    exists n. split; [exact Hn|]. split; [unfold memv; apply in_or_app; left; exact Hc|]. split; [left; exact Hf|].
-    intros Hin. destruct (fo_int _ _ _ _ _ _ _ _ HF c Hin) as [_ Hst]. destruct (Hst (fun F => F)) as (_ & k' & Hk' & _). congruence.
-  Qed.
-
-  Lemma ht_serve_with fl vm j sid S : ~ In sid S ->
-    ht (fun w => LV fl vm [] w /\ PF j (sid :: S) w) (serve_with cf j sid) (fun _ w => LV fl vm [] w /\ PF j S w).
-  Proof.
-    intros HnS. unfold serve_with. hnode nd.
-    destruct (0 <? n_nint nd).
-    - eapply ht_pre; [|apply ht_biis; exact HnS]. intros w _ [H _]. exact H.
-    - eapply ht_bind; [apply ht_choose|intros cand]. destruct cand as [c|].
-      + eapply ht_post; [eapply ht_pre; [|apply (ht_start_give fl vm [] j sid S c HnS)]|].
-        * intros w _ (((HL & HP) & _) & HC). split; [exact HL|]. split; [exact HP|].
-          eapply Cn_Wt; [exact HL| |exact HC]. eapply PF_weak; [|exact HP]. intros s [<-|[]]. left. reflexivity.
-        * intros _ w _ (HL & HP & _). auto.
-      + eapply ht_post; [apply ht_ret|]. intros _ w _ ((((HL & HP) & _) & _) & _). split; [exact HL|].
-        eapply PF_weak; [|exact HP]. intros s Hs. right. exact Hs.
-  Qed.
-
-  (* server sid, if it is (still) at node j, is idle *)
-  Definition FA (j sid : Z) (w : view) : Prop :=
-    exists n, wnode w j = Some n /\ v_inf n = false /\ forall t, fsv sid (v_srv n) = Some t -> s_cust t = None.
-
-  Lemma ht_bsip_release fl vm j freed :
-    ht (fun w => LV fl vm [] w /\ forall sid, freed = Some sid -> FA j sid w) (begin_service_if_possible_release cf j freed)
-       (fun _ w => LV fl vm [] w).
-  Proof.
-    unfold begin_service_if_possible_release. destruct freed as [sid|].
-    - hnode nd. destruct (find_server sid (n_servers nd)) as [sv|] eqn:Ef.
-      + eapply ht_post; [eapply ht_pre; [|apply (ht_serve_with fl vm j sid [])]|]; [|intros []|intros _ w _ [H _]; exact H].
-        intros w _ ((HL & HF) & [Hid Hn]). split; [exact HL|]. destruct (HF sid eq_refl) as (n & Hn' & Hinf & Hfa).
-        rewrite Hn in Hn'. injection Hn' as <-. exists (nv nd). split; [exact Hn|]. split; [exact Hinf|].
-        intros s [<-|[]]. exists (sc sv). assert (Hfs : fsv sid (v_srv (nv nd)) = Some (sc sv)) by (cbn; rewrite fsv_find, Ef; reflexivity).
-        split; [exact Hfs|apply Hfa; exact Hfs].
-      + eapply ht_post; [apply ht_ret|]. intros _ w _ (((HL & _) & _) & _). exact HL.
-    - eapply ht_post; [apply ht_ret|]. intros _ w _ ((HL & _) & _). exact HL.
-  Qed.
-
-
   (* ---------- detatch_server in detail ---------- *)
   Definition detn (sid : Z) (n : nview) : nview :=
     match fsv sid (v_srv n) with
@@ -1845,23 +1918,127 @@ Section Link.
     rewrite V, (detv_eq _ _ _ _ _ _ HI Hn Hob). split; [apply idxv_wputn; exact HI|]. exists (VW s), n, ob. auto.
   Qed.
 
-  (* ---------- the scope ---------- *)
-  Definition scope_nc (nc : ncfg) : bool :=
-    negb (nc_preempt nc =? 4) && (negb (cf_dyn cf) || (nc_preempt nc =? 0)) &&
-    match nc_srv nc with
-    | SSched sc => negb (sc_pre sc =? 4) && ((nc_preempt nc =? 0) || negb (sc_pre sc =? 0))
-    | SSlot sl => negb (sl_cap sl) || (sl_pre sl =? 0)
-    | SFixed => true
-    end.
-  Definition srv_scope : bool := forallb scope_nc (cf_nodes cf).
-  Lemma scope_at j nc : srv_scope = true -> nthZ (cf_nodes cf) (j - 1) = Some nc -> scope_nc nc = true.
+  Lemma in_delsv_sub i l t : In t (delsv i l) -> In t l.
+  Proof. induction l as [|y r IH]; cbn; [tauto|]. destruct (s_id y =? i); [auto|]. intros [<-|H]; auto. Qed.
+  Lemma in_detn sid n t : NoDup (sids (v_srv n)) -> In t (v_srv (detn sid n)) -> s_id t <> sid -> In t (v_srv n).
   Proof.
-    unfold srv_scope. intros H Hn. rewrite forallb_forall in H. apply H. unfold nthZ in Hn. destruct (j - 1 <? 0); [discriminate|].
-    eapply nth_error_In; eauto.
+    intros HN. unfold detn. destruct (fsv sid (v_srv n)) as [t0|] eqn:E; [|auto]. destruct (fsv_id _ _ _ E) as [Hid Ht0]. cbv zeta.
+    assert (Hp : forall t', In t' (putsv (mkSv (s_id t0) None false (s_off t0)) (v_srv n)) -> s_id t' <> sid -> In t' (v_srv n)).
+    { intros t' Ht' Hne. apply in_putsv in Ht' as [->|[H _]]; [cbn in Hne; congruence|exact H|exact HN|]. cbn. apply (in_map s_id _ _ Ht0). }
+    destruct (s_off t0); cbn; intros Ht Hne; [apply in_delsv_sub in Ht|]; auto.
   Qed.
 
+  Lemma N_attv fl vm xs ej hs wx w j n sid t0 c ob :
+    LV fl vm xs w -> NIv ej ((j, sid) :: hs) wx w -> wnode w j = Some n -> fsv sid (v_srv n) = Some t0 -> NoDup (sids (v_srv n)) ->
+    In c (memv vm n) -> fiv c (w_is w) = Some ob -> NIv ej hs wx (attv j sid c w).
+  Proof.
+    intros HL HN Hn Hfs HNd Hc Hob. pose proof (LV_idx _ _ _ _ HL) as HI. destruct (wnode_nth _ _ _ Hn) as (k & Hjk & Hk).
+    rewrite (attv_unfold _ _ _ _ _ _ _ Hn Hob Hfs). destruct (fsv_id _ _ _ Hfs) as [Hsid Ht0]. pose proof (wnode_id _ _ _ HI Hn) as Hj.
+    set (n' := with_srv n (putsv (mkSv (s_id t0) (Some c) true (s_off t0)) (v_srv n))).
+    eapply N_step with (k := k) (n := n) (n' := n') (hs := (j, sid) :: hs) (wx := wx); try exact HL; try exact HN; try exact Hk; try reflexivity; auto.
+    - cbn. rewrite (idx_k _ _ _ HI Hk), updZ_nat. reflexivity.
+    - intros i Hi. cbn. rewrite fiv_putiv. cbn. destruct (c =? i) eqn:E; [apply Z.eqb_eq in E; subst i; contradiction|reflexivity].
+    - intros h [<-|Hh] Hne; [cbn in Hne; congruence|exact Hh].
+    - intros nc Hnc Hs Hi He (c' & Hc1 & Hc2 & (bb & Hc3)) t Ht Ho Hnh.
+      cbn [n' with_srv v_srv] in Ht. apply in_putsv in Ht as [->|[Ht Hne]]; [reflexivity| |exact HNd|cbn; apply (in_map s_id _ _ Ht0)].
+      cbn in Hne. cbn in Hc3. rewrite fiv_putiv in Hc3. cbn in Hc3.
+      assert (Hcc : c <> c') by (intros ->; rewrite Z.eqb_refl in Hc3; discriminate).
+      destruct (c =? c') eqn:E; [apply Z.eqb_eq in E; contradiction|].
+      refine (HN k n nc Hk Hnc Hs Hi He _ t Ht Ho _); [exists c'; split; [exact Hc1|split; [exact Hc2|exists bb; exact Hc3]]|].
+      rewrite Hj. intros [F|F]; [injection F as F; congruence|]. apply Hnh. rewrite Hj in *. exact F.
+  Qed.
 
-  (* ---------- further pure steps ---------- *)
+  Lemma N_detv fl vm xs ej hs wx w j n sid i ob :
+    LV fl vm xs w -> NIv ej hs wx w -> wnode w j = Some n -> NoDup (sids (v_srv n)) -> In i (memv vm n) -> fiv i (w_is w) = Some ob ->
+    (In i (mem n) -> forall t, In t (v_srv n) -> s_busy t = true) -> NIv ej ((j, sid) :: hs) wx (detv j sid i w).
+  Proof.
+    intros HL HN Hn HNd Hi Hob Hbusy. pose proof (LV_idx _ _ _ _ HL) as HI. destruct (wnode_nth _ _ _ Hn) as (k & Hjk & Hk).
+    rewrite (detv_eq _ _ _ _ _ _ HI Hn Hob). pose proof (wnode_id _ _ _ HI Hn) as Hj. destruct (detn_same sid n) as (D1 & D2 & D3 & D4 & D5 & D6).
+    eapply N_step with (k := k) (n := n) (n' := detn sid n) (hs := hs) (wx := wx); try exact HL; try exact HN; try exact Hk; auto.
+    - cbn. rewrite D1, (idx_k _ _ _ HI Hk), updZ_nat. reflexivity.
+    - intros i' Hi'. cbn. rewrite fiv_putiv. cbn. destruct (i =? i') eqn:E; [apply Z.eqb_eq in E; subst i'; contradiction|reflexivity].
+    - intros h Hh _. right. exact Hh.
+    - intros nc Hnc Hs Hinf He (c' & Hc1 & Hc2 & (bb & Hc3)) t Ht Ho Hnh. rewrite Hj in Hnh.
+      assert (Hts : s_id t <> sid) by (intros E; apply Hnh; left; rewrite E; reflexivity).
+      pose proof (in_detn sid n t HNd Ht Hts) as Ht'. unfold mem in Hc1. rewrite D3 in Hc1. rewrite D4 in Hinf.
+      cbn in Hc3. rewrite fiv_putiv in Hc3. cbn in Hc3. destruct (i =? c') eqn:E.
+      + apply Z.eqb_eq in E. subst c'. apply Hbusy; assumption.
+      + refine (HN k n nc Hk Hnc Hs Hinf He _ t Ht' Ho _); [exists c'; split; [exact Hc1|split; [exact Hc2|exists bb; exact Hc3]]|].
+        rewrite Hj. intros F. apply Hnh. right. exact F.
+  Qed.
+
+  Lemma N_killv fl vm xs ej hs wx w j n sid : LV fl vm xs w -> NIv ej hs wx w -> wnode w j = Some n -> NIv ej hs wx (killv j sid w).
+  Proof.
+    intros HL HN Hn. pose proof (LV_idx _ _ _ _ HL) as HI. destruct (wnode_nth _ _ _ Hn) as (k & Hjk & Hk). unfold killv. rewrite Hn.
+    eapply N_step with (k := k) (n := n) (n' := killn sid n) (hs := hs) (wx := wx); try exact HL; try exact HN; try exact Hk; try reflexivity; auto.
+    - cbn. rewrite (idx_k _ _ _ HI Hk), updZ_nat. reflexivity.
+    - intros nc Hnc Hs Hinf He Hex t Ht Ho Hnh. cbn in Ht. apply in_delsv_sub in Ht. exact (HN k n nc Hk Hnc Hs Hinf He Hex t Ht Ho Hnh).
+  Qed.
+
+  (* ---------- both invariants together ---------- *)
+  Lemma LN_LV b fl vm xs ej hs wx w : LN b fl vm xs ej hs wx w -> LV fl vm xs w.
+  Proof. intros [H _]. exact H. Qed.
+  Lemma LN_xs b fl vm xs xs' ej hs wx w : (forall i, In i xs -> In i xs') -> LN b fl vm xs ej hs wx w -> LN b fl vm xs' ej hs wx w.
+  Proof. intros Hx [HL HN]. split; [eapply LV_xs; eauto|exact HN]. Qed.
+  Lemma LN_mono b fl vm xs ej hs hs' wx wx' w : (forall h, In h hs -> In h hs') -> (forall c, In c wx -> In c wx') ->
+    LN b fl vm xs ej hs wx w -> LN b fl vm xs ej hs' wx' w.
+  Proof. intros Hh Hw [HL HN]. split; [exact HL|]. intros Hb. eapply N_mono; eauto. Qed.
+  Lemma LN_flag b fl vm xs ej hs wx w i o b0 b' : LN b fl vm xs ej hs wx w -> In i xs -> fiv i (w_is w) = Some (o, b0) ->
+    LN b fl vm xs ej hs wx (wputi (i, (o, b')) w).
+  Proof.
+    intros [HL HN] Hx Hob. split; [eapply LV_flag; eauto|]. intros Hb. eapply N_wputi; [exact (HN Hb)|exact Hob|]. intros ->. reflexivity.
+  Qed.
+  Lemma LN_unexempt b fl vm xs xs' ej hs wx w j n i :
+    LN b fl vm xs' ej hs wx w -> wnode w j = Some n -> In i (memv vm n) -> ~ In i (v_int n) -> (forall k, isvv w i = Some k -> In k (sids (v_srv n))) ->
+    (forall i', In i' xs' -> i' = i \/ In i' xs) -> LN b fl vm xs ej hs wx w.
+  Proof. intros [HL HN] Hn Hi Hni Hlk Hx. split; [eapply LV_unexempt; eauto|exact HN]. Qed.
+  Lemma LN_hole_drop b fl vm xs ej hs wx w j sid : LN b fl vm xs ej ((j, sid) :: hs) wx w ->
+    (forall k n, nth_error (w_ns w) k = Some n -> v_id n = j ->
+       (forall t, In t (v_srv n) -> s_id t = sid -> s_off t = false -> s_busy t = true) \/
+       (forall c, In c (mem n) -> ~ In c wx -> ~ waitv w c)) ->
+    LN b fl vm xs ej hs wx w.
+  Proof. intros [HL HN] Hd. split; [exact HL|]. intros Hb. eapply N_hole_drop; eauto. Qed.
+
+  Lemma ht_attach b fl vm xs ej hs wx j sid S c : ~ In sid S ->
+    ht (fun w => LN b fl vm xs ej ((j, sid) :: hs) wx w /\ PF j (sid :: S) w /\ Wt vm xs j c w) (attach_server j sid c)
+       (fun _ w => LN b fl vm xs ej hs wx w /\ PF j S w /\ Lk j sid c w).
+  Proof.
+    intros HnS. eapply ht_vw with (F := attv j sid c); [intros s a s' E HI; apply (attach_server_vw _ _ _ _ _ _ E HI)|].
+    intros _ w HI ([HL HNI] & (n & Hn & Hinf & HS) & (n0 & Hn0 & Hc & Hunl & Hcx)). rewrite Hn in Hn0. injection Hn0 as <-.
+    destruct (HS sid (or_introl eq_refl)) as (t0 & Hfs & Hc0).
+    pose proof (LV_attv _ _ _ _ _ _ _ _ _ HL Hn Hinf Hfs Hc0 Hc Hunl Hcx) as HL'.
+    split; [eapply LV_idx; eauto|].
+    destruct (wnode_nth _ _ _ Hn) as (k & Hjk & Hk).
+    destruct (fiv_some c (w_is w) (memv_rec _ _ _ _ _ _ _ HL Hk Hc)) as (ob & Hob).
+    split; [split; [exact HL'|]|].
+    { intros Hb. destruct (LV_node _ _ _ _ _ _ HL Hn) as (k' & nc & _ & _ & _ & Hcz & HN).
+      assert (Hns : nc_slotted nc = false) by exact (PF_slot fl vm xs w j sid n nc HL Hn Hcz (fsv_sids _ _ _ Hfs)).
+      eapply N_attv; [exact HL|exact (HNI Hb)|exact Hn|exact Hfs|exact (fo_nd _ _ _ _ _ _ _ _ (NodeOK_fin _ _ _ _ _ _ Hns Hinf HN))|exact Hc|exact Hob]. }
+    rewrite (attv_unfold _ _ _ _ _ _ _ Hn Hob Hfs). destruct (fsv_id _ _ _ Hfs) as [Hsid Ht0].
+    set (n' := with_srv n (putsv (mkSv (s_id t0) (Some c) true (s_off t0)) (v_srv n))).
+    assert (Hn' : wnode (wputi (c, (Some sid, snd ob)) (wputn n' w)) j = Some n') by (rewrite wnode_wputi; eapply wnode_wputn; eauto).
+    split.
+    - exists n'. split; [exact Hn'|]. split; [exact Hinf|]. intros sid' Hs'. destruct (HS sid' (or_intror Hs')) as (t & Ht & Hct).
+      exists t. split; [|exact Hct]. cbn [n' with_srv v_srv]. rewrite fsv_putsv. cbn [s_id]. rewrite Hsid.
+      destruct (sid =? sid') eqn:E; [apply Z.eqb_eq in E; subst sid'; contradiction|exact Ht].
+    - split; [rewrite isvv_wputi, Z.eqb_refl; reflexivity|]. exists n'. split; [exact Hn'|]. cbn [n' with_srv v_srv]. rewrite sids_putsv.
+      rewrite <- Hsid. apply in_map. exact Ht0.
+  Qed.
+
+  (* the three blocks that start a service on a given server: attach, then view-neutral steps *)
+  Lemma ht_start_give b fl vm xs ej hs wx j sid S c : ~ In sid S ->
+    ht (fun w => LN b fl vm xs ej ((j, sid) :: hs) wx w /\ PF j (sid :: S) w /\ Wt vm xs j c w) (start_give cf j c sid)
+       (fun _ w => LN b fl vm xs ej hs wx w /\ PF j S w /\ Lk j sid c w).
+  Proof. intros HnS. unfold start_give. eapply ht_bind; [apply ht_attach; exact HnS|intros ?]. hk. Qed.
+  Lemma ht_start_preemptor b fl vm xs ej hs wx j sid S c : ~ In sid S ->
+    ht (fun w => LN b fl vm xs ej ((j, sid) :: hs) wx w /\ PF j (sid :: S) w /\ Wt vm xs j c w) (start_preemptor cf j c sid)
+       (fun _ w => LN b fl vm xs ej hs wx w /\ PF j S w /\ Lk j sid c w).
+  Proof. intros HnS. unfold start_preemptor. eapply ht_bind; [apply ht_attach; exact HnS|intros ?]. hk. Qed.
+  Lemma ht_start_fresh b fl vm xs ej hs wx j sid S c count : ~ In sid S ->
+    ht (fun w => LN b fl vm xs ej ((j, sid) :: hs) wx w /\ PF j (sid :: S) w /\ Wt vm xs j c w) (start_fresh cf j c (Some sid) count)
+       (fun _ w => LN b fl vm xs ej hs wx w /\ PF j S w /\ Lk j sid c w).
+  Proof. intros HnS. unfold start_fresh. eapply ht_bind; [apply ht_attach; exact HnS|intros ?]. hk. Qed.
+
   Lemma NodeOK_int_rm nc vm xs n int' f g c : Permutation (v_int n) (c :: int') -> In c xs ->
     NodeOK nc vm xs n f g -> NodeOK nc vm xs (with_int n int') f g.
   Proof.
@@ -1881,34 +2058,174 @@ Section Link.
     intros nc' Hc'. rewrite Hc in Hc'. injection Hc' as <-. apply Hf. exact Hcz.
   Qed.
 
-  Lemma ht_exit_accept fl xs i c : ht (fun w => LV (i :: fl) None xs w) (exit_accept i c) (fun _ w => LV fl None xs w).
+  Lemma LN_int_g b fl vm xs ej hs wx w j n int' :
+    LN b fl vm xs ej hs wx w -> wnode w j = Some n ->
+    (forall nc, nthZ (cf_nodes cf) (j - 1) = Some nc -> NodeOK nc vm xs n (isvv w) (iflag w) -> NodeOK nc vm xs (with_int n int') (isvv w) (iflag w)) ->
+    LN b fl vm xs ej hs wx (wputn (with_int n int') w).
+  Proof.
+    intros [HL HN] Hn Hf. split; [eapply LV_int_g; eauto|]. intros Hb. destruct (wnode_nth _ _ _ Hn) as (k & Hjk & Hk).
+    eapply N_node; [exact HL|exact (HN Hb)|exact Hk|reflexivity..|auto].
+  Qed.
+  (* begin_interrupted_individuals_service: the first interrupted customer resumes on the idle server sid *)
+  Lemma ht_biis b fl vm ej hs wx j sid S : ~ In sid S ->
+    ht (fun w => LN b fl vm [] ej ((j, sid) :: hs) wx w /\ PF j (sid :: S) w) (begin_interrupted_individuals_service j sid)
+       (fun _ w => LN b fl vm [] ej hs wx w /\ PF j S w).
+  Proof.
+    intros HnS. unfold begin_interrupted_individuals_service.
+    hnode nd. hlift i. hind x.
+    eapply ht_bind; [eapply ht_KK with (K := fun w => oki w x); [pva|intros w Hw; apply (curi_oki i); apply Hw]|intros ?].
+    eapply ht_bind.
+    { eapply ht_pre; [|apply (ht_attach b fl vm [i] ej hs wx j sid S i HnS)].
+      intros w HI ((((HLN & HP) & Hcur) & Hhd) & Hx). pose proof (LN_LV _ _ _ _ _ _ _ _ HLN) as HL. destruct Hcur as [Hid Hn]. apply hd_error_In in Hhd.
+      destruct HP as (n & Hn' & Hinf & HSv). rewrite Hn in Hn'. injection Hn' as <-.
+      destruct (LV_node _ _ _ _ _ _ HL Hn) as (k & nc & Hjk & Hk & Hc & Hcz & HN).
+      destruct (HSv sid (or_introl eq_refl)) as (t0 & Hfs & Hc0).
+      assert (Hns : nc_slotted nc = false) by exact (PF_slot fl vm [] w j sid (nv nd) nc HL Hn Hcz (fsv_sids _ _ _ Hfs)).
+      pose proof (NodeOK_fin _ _ _ _ _ _ Hns Hinf HN) as HF.
+      destruct (fo_int _ _ _ _ _ _ _ _ HF i Hhd) as [Hm Hst]. destruct (Hst (fun F => F)) as (_ & k' & Hfk & Hsk).
+      split; [eapply LN_xs; [|exact HLN]; intros ? []|]. split; [exists (nv nd); auto|].
+      exists (nv nd). split; [exact Hn|]. split; [exact Hm|]. split; [right; eauto|]. intros _. left. reflexivity. }
+    intros ?. hK. hK. hind x1. hK.
+    eapply ht_bind.
+    { eapply ht_post; [apply ht_put_ind|]. intros ? w HI (w0 & HI0 & ((HL & HP & HK) & Hx1) & ->).
+      instantiate (1 := fun _ w => LN b fl vm [i] ej hs wx w /\ PF j S w /\ Lk j sid i w). cbn beta.
+      destruct Hx1 as [Hid1 Hf1].
+      match goal with |- context [wputi (iv ?y) _] => replace (iv y) with (i, (i_server x1, false)) by (rewrite <- Hid1; reflexivity) end.
+      split; [eapply LN_flag; [exact HL|left; reflexivity|exact Hf1]|]. split; [exact HP|].
+      destruct HK as [Hs Hn]. split; [|exact Hn]. rewrite isvv_wputi, Z.eqb_refl. unfold isvv in Hs. rewrite Hf1 in Hs. exact Hs. }
+    intros ?. hK. hK. hnode nd2. hlift l'.
+    eapply ht_post; [apply ht_put_node|]. intros ? w HI (w0 & HI0 & (((HLN & HP & HK) & Hcur) & Hrm) & ->).
+    pose proof (LN_LV _ _ _ _ _ _ _ _ HLN) as HL.
+    destruct Hcur as [Hid Hn]. destruct HK as [Hs (n & Hn' & Hsid)]. rewrite Hn in Hn'. injection Hn' as <-.
+    destruct HP as (n & Hn' & Hinf & HSv). rewrite Hn in Hn'. injection Hn' as <-.
+    destruct (LV_node _ _ _ _ _ _ HL Hn) as (k & nc & Hjk & Hk & Hc & Hcz & HN).
+    assert (Hns : nc_slotted nc = false) by exact (PF_slot fl vm [i] w0 j sid (nv nd2) nc HL Hn Hcz Hsid).
+    pose proof (NodeOK_fin _ _ _ _ _ _ Hns Hinf HN) as HF.
+    pose proof (Conserve2.remove_first_perm _ _ _ Hrm) as HPm. pose proof (remove_first_In _ _ _ Hrm) as Hin.
+    replace (nv (nd2 <| n_interrupted := l' |> <| n_nint := n_nint nd2 - 1 |>)) with (with_int (nv nd2) l') by reflexivity.
+    assert (HL1 : LN b fl vm [i] ej hs wx (wputn (with_int (nv nd2) l') w0)).
+    { eapply LN_int_g; [exact HLN|exact Hn|]. intros nc' Hc' HN'. eapply NodeOK_int_rm; [exact HPm|left; reflexivity|exact HN']. }
+    assert (Hn1 : wnode (wputn (with_int (nv nd2) l') w0) j = Some (with_int (nv nd2) l')) by (eapply wnode_wputn; eauto).
+    split.
+    - eapply LN_unexempt with (i := i); [exact HL1|exact Hn1| | | |].
+      + apply (fo_int _ _ _ _ _ _ _ _ HF i Hin).
+      + cbn. pose proof (fo_intnd _ _ _ _ _ _ _ _ HF) as HNd. cbn in HNd. eapply Permutation_NoDup in HNd; [|exact HPm]. inversion HNd; assumption.
+      + intros k' Hk'. rewrite isvv_wputn, Hs in Hk'. injection Hk' as <-. exact Hsid.
+      + intros i' [<-|[]]. left. reflexivity.
+    - exists (with_int (nv nd2) l'). split; [exact Hn1|]. split; [exact Hinf|]. exact HSv.
+  Qed.
+
+  Lemma PF_weak j S S' w : (forall s, In s S' -> In s S) -> PF j S w -> PF j S' w.
+  Proof. intros H (n & Hn & Hi & Hs). exists n. split; [exact Hn|]. split; [exact Hi|]. intros s Hs'. apply Hs, H, Hs'. Qed.
+
+  (* a customer that waits (records no server) at a node where server sid is present can be given a server *)
+  Lemma Cn_Wt fl vm w j sid c : LV fl vm [] w -> PF j [sid] w -> Cn j (Some c) w -> Wt vm [] j c w.
+  Proof.
+    intros HL (n & Hn & Hinf & HSv) (n' & Hn' & Hc & Hf). rewrite Hn in Hn'. injection Hn' as <-.
+    destruct (LV_node _ _ _ _ _ _ HL Hn) as (k & nc & Hjk & Hk & Hcf & Hcz & HN).
+    destruct (HSv sid (or_introl eq_refl)) as (t0 & Hfs & _).
+    assert (Hns : nc_slotted nc = false) by exact (PF_slot fl vm [] w j sid n nc HL Hn Hcz (fsv_sids _ _ _ Hfs)).
+    pose proof (NodeOK_fin _ _ _ _ _ _ Hns Hinf HN) as HF.
+    exists n. split; [exact Hn|]. split; [unfold memv; apply in_or_app; left; exact Hc|]. split; [left; exact Hf|].
+    intros Hin. destruct (fo_int _ _ _ _ _ _ _ _ HF c Hin) as [_ Hst]. destruct (Hst (fun F => F)) as (_ & k' & Hk' & _). congruence.
+  Qed.
+
+  (* nobody waits at node j *)
+  Lemma Cn_nowait j w k n wx : idxv w -> Cn j None w -> nth_error (w_ns w) k = Some n -> v_id n = j -> forall c, In c (mem n) -> ~ In c wx -> ~ waitv w c.
+  Proof.
+    intros HI (n' & Hn' & HC) Hk Hid c Hc _ (bb & Hw). pose proof (nth_wnode _ _ _ HI Hk) as Hn. rewrite Hid, Hn' in Hn. injection Hn as ->.
+    apply (HC c _ Hc Hw). reflexivity.
+  Qed.
+
+  Lemma ht_serve_with b fl vm ej hs wx j sid S : ~ In sid S ->
+    ht (fun w => LN b fl vm [] ej ((j, sid) :: hs) wx w /\ PF j (sid :: S) w) (serve_with cf j sid) (fun _ w => LN b fl vm [] ej hs wx w /\ PF j S w).
+  Proof.
+    intros HnS. unfold serve_with. hnode nd.
+    destruct (0 <? n_nint nd).
+    - eapply ht_pre; [|apply ht_biis; exact HnS]. intros w _ [H _]. exact H.
+    - eapply ht_bind; [apply ht_choose|intros cand]. destruct cand as [c|].
+      + eapply ht_post; [eapply ht_pre; [|apply (ht_start_give b fl vm [] ej hs wx j sid S c HnS)]|].
+        * intros w _ (((HL & HP) & _) & HC). split; [exact HL|]. split; [exact HP|].
+          eapply Cn_Wt; [exact (LN_LV _ _ _ _ _ _ _ _ HL)| |exact HC]. eapply PF_weak; [|exact HP]. intros s [<-|[]]. left. reflexivity.
+        * intros _ w _ (HL & HP & _). auto.
+      + eapply ht_post; [apply ht_ret|]. intros _ w HI ((((HL & HP) & _) & HC) & _). split.
+        * eapply LN_hole_drop; [exact HL|]. intros k n Hk Hid. right. eapply Cn_nowait; eauto.
+        * eapply PF_weak; [|exact HP]. intros s Hs. right. exact Hs.
+  Qed.
+
+  (* server sid, if it is (still) at node j, is idle *)
+  Definition FA (j sid : Z) (w : view) : Prop :=
+    exists n, wnode w j = Some n /\ v_inf n = false /\ forall t, fsv sid (v_srv n) = Some t -> s_cust t = None.
+  Definition hfree (j : Z) (freed : option Z) (hs : list (Z * Z)) : list (Z * Z) := match freed with Some sid => (j, sid) :: hs | None => hs end.
+
+  Lemma ht_bsip_release b fl vm ej hs wx j freed :
+    ht (fun w => LN b fl vm [] ej (hfree j freed hs) wx w /\ forall sid, freed = Some sid -> FA j sid w) (begin_service_if_possible_release cf j freed)
+       (fun _ w => LN b fl vm [] ej hs wx w).
+  Proof.
+    unfold begin_service_if_possible_release. destruct freed as [sid|]; cbn [hfree].
+    - hnode nd. destruct (find_server sid (n_servers nd)) as [sv|] eqn:Ef.
+      + eapply ht_post; [eapply ht_pre; [|apply (ht_serve_with b fl vm ej hs wx j sid [])]|]; [|intros []|intros _ w _ [H _]; exact H].
+        intros w _ ((HL & HF) & [Hid Hn]). split; [exact HL|]. destruct (HF sid eq_refl) as (n & Hn' & Hinf & Hfa).
+        rewrite Hn in Hn'. injection Hn' as <-. exists (nv nd). split; [exact Hn|]. split; [exact Hinf|].
+        intros s [<-|[]]. exists (sc sv). assert (Hfs : fsv sid (v_srv (nv nd)) = Some (sc sv)) by (cbn; rewrite fsv_find, Ef; reflexivity).
+        split; [exact Hfs|apply Hfa; exact Hfs].
+      + eapply ht_post; [apply ht_ret|]. intros _ w HI (((HL & _) & [Hid Hn]) & _).
+        eapply LN_hole_drop; [exact HL|]. intros k n Hk Hidn. left. intros t Ht Hts _. exfalso.
+        pose proof (nth_wnode _ _ _ HI Hk) as Hn'. rewrite Hidn, Hn in Hn'. injection Hn' as <-.
+        cbn in Ht. apply in_map_iff in Ht as (sv & <- & Hsv). cbn in Hts. apply (find_server_none_b0 _ _ Ef). rewrite <- Hts. apply in_map. exact Hsv.
+    - eapply ht_post; [apply ht_ret|]. intros _ w _ ((HL & _) & _). exact HL.
+  Qed.
+
+  (* ---------- the scope ---------- *)
+  Definition scope_nc (nc : ncfg) : bool :=
+    negb (nc_preempt nc =? 4) && (negb (cf_dyn cf) || (nc_preempt nc =? 0)) &&
+    match nc_srv nc with
+    | SSched sc => negb (sc_pre sc =? 4) && ((nc_preempt nc =? 0) || negb (sc_pre sc =? 0))
+    | SSlot sl => negb (sl_cap sl) || (sl_pre sl =? 0)
+    | SFixed => true
+    end.
+  Definition srv_scope : bool := forallb scope_nc (cf_nodes cf).
+  Lemma scope_at j nc : srv_scope = true -> nthZ (cf_nodes cf) (j - 1) = Some nc -> scope_nc nc = true.
+  Proof.
+    unfold srv_scope. intros H Hn. rewrite forallb_forall in H. apply H. unfold nthZ in Hn. destruct (j - 1 <? 0); [discriminate|].
+    eapply nth_error_In; eauto.
+  Qed.
+
+
+  (* ---------- further pure steps ---------- *)
+  Lemma ht_exit_accept b fl xs ej hs wx i c : ht (fun w => LN b (i :: fl) None xs ej hs wx w) (exit_accept i c) (fun _ w => LN b fl None xs ej hs wx w).
   Proof.
     eapply ht_vw with (F := fun w => mkVw (w_ns w) (w_ex w ++ [i]) (w_en w + 1) (w_cr w) (deliv i (w_is w))).
     - intros s a s' E _. unfold exit_accept, bind, del_ind, modify in E. injection E as _ <-. unfold VW. cbn. rewrite map_iv_del. reflexivity.
-    - intros _ w HI HL. split; [exact HI|apply LV_exit; exact HL].
+    - intros _ w HI [HL HN]. split; [exact HI|]. split; [apply LV_exit; exact HL|]. intros Hb.
+      eapply N_inds; [exact (HN Hb)|reflexivity|]. intros k n c0 Hk Hc0. cbn. apply fiv_deliv. intros ->.
+      destruct HL as (HW & _). eapply (W_fly _ w k n i HW); [left; reflexivity|exact Hk|exact Hc0].
   Qed.
 
   Definition NIa (j i : Z) (w : view) : Prop := forall n, wnode w j = Some n -> v_inf n = false -> ~ In i (v_int n).
 
   (* the first write of release / renege: customer i leaves its queue *)
-  Lemma rel_rm fl xs w0 j i nd p q q' nd1 :
-    LV fl None xs w0 -> cur j nd w0 -> nthZ (n_queues nd) p = Some q -> remove_first i q = Some q' ->
+  Lemma rel_rm b fl xs ej hs wx w0 j i nd p q q' nd1 :
+    LN b fl None xs ej hs wx w0 -> cur j nd w0 -> nthZ (n_queues nd) p = Some q -> remove_first i q = Some q' ->
     n_id nd1 = n_id nd -> n_pop nd1 = n_pop nd - 1 -> n_queues nd1 = updZ (n_queues nd) p q' -> n_servers nd1 = n_servers nd ->
     nd_inf nd1 = nd_inf nd -> n_highest nd1 = n_highest nd -> n_interrupted nd1 = n_interrupted nd ->
-    LV fl (Some (j, i)) xs (wputn (nv nd1) w0) /\ wnode (wputn (nv nd1) w0) j = Some (nv nd1) /\ In i (mem (nv nd)).
+    LN b fl (Some (j, i)) xs ej hs wx (wputn (nv nd1) w0) /\ wnode (wputn (nv nd1) w0) j = Some (nv nd1) /\ In i (mem (nv nd)).
   Proof.
-    intros HL [Hid Hn] Hq Hr E1 E2 E3 E4 E5 E6 E7. pose proof (LV_idx _ _ _ _ HL) as HI.
+    intros [HL HNI] [Hid Hn] Hq Hr E1 E2 E3 E4 E5 E6 E7. pose proof (LV_idx _ _ _ _ HL) as HI.
     destruct (wnode_nth _ _ _ Hn) as (k & Hjk & Hk). destruct (nthZ_nat _ _ _ Hq) as (kp & Hkp & Hqk).
     assert (HP : Permutation (mem (nv nd)) (i :: mem (nv nd1))).
     { unfold mem, nv. cbn [v_qs]. rewrite E3, Hkp, updZ_nat. symmetry. eapply Conserve2.concat_upd_rm; [exact Hqk|].
       apply Conserve2.remove_first_perm. exact Hr. }
+    assert (Es : v_srv (nv nd1) = v_srv (nv nd)) by (unfold nv; cbn; rewrite E4; reflexivity).
     split; [|split].
-    - replace j with (v_id (nv nd)) by exact Hid.
-      eapply LV_rm; [exact HL|exact Hk|cbn; exact E1|cbn; exact E2|exact HP|unfold nv; cbn; rewrite E4; reflexivity|cbn; exact E5|cbn; exact E6|cbn; exact E7].
+    - split.
+      + replace j with (v_id (nv nd)) by exact Hid.
+        eapply LV_rm; [exact HL|exact Hk|cbn; exact E1|cbn; exact E2|exact HP|exact Es|cbn; exact E5|cbn; exact E6|cbn; exact E7].
+      + intros Hb. eapply N_node; [exact HL|exact (HNI Hb)|exact Hk|cbn; exact E1|exact Es|cbn; exact E5|].
+        intros c Hc. eapply Permutation_in; [symmetry; exact HP|right; exact Hc].
     - eapply wnode_wputn; [exact HI|exact Hn|cbn; exact E1].
     - eapply Permutation_in; [symmetry; exact HP|left; reflexivity].
   Qed.
-
 
   (* ====================================================================================================================== *)
   (* Part 5.  The recursive core                                                                                          *)
@@ -1920,28 +2237,28 @@ Section Link.
   Definition VMj (j i : Z) (b : bool) (w : view) : Prop :=
     exists n, wnode w j = Some n /\ v_inf n = b /\ (v_inf n = false -> ~ In i (v_int n)) /\ In i (memv (Some (j, i)) n).
 
-  Lemma vm_to_fl fl xs w j i b : LV fl (Some (j, i)) xs w -> VMj j i b w -> isvv w i = None -> (forall a, In a xs -> a = i) ->
-    LV (i :: fl) None [] w.
+  Lemma vm_to_fl b fl xs ej hs wx w j i bi : LN b fl (Some (j, i)) xs ej hs wx w -> VMj j i bi w -> isvv w i = None -> (forall a, In a xs -> a = i) ->
+    LN b (i :: fl) None [] ej hs wx w.
   Proof.
-    intros HL (n & Hn & Hb & Hni & Hm) Hf Hx. pose proof (LV_idx _ _ _ _ HL) as HI.
+    intros [HL HNI] (n & Hn & Hb & Hni & Hm) Hf Hx. split; [|exact HNI]. pose proof (LV_idx _ _ _ _ HL) as HI.
     assert (H1 : LV (i :: fl) None xs w).
     { apply (LV_vm_fl fl xs w j i HL Hf). intros k n' Hk Hid Hinf. pose proof (nth_wnode _ _ _ HI Hk) as Hn'. rewrite Hid, Hn in Hn'. injection Hn' as <-. auto. }
     apply (LV_xs_fl (i :: fl) None xs w i (or_introl eq_refl)) in H1. eapply LV_xs; [|exact H1].
     intros a Ha. apply in_remove in Ha as [Ha Hne]. apply Hx in Ha. contradiction.
   Qed.
 
-  Lemma rel_step f :
-    (forall j i fl, ht (fun w => LV (i :: fl) None [] w) (accept cf f j i) (fun _ w => LV fl None [] w)) ->
-    (forall j fl, ht (fun w => LV fl None [] w) (release_blocked_individual cf f j) (fun _ w => LV fl None [] w)) ->
-    forall j i d rr fl xs, (forall a, In a xs -> a = i) ->
-      ht (fun w => LV fl None xs w /\ NIa j i w) (release cf (S f) j i d rr) (fun _ w => LV fl None [] w).
+  Lemma rel_step b f :
+    (forall j i fl, ht (fun w => LN b (i :: fl) None [] 0 [] [] w) (accept cf f j i) (fun _ w => LN b fl None [] 0 [] [] w)) ->
+    (forall j fl, ht (fun w => LN b fl None [] 0 [] [] w) (release_blocked_individual cf f j) (fun _ w => LN b fl None [] 0 [] [] w)) ->
+    forall j i d fl xs, (forall a, In a xs -> a = i) ->
+      ht (fun w => LN b fl None xs 0 [] [] w /\ NIa j i w) (release cf (S f) j i d false) (fun _ w => LN b fl None [] 0 [] [] w).
   Proof.
-    intros IHa IHb j i d rr fl xs Hxs. cbn [release].
+    intros IHa IHb j i d fl xs Hxs. cbn [release].
     hK. hind x. hnode nd. unfold ncfg_of. hliftc nc Hnc. hliftc q Hq. hliftc q' Hq'.
     set (nd1 := nd <| n_queues := updZ (n_queues nd) (i_pprio x) q' |> <| n_pop := n_pop nd - 1 |> <| n_insvc := n_insvc nd - 1 |>).
-    eapply ht_bind with (Q := fun _ w => LV fl (Some (j, i)) xs w /\ VMj j i (nd_inf nd) w /\ curi i x w).
+    eapply ht_bind with (Q := fun _ w => LN b fl (Some (j, i)) xs 0 [] [] w /\ VMj j i (nd_inf nd) w /\ curi i x w).
     { eapply ht_post; [apply ht_put_node|]. intros _ w _ (w0 & HI0 & (((HL & HNI) & Hx) & Hcur) & ->).
-      destruct (rel_rm fl xs w0 j i nd (i_pprio x) q q' nd1 HL Hcur Hq Hq') as (HL1 & Hn1 & Hmem); try reflexivity.
+      destruct (rel_rm b fl xs 0 [] [] w0 j i nd (i_pprio x) q q' nd1 HL Hcur Hq Hq') as (HL1 & Hn1 & Hmem); try reflexivity.
       split; [exact HL1|]. split; [|exact Hx].
       exists (nv nd1). split; [exact Hn1|]. split; [reflexivity|]. split.
       - intros Hinf. apply (HNI (nv nd)); [apply Hcur|exact Hinf].
@@ -1949,12 +2266,12 @@ Section Link.
     intros ?.
     eapply ht_bind; [eapply ht_KK with (K := fun w => oki w x); [pva|intros w Hw; apply (curi_oki i); apply Hw]|intros ?].
     hK.
-    eapply ht_bind with (Q := fun freed w => LV fl (Some (j, i)) xs w /\ VMj j i (nd_inf nd) w /\
+    eapply ht_bind with (Q := fun freed w => LN b fl (Some (j, i)) xs 0 (hfree j freed []) [] w /\ VMj j i (nd_inf nd) w /\
                               if negb (nd_inf nd) && negb (nc_slotted nc) then isvv w i = None /\ exists sid, freed = Some sid /\ FA j sid w else freed = None).
     { destruct (negb (nd_inf nd) && negb (nc_slotted nc)) eqn:Ek.
       - apply andb_true_iff in Ek as [Ek1 Ek2]. apply negb_true_iff in Ek1, Ek2.
         hind x1. hlift sid. eapply ht_bind; [apply ht_detach_sp|intros ?]. eapply ht_post; [apply ht_ret|].
-        intros fr w _ [(w0 & n & ob & HI0 & (((HL & HV & _) & Hx1) & Hsid) & Hn & Hob & ->) ->].
+        intros fr w _ [(w0 & n & ob & HI0 & (((HLN & HV & _) & Hx1) & Hsid) & Hn & Hob & ->) ->]. pose proof HLN as [HL HNI].
         destruct HV as (n' & Hn' & Hb & Hni & Hm). rewrite Hn in Hn'. injection Hn' as <-. rewrite Ek1 in Hb.
         assert (Hfi : isvv w0 i = Some sid) by (destruct Hx1 as [_ Hf]; unfold isvv; rewrite Hf; exact Hsid).
         destruct (LV_node _ _ _ _ _ _ HL Hn) as (k & nc' & Hjk & Hk & Hc & Hcz & HN).
@@ -1964,7 +2281,9 @@ Section Link.
         assert (Hn1 : wnode (wputi (i, (None, snd ob)) (wputn (detn sid n) w0)) j = Some (detn sid n))
           by (rewrite wnode_wputi; eapply wnode_wputn; eauto).
         split; [|split; [|split]].
-        + rewrite <- (detv_eq _ _ _ _ _ _ HI0 Hn Hob). eapply LV_detv; eauto.
+        + rewrite <- (detv_eq _ _ _ _ _ _ HI0 Hn Hob). cbn [hfree]. split; [eapply LV_detv; eauto|]. intros Hbb.
+          eapply N_detv; [exact HL|exact (HNI Hbb)|exact Hn|exact (fo_nd _ _ _ _ _ _ _ _ HF)|exact Hm|exact Hob|].
+          intros Him. exfalso. destruct HL as (HW & _). eapply (W_fly _ w0 k n i HW); [left; reflexivity|exact Hk|exact Him].
         + exists (detn sid n). split; [exact Hn1|]. split; [congruence|]. split; [rewrite D4, D6; exact Hni|].
           unfold memv, mem in *. rewrite D1, D3. exact Hm.
         + rewrite isvv_wputi, Z.eqb_refl. reflexivity.
@@ -1972,68 +2291,83 @@ Section Link.
           intros t'. apply detn_free. exact (fo_nd _ _ _ _ _ _ _ _ HF).
       - eapply ht_post; [apply ht_ret|]. intros fr w _ [(HL & HV & _) ->]. auto. }
     intros freed.
-    eapply ht_bind with (Q := fun _ w => LV (i :: fl) None [] w /\ forall sid, freed = Some sid -> FA j sid w).
+    eapply ht_bind with (Q := fun _ w => LN b (i :: fl) None [] 0 (hfree j freed []) [] w /\ forall sid, freed = Some sid -> FA j sid w).
     { destruct (nc_slotted nc) eqn:Esl.
       - unfold upd_ind. hind y. eapply ht_post; [apply ht_put_ind|].
-        intros _ w _ (w0 & HI0 & ((HL & HV & Hfr) & Hy) & ->).
-        rewrite andb_false_r in Hfr. subst freed. split; [|discriminate].
+        intros _ w _ (w0 & HI0 & ((HLN & HV & Hfr) & Hy) & ->). pose proof HLN as [HL HNI].
+        rewrite andb_false_r in Hfr. subst freed. split; [|discriminate]. cbn [hfree] in *.
         destruct HV as (n & Hn & Hb & Hni & Hm). destruct Hy as [Hyi Hyf].
         replace (iv (y <| i_server := None |>)) with (i, (None : option Z, i_interrupted y)) by (rewrite <- Hyi; reflexivity).
         destruct (LV_node _ _ _ _ _ _ HL Hn) as (k & nc' & Hjk & Hk & Hc & Hcz & HN).
-        assert (HL1 : LV fl (Some (j, i)) xs (wputi (i, (None, i_interrupted y)) w0)).
-        { rewrite <- (wputn_same n w0) at 1; [|rewrite (wnode_id _ _ _ HI0 Hn); unfold wnode in Hn; destruct (j <? 1); [discriminate|exact Hn]].
-          eapply LV_step_io; [exact HL|exact Hk|exact Hm|reflexivity..|].
-          intros nc2 Hc2 HN2. assert (nc2 = nc) by congruence. subst nc2. unfold NodeOK in *. unfold nc_slotted in Esl.
-          destruct (nc_srv nc); try discriminate. exact HN2. }
+        assert (HL1 : LN b fl (Some (j, i)) xs 0 [] [] (wputi (i, (None, i_interrupted y)) w0)).
+        { split.
+          - rewrite <- (wputn_same n w0) at 1; [|rewrite (wnode_id _ _ _ HI0 Hn); unfold wnode in Hn; destruct (j <? 1); [discriminate|exact Hn]].
+            eapply LV_step_io; [exact HL|exact Hk|exact Hm|reflexivity..|].
+            intros nc2 Hc2 HN2. assert (nc2 = nc) by congruence. subst nc2. unfold NodeOK in *. unfold nc_slotted in Esl.
+            destruct (nc_srv nc); try discriminate. exact HN2.
+          - intros Hbb. eapply N_inds; [exact (HNI Hbb)|reflexivity|]. intros k1 n1 c0 Hk1 Hc0. cbn. rewrite fiv_putiv. cbn.
+            destruct (i =? c0) eqn:E; [|reflexivity]. apply Z.eqb_eq in E. subst c0. exfalso.
+            destruct HL as (HW & _). eapply (W_fly _ w0 k1 n1 i HW); [left; reflexivity|exact Hk1|exact Hc0]. }
         eapply vm_to_fl; [exact HL1| |rewrite isvv_wputi, Z.eqb_refl; reflexivity|exact Hxs].
-        exists n. split; [rewrite wnode_wputi; exact Hn|]. auto.
-      - eapply ht_post; [apply ht_ret|]. intros _ w _ [(HL & HV & Hfr) _]. rewrite andb_true_r in Hfr.
+        exists n. split; [rewrite wnode_wputi; exact Hn|]. eauto.
+      - eapply ht_post; [apply ht_ret|]. intros _ w _ [(HLN & HV & Hfr) _]. pose proof HLN as [HL HNI]. rewrite andb_true_r in Hfr.
         destruct (nd_inf nd) eqn:Einf; cbn [negb] in Hfr.
         + subst freed. split; [|discriminate]. destruct HV as (n & Hn & Hb & Hni & Hm).
           destruct (LV_node _ _ _ _ _ _ HL Hn) as (k & nc' & Hjk & Hk & Hc & Hcz & HN).
-          eapply vm_to_fl; [exact HL|exists n; eauto| |exact Hxs].
+          eapply vm_to_fl; [exact HLN|exists n; eauto| |exact Hxs].
           unfold NodeOK in HN. rewrite Hb in HN. destruct (nc_srv nc') eqn:Esrv; [apply HN; exact Hm|destruct HN; discriminate|].
           assert (nc' = nc) by congruence. subst nc'. unfold nc_slotted in Esl. rewrite Esrv in Esl. discriminate.
         + destruct Hfr as (Hf & sid & -> & HFA). split; [eapply vm_to_fl; eauto|]. intros sid' E. injection E as <-. exact HFA. }
     intros ?.
     hK.
-    eapply ht_bind with (Q := fun _ w => LV (i :: fl) None [] w).
-    { destruct rr.
-      - eapply ht_post; [apply ht_ret|]. intros _ w _ [[HL _] _]. exact HL.
-      - apply ht_bsip_release. }
+    eapply ht_bind with (Q := fun _ w => LN b (i :: fl) None [] 0 [] [] w).
+    { apply ht_bsip_release. }
     intros ?.
-    eapply ht_bind with (Q := fun _ w => LV fl None [] w).
+    eapply ht_bind with (Q := fun _ w => LN b fl None [] 0 [] [] w).
     { destruct (d =? -1); [apply ht_exit_accept|apply IHa]. }
-    intros ?.
-    destruct rr; [eapply ht_post; [apply ht_ret|]; intros _ w _ [HL _]; exact HL|apply IHb].
+    intros ?. apply IHb.
   Qed.
 
+  Lemma LN_wx_nw b fl vm xs ej hs wx w i : LN b fl vm xs ej hs (i :: wx) w -> ~ waitv w i -> LN b fl vm xs ej hs wx w.
+  Proof.
+    intros [HL HN] Hnw. split; [exact HL|]. intros Hb k n nc Hk Hc Hs Hi He (c & Hc1 & Hc2 & Hc3) t Ht Ho Hnh.
+    refine (HN Hb k n nc Hk Hc Hs Hi He _ t Ht Ho Hnh). exists c. split; [exact Hc1|]. split; [|exact Hc3].
+    intros [F|F]; [subst c; contradiction|contradiction].
+  Qed.
+  Lemma LN_wx_drop b fl vm xs ej hs wx w j n i : LN b fl vm xs ej hs (i :: wx) w -> wnode w j = Some n -> In i (mem n) ->
+    (b = true -> waitv w i -> v_inf n = false -> (forall nc, nthZ (cf_nodes cf) (j - 1) = Some nc -> nc_slotted nc = false) ->
+       forall t, In t (v_srv n) -> s_off t = false -> ~ In (j, s_id t) hs -> s_busy t = true) ->
+    LN b fl vm xs ej hs wx w.
+  Proof. intros [HL HN] Hn Hi Hb. split; [exact HL|]. intros Hbb. eapply N_wx_drop; eauto. Qed.
+  Lemma isvv_waitv w c : waitv w c -> isvv w c = None.
+  Proof. intros (bb & H). unfold isvv. rewrite H. reflexivity. Qed.
+
   (* release_blocked_individual *)
-  Lemma rbi_step f :
-    (forall j i d rr fl xs, (forall a, In a xs -> a = i) ->
-       ht (fun w => LV fl None xs w /\ NIa j i w) (release cf f j i d rr) (fun _ w => LV fl None [] w)) ->
-    forall j fl, ht (fun w => LV fl None [] w) (release_blocked_individual cf (S f) j) (fun _ w => LV fl None [] w).
+  Lemma rbi_step b f :
+    (forall j i d fl xs, (forall a, In a xs -> a = i) ->
+       ht (fun w => LN b fl None xs 0 [] [] w /\ NIa j i w) (release cf f j i d false) (fun _ w => LN b fl None [] 0 [] [] w)) ->
+    forall j fl, ht (fun w => LN b fl None [] 0 [] [] w) (release_blocked_individual cf (S f) j) (fun _ w => LN b fl None [] 0 [] [] w).
   Proof.
     intros IHr j fl. cbn [release_blocked_individual].
     hnode nd. hK.
-    match goal with |- ht _ (if ?b then _ else _) _ => destruct b end; [|eapply ht_post; [apply ht_ret|]; intros _ w _ [[HL _] _]; exact HL].
+    match goal with |- ht _ (if ?c then _ else _) _ => destruct c end; [|eapply ht_post; [apply ht_ret|]; intros _ w _ [[HL _] _]; exact HL].
     destruct (n_bq nd) as [|[from y] rest]; [apply ht_fail|].
     hnode fnd. hK.
     eapply ht_bind; [eapply ht_KK with (K := fun w => okn w nd); [pva|intros w Hw; apply (cur_okn j); apply Hw]|intros ?].
     hind yx.
-    eapply ht_bind with (Q := fun _ w => LV fl None (if i_interrupted yx then [y] else []) w /\ NIa from y w).
+    eapply ht_bind with (Q := fun _ w => LN b fl None (if i_interrupted yx then [y] else []) 0 [] [] w /\ NIa from y w).
     { destruct (i_interrupted yx) eqn:Eint.
       - hliftc os Hos. hliftc ot Hot.
-        eapply ht_bind with (Q := fun _ w => LV fl None [y] w).
+        eapply ht_bind with (Q := fun _ w => LN b fl None [y] 0 [] [] w).
         { eapply ht_post; [apply ht_put_ind|]. intros _ w _ (w0 & HI0 & (((HL & _) & _) & [Hyi Hyf]) & ->).
           match goal with |- context [wputi (iv ?z) _] => replace (iv z) with (y, (i_server yx, false)) by (rewrite <- Hyi; reflexivity) end.
-          eapply LV_flag; [eapply LV_xs; [|exact HL]; intros ? []|left; reflexivity|exact Hyf]. }
+          eapply LN_flag; [eapply LN_xs; [|exact HL]; intros ? []|left; reflexivity|exact Hyf]. }
         intros ?. hnode fnd2. hliftc l' Hl'.
-        eapply ht_post; [apply ht_put_node|]. intros _ w _ (w0 & HI0 & (HL & [Hid Hn]) & ->).
+        eapply ht_post; [apply ht_put_node|]. intros _ w _ (w0 & HI0 & (HLN & [Hid Hn]) & ->). pose proof (LN_LV _ _ _ _ _ _ _ _ HLN) as HL.
         replace (nv (fnd2 <| n_interrupted := l' |> <| n_nint := n_nint fnd2 - 1 |>)) with (with_int (nv fnd2) l') by reflexivity.
         pose proof (Conserve2.remove_first_perm _ _ _ Hl') as HPm.
         split.
-        + eapply LV_int_g; [exact HL|exact Hn|]. intros nc Hc HN. eapply NodeOK_int_rm; [exact HPm|left; reflexivity|exact HN].
+        + eapply LN_int_g; [exact HLN|exact Hn|]. intros nc Hc HN. eapply NodeOK_int_rm; [exact HPm|left; reflexivity|exact HN].
         + intros n Hn' Hinf. rewrite (wnode_wputn w0 from (nv fnd2) (with_int (nv fnd2) l') HI0 Hn eq_refl) in Hn'. injection Hn' as <-. cbn [with_int v_int].
           destruct (LV_node _ _ _ _ _ _ HL Hn) as (k & nc & Hjk & Hk & Hc & Hcz & HN).
           assert (HNd : NoDup (n_interrupted fnd2)).
@@ -2041,7 +2375,7 @@ Section Link.
             destruct (nc_srv nc); [exact (fo_intnd _ _ _ _ _ _ _ _ HN)|exact (fo_intnd _ _ _ _ _ _ _ _ (proj2 HN))|].
             destruct HN as [E _]. cbn in E. rewrite E in HPm. apply Permutation_nil in HPm. discriminate. }
           eapply Permutation_NoDup in HNd; [|exact HPm]. inversion HNd; assumption.
-      - eapply ht_post; [apply ht_ret|]. intros _ w _ [(((HL & _) & _) & [Hyi Hyf]) _]. split; [exact HL|].
+      - eapply ht_post; [apply ht_ret|]. intros _ w _ [(((HLN & _) & _) & [Hyi Hyf]) _]. split; [exact HLN|]. pose proof (LN_LV _ _ _ _ _ _ _ _ HLN) as HL.
         intros n Hn Hinf Hin. destruct (LV_node _ _ _ _ _ _ HL Hn) as (k & nc & Hjk & Hk & Hc & Hcz & HN).
         unfold NodeOK in HN. rewrite Hinf in HN.
         assert (HFin : FinOK (nc_preempt nc) [] (memv None n) (v_srv n) (v_hi n) (v_int n) (isvv w) (iflag w)).
@@ -2049,7 +2383,7 @@ Section Link.
         destruct (fo_int _ _ _ _ _ _ _ _ HFin y Hin) as [_ Hst]. destruct (Hst (fun F => F)) as (Hg & _).
         unfold iflag in Hg. rewrite Hyf in Hg. cbn in Hg. congruence. }
     intros ?.
-    eapply ht_pre; [|apply (IHr from y j false fl (if i_interrupted yx then [y] else []))].
+    eapply ht_pre; [|apply (IHr from y j fl (if i_interrupted yx then [y] else []))].
     - intros w _ H. exact H.
     - intros z Hz. destruct (i_interrupted yx); [destruct Hz as [<-|[]]; reflexivity|destruct Hz].
   Qed.
@@ -2057,26 +2391,28 @@ Section Link.
   (* preempt (options resume / restart / resample): the victim gives its server to the pre-emptor *)
   Definition PreOK (j v i : Z) (w : view) : Prop :=
     (exists nc, nthZ (cf_nodes cf) (j - 1) = Some nc /\ nc_preempt nc <> 0) /\
-    exists n t, wnode w j = Some n /\ v_inf n = false /\ In t (v_srv n) /\ s_cust t = Some v /\ In i (mem n) /\ isvv w i = None.
+    exists n t, wnode w j = Some n /\ v_inf n = false /\ In t (v_srv n) /\ s_cust t = Some v /\ In i (mem n) /\ isvv w i = None /\
+                forall t', In t' (v_srv n) -> s_busy t' = true.
 
-  Lemma pre_step f : forall j v i fl,
-    ht (fun w => LV fl None [] w /\ PreOK j v i w) (preempt cf (S f) j v i) (fun _ w => LV fl None [] w).
+  Lemma pre_step b f : forall j v i fl wx,
+    ht (fun w => LN b fl None [] 0 [] wx w /\ PreOK j v i w) (preempt cf (S f) j v i)
+       (fun _ w => LN b fl None [] 0 [] wx w /\ exists sid, isvv w i = Some sid).
   Proof.
-    intros j v i fl. cbn [preempt].
+    intros j v i fl wx. cbn [preempt].
     hK. hind vx. unfold ncfg_of. hliftc nc Hnc.
     eapply ht_bind; [eapply ht_KK with (K := fun w => oki w vx); [pva|intros w Hw; apply (curi_oki v); apply Hw]|intros ?].
     assert (Hp4 : nc_preempt nc =? 4 = false).
     { pose proof (scope_at j nc HS Hnc) as Hsc. unfold scope_nc in Hsc. apply andb_true_iff in Hsc as [Hsc _]. apply andb_true_iff in Hsc as [Hsc _].
       apply negb_true_iff in Hsc. exact Hsc. }
     rewrite Hp4.
-    eapply ht_bind with (Q := fun _ w => exists sid, i_server vx = Some sid /\ LV fl None [] w /\ PF j [sid] w /\ Wt None [] j i w).
+    eapply ht_bind with (Q := fun _ w => exists sid, i_server vx = Some sid /\ LN b fl None [] 0 [(j, sid)] wx w /\ PF j [sid] w /\ Wt None [] j i w).
     { hK. hK. hliftc sid Hsid. eapply ht_bind; [apply ht_detach_sp|intros ?].
       eapply ht_post; [apply ht_K; pva|].
-      intros _ w _ (w0 & n & ob & HI0 & ((HL & HPre) & [Hvi Hvf]) & Hn & Hob & ->).
-      destruct HPre as ((nc' & Hnc' & Hpre) & n' & t & Hn' & Hinf & Ht & Htc & Him & Hif). rewrite Hn in Hn'. injection Hn' as <-.
+      intros _ w _ (w0 & n & ob & HI0 & ((HLN & HPre) & [Hvi Hvf]) & Hn & Hob & ->). pose proof HLN as [HL HNI].
+      destruct HPre as ((nc' & Hnc' & Hpre) & n' & t & Hn' & Hinf & Ht & Htc & Him & Hif & Hbusy). rewrite Hn in Hn'. injection Hn' as <-.
       assert (nc' = nc) by congruence. subst nc'.
       destruct (LV_node _ _ _ _ _ _ HL Hn) as (k & nc' & Hjk & Hk & Hc & Hcz & HN). assert (nc' = nc) by congruence. subst nc'.
-      assert (Hns : nc_slotted nc = false) by (eapply PF_slot; eauto; apply in_map; exact Ht).
+      assert (Hns : nc_slotted nc = false) by exact (PF_slot fl None [] w0 j (s_id t) n nc HL Hn Hcz (in_map s_id _ _ Ht)).
       pose proof (NodeOK_fin _ _ _ _ _ _ Hns Hinf HN) as HF.
       destruct (fo_cust _ _ _ _ _ _ _ _ HF t v Ht Htc) as [Hvm Hvs].
       assert (Esid : s_id t = sid) by (unfold isvv in Hvs; rewrite Hvf in Hvs; cbn in Hvs; congruence).
@@ -2091,67 +2427,122 @@ Section Link.
       assert (Hn1 : wnode (wputi (v, (None, snd ob)) (wputn (detn sid n) w0)) j = Some (detn sid n))
         by (rewrite wnode_wputi; eapply wnode_wputn; eauto).
       exists sid. split; [exact Hsid|]. split; [|split].
-      - rewrite <- (detv_eq _ _ _ _ _ _ HI0 Hn Hob). eapply LV_detv; eauto. rewrite Hvs, Esid. reflexivity.
+      - rewrite <- (detv_eq _ _ _ _ _ _ HI0 Hn Hob). split; [eapply LV_detv; eauto; rewrite Hvs, Esid; reflexivity|].
+        intros Hbb. eapply N_detv; [exact HL|exact (HNI Hbb)|exact Hn|exact (fo_nd _ _ _ _ _ _ _ _ HF)|exact Hvm|exact Hob|]. intros _. exact Hbusy.
       - exists (detn sid n). split; [exact Hn1|]. split; [congruence|]. intros s [<-|[]]. eexists. split; [exact P1|reflexivity].
       - exists (detn sid n). split; [exact Hn1|]. split; [unfold memv, mem; rewrite D3; apply in_or_app; left; exact Him|].
         split; [|rewrite D6; intros F; contradiction]. left. rewrite isvv_wputi. destruct (v =? i); [reflexivity|exact Hif]. }
     intros ?. hliftc sid Hsid.
-    eapply ht_post; [eapply ht_pre; [|apply (ht_start_preemptor fl None [] j sid [] i)]|]; [|intros []|intros _ w _ [HL _]; exact HL].
-    intros w _ (sid' & Hs' & HL & HP & HW). assert (sid' = sid) by congruence. subst sid'. auto.
+    eapply ht_post; [eapply ht_pre; [|apply (ht_start_preemptor b fl None [] 0 [] wx j sid [] i)]|]; [|intros []|].
+    - intros w _ (sid' & Hs' & HL & HP & HW). assert (sid' = sid) by congruence. subst sid'. auto.
+    - intros _ w _ (HL & _ & [Hlk _]). split; [exact HL|eauto].
   Qed.
 
   (* accept *)
-  Lemma acc_step f :
-    (forall j v i fl, ht (fun w => LV fl None [] w /\ PreOK j v i w) (preempt cf f j v i) (fun _ w => LV fl None [] w)) ->
-    forall j i fl, ht (fun w => LV (i :: fl) None [] w) (accept cf (S f) j i) (fun _ w => LV fl None [] w).
+  Definition Mi (j i : Z) (w : view) : Prop := exists n, wnode w j = Some n /\ In i (mem n).
+
+  Lemma acc_step b f :
+    (forall j v i fl wx, ht (fun w => LN b fl None [] 0 [] wx w /\ PreOK j v i w) (preempt cf f j v i)
+                            (fun _ w => LN b fl None [] 0 [] wx w /\ exists sid, isvv w i = Some sid)) ->
+    forall j i fl, ht (fun w => LN b (i :: fl) None [] 0 [] [] w) (accept cf (S f) j i) (fun _ w => LN b fl None [] 0 [] [] w).
   Proof.
     intros IHp j i fl. cbn [accept].
     hind x. hnode nd.
     eapply ht_bind; [eapply ht_KK with (K := fun w => oki w x); [pva|intros w Hw; apply (curi_oki i); apply Hw]|intros ?].
     hliftc qs Hqs.
-    eapply ht_bind with (Q := fun _ w => LV fl None [] w).
-    { eapply ht_post; [apply ht_put_node|]. intros _ w _ (w0 & HI0 & ((HL & Hx) & [Hid Hn]) & ->).
+    eapply ht_bind with (Q := fun _ w => LN b fl None [] 0 [] [i] w /\ Mi j i w).
+    { eapply ht_post; [apply ht_put_node|]. intros _ w _ (w0 & HI0 & (([HL HNI] & Hx) & [Hid Hn]) & ->).
       destruct (nthZ (n_queues nd) (i_prio x)) as [q|] eqn:Eq; [|discriminate]. injection Hqs as <-.
       destruct (wnode_nth _ _ _ Hn) as (k & Hjk & Hk). destruct (nthZ_nat _ _ _ Eq) as (kp & Hkp & Hqk).
-      eapply LV_add; [exact HL|exact Hk|reflexivity|reflexivity| |reflexivity..].
-      unfold mem, nv. cbn [v_qs]. replace (n_queues (nd <| n_queues := updZ (n_queues nd) (i_prio x) (q ++ [i]) |> <| n_pop := n_pop nd + 1 |>))
-        with (updZ (n_queues nd) (i_prio x) (q ++ [i])) by reflexivity.
-      rewrite Hkp, updZ_nat. eapply Conserve2.concat_upd_add; [exact Hqk|]. rewrite Permutation_app_comm. reflexivity. }
+      set (nd' := nd <| n_queues := updZ (n_queues nd) (i_prio x) (q ++ [i]) |> <| n_pop := n_pop nd + 1 |>).
+      assert (HP : Permutation (mem (nv nd')) (i :: mem (nv nd))).
+      { unfold mem, nv. cbn [v_qs]. replace (n_queues nd') with (updZ (n_queues nd) (i_prio x) (q ++ [i])) by reflexivity.
+        rewrite Hkp, updZ_nat. eapply Conserve2.concat_upd_add; [exact Hqk|]. rewrite Permutation_app_comm. reflexivity. }
+      split; [split|].
+      - eapply LV_add; [exact HL|exact Hk|reflexivity|reflexivity|exact HP|reflexivity..].
+      - intros Hb. eapply N_add; [exact HL|exact (HNI Hb)|exact Hk|reflexivity..|].
+        intros c Hc. eapply Permutation_in in Hc; [|exact HP]. destruct Hc as [<-|Hc]; auto.
+      - exists (nv nd'). split; [eapply wnode_wputn; eauto|]. eapply Permutation_in; [symmetry; exact HP|left; reflexivity]. }
     intros ?. hK. hK. unfold ncfg_of. hliftc nc Hnc. hK. hK. hnode nd1.
-    eapply ht_bind with (Q := fun cand w => (LV fl None [] w /\ cur j nd1 w) /\ (nd_inf nd1 = false -> Cn j cand w)).
+    eapply ht_bind with (Q := fun cand w => ((LN b fl None [] 0 [] [i] w /\ Mi j i w) /\ cur j nd1 w) /\ (nd_inf nd1 = false -> Cn j cand w)).
     { destruct (nd_inf nd1).
       - eapply ht_post; [apply ht_ret|]. intros c w _ [H _]. split; [exact H|discriminate].
       - eapply ht_post; [apply ht_choose|]. intros c w _ [H HC]. auto. }
-    intros cand. destruct cand as [c|]; [|eapply ht_post; [apply ht_ret|]; intros _ w _ [[[HL _] _] _]; exact HL].
-    destruct (nd_inf nd1) eqn:Einf; [eapply ht_post; [hk|]; intros _ w _ [[HL _] _]; exact HL|].
+    intros cand.
+    assert (Hdrop_inf : forall w, nd_inf nd1 = true -> (LN b fl None [] 0 [] [i] w /\ Mi j i w) /\ cur j nd1 w -> LN b fl None [] 0 [] [] w).
+    { intros w Einf ((HL & (n & Hn & Hi)) & [Hid Hn1]). rewrite Hn1 in Hn. injection Hn as <-.
+      eapply LN_wx_drop; [exact HL|exact Hn1|exact Hi|]. intros _ _ F. change (v_inf (nv nd1)) with (nd_inf nd1) in F. congruence. }
+    destruct cand as [c|].
+    2:{ eapply ht_post; [apply ht_ret|]. intros _ w _ [[H HC] _]. destruct (nd_inf nd1) eqn:Einf; [apply Hdrop_inf; auto|].
+        destruct H as ((HL & (n & Hn & Hi)) & [Hid Hn1]). specialize (HC eq_refl). destruct HC as (n' & Hn' & HC). rewrite Hn in Hn'. injection Hn' as <-.
+        eapply LN_wx_drop; [exact HL|exact Hn|exact Hi|]. intros _ (bb & Hw) _ _. exfalso. exact (HC i _ Hi Hw eq_refl). }
+    destruct (nd_inf nd1) eqn:Einf; [eapply ht_post; [hk|]; intros _ w _ [H _]; apply Hdrop_inf; auto|].
     hind cx.
+    (* every server on duty is busy, if somebody other than i waits *)
+    assert (Hother : forall w, c <> i -> ((LN b fl None [] 0 [] [i] w /\ Mi j i w) /\ cur j nd1 w) /\ (false = false -> Cn j (Some c) w) -> b = true ->
+              forall n, wnode w j = Some n -> forall t, In t (v_srv n) -> s_off t = false -> s_busy t = true).
+    { intros w Hne ((([HL HNI] & _) & [Hid Hn1]) & HC) Hb n Hn t Ht Ho. specialize (HC eq_refl). destruct HC as (n' & Hn' & Hcm & Hcf).
+      rewrite Hn1 in Hn, Hn'. injection Hn as <-. injection Hn' as <-.
+      destruct (LV_node _ _ _ _ _ _ HL Hn1) as (k & nc' & Hjk & Hk & Hc & Hcz & HN).
+      assert (Hns : nc_slotted nc' = false) by exact (PF_slot fl None [] w j (s_id t) (nv nd1) nc' HL Hn1 Hcz (in_map s_id _ _ Ht)).
+      destruct (fiv_some c (w_is w) (memv_rec _ _ _ _ _ _ _ HL Hk (mem_memv None _ _ Hcm))) as ([o bb] & Hob).
+      assert (o = None) by (unfold isvv in Hcf; rewrite Hob in Hcf; exact Hcf). subst o.
+      refine (HNI Hb k (nv nd1) nc' Hk Hc Hns Einf _ _ t Ht Ho (fun F => F)).
+      - rewrite (LV_idx _ _ _ _ HL _ _ Hk). lia.
+      - exists c. split; [exact Hcm|]. split; [intros [F|[]]; congruence|]. exists bb. exact Hob. }
     destruct (find_free_server_for (nc_spf nc) (i_cls cx) (n_servers nd1)) as [sv|] eqn:Efree.
     - apply find_free_server_for_In in Efree as [Hsv Hbusy].
-      eapply ht_post; [eapply ht_pre; [|apply (ht_start_fresh fl None [] j (sv_id sv) [] c true)]|]; [|intros []|intros _ w _ [HL _]; exact HL].
-      intros w _ (((HL & [Hid Hn]) & HC) & _). specialize (HC eq_refl).
-      destruct (LV_node _ _ _ _ _ _ HL Hn) as (k & nc' & Hjk & Hk & Hc & Hcz & HN).
-      assert (Hin : In (sc sv) (v_srv (nv nd1))) by (cbn; apply in_map; exact Hsv).
-      assert (Hns : nc_slotted nc' = false) by (eapply PF_slot; eauto; apply (in_map s_id _ _ Hin)).
-      pose proof (NodeOK_fin nc' None [] (nv nd1) _ _ Hns Einf HN) as HF.
-      assert (HPF : PF j [sv_id sv] w).
-      { exists (nv nd1). split; [exact Hn|]. split; [exact Einf|]. intros s [<-|[]]. exists (sc sv).
-        split; [apply fsv_In; [exact (fo_nd _ _ _ _ _ _ _ _ HF)|exact Hin|reflexivity]|].
-        pose proof (fo_busy _ _ _ _ _ _ _ _ HF _ Hin) as Hb. cbn in Hb. rewrite Hbusy in Hb. cbn. destruct (sv_cust sv); [discriminate|reflexivity]. }
-      split; [exact HL|]. split; [exact HPF|]. eapply Cn_Wt; eauto.
-    - destruct (0 <? numo (n_c nd1)); [|eapply ht_post; [apply ht_ret|]; intros _ w _ [[[[HL _] _] _] _]; exact HL].
-      eapply ht_bind; [apply ht_preempt_victim|intros v]. destruct v as [vi|]; [|eapply ht_post; [apply ht_ret|]; intros _ w _ [[[[[HL _] _] _] _] _]; exact HL].
-      eapply ht_pre; [|apply IHp]. intros w _ ((((HL & [Hid Hn]) & HC) & _) & HV). specialize (HC eq_refl).
-      destruct (HV vi eq_refl) as (Hcfg & n & t & Hn' & Ht & Htc). rewrite Hn in Hn'. injection Hn' as <-.
-      destruct HC as (n' & Hn' & Hcm & Hcf). rewrite Hn in Hn'. injection Hn' as <-.
-      split; [exact HL|]. split; [exact Hcfg|]. exists (nv nd1), t. auto 10.
+      assert (Hrdy : forall w, LV fl None [] w -> cur j nd1 w -> Cn j (Some c) w -> PF j [sv_id sv] w /\ Wt None [] j c w).
+      { intros w HL [Hid Hn] HC.
+        destruct (LV_node _ _ _ _ _ _ HL Hn) as (k & nc' & Hjk & Hk & Hc & Hcz & HN).
+        assert (Hin : In (sc sv) (v_srv (nv nd1))) by (cbn; apply in_map; exact Hsv).
+        assert (Hns : nc_slotted nc' = false) by exact (PF_slot fl None [] w j (sv_id sv) (nv nd1) nc' HL Hn Hcz (in_map s_id _ _ Hin)).
+        pose proof (NodeOK_fin nc' None [] (nv nd1) _ _ Hns Einf HN) as HF.
+        assert (HPF : PF j [sv_id sv] w).
+        { exists (nv nd1). split; [exact Hn|]. split; [exact Einf|]. intros s [<-|[]]. exists (sc sv).
+          split; [apply fsv_In; [exact (fo_nd _ _ _ _ _ _ _ _ HF)|exact Hin|reflexivity]|].
+          pose proof (fo_busy _ _ _ _ _ _ _ _ HF _ Hin) as Hb. cbn in Hb. rewrite Hbusy in Hb. cbn. destruct (sv_cust sv); [discriminate|reflexivity]. }
+        split; [exact HPF|]. eapply Cn_Wt; eauto. }
+      destruct (Z.eq_dec c i) as [->|Hne].
+      + eapply ht_post; [eapply ht_pre; [|apply (ht_start_fresh b fl None [] 0 [] [i] j (sv_id sv) [] i true)]|]; [|intros []|].
+        * intros w _ (((([HL HNI] & HM) & Hcur) & HC) & _). specialize (HC eq_refl).
+          destruct (Hrdy w HL Hcur HC) as [H1 H2]. split; [|auto]. split; [exact HL|]. intros Hb. eapply N_mono; [| |exact (HNI Hb)]; [intros h []|auto].
+        * intros _ w _ (HL & _ & [Hlk _]). eapply LN_wx_nw; [exact HL|]. intros Hw. apply isvv_waitv in Hw. congruence.
+      + eapply ht_post; [eapply ht_pre; [|apply (ht_start_fresh b fl None [] 0 [] [] j (sv_id sv) [] c true)]|]; [|intros []|intros _ w _ [HL _]; exact HL].
+        intros w _ (H & _). pose proof H as (((HLN & (n & Hn & Hi)) & Hcur) & HC). specialize (HC eq_refl).
+        assert (HLN' : LN b fl None [] 0 [(j, sv_id sv)] [] w).
+        { assert (HLN0 : LN b fl None [] 0 [(j, sv_id sv)] [i] w) by (eapply LN_mono; [| |exact HLN]; [intros h []|intros c0 Hc0; exact Hc0]).
+          eapply LN_wx_drop; [exact HLN0|exact Hn|exact Hi|].
+          intros Hb _ _ _ t Ht Ho _. eapply (Hother w Hne); eauto. }
+        destruct (Hrdy w (LN_LV _ _ _ _ _ _ _ _ HLN') Hcur HC) as [H1 H2]. auto.
+    - pose proof (find_free_server_for_none _ _ _ Efree) as Hall.
+      assert (Hallv : forall w n, cur j nd1 w -> wnode w j = Some n -> forall t, In t (v_srv n) -> s_busy t = true).
+      { intros w n [_ Hn1] Hn t Ht. rewrite Hn1 in Hn. injection Hn as <-. cbn in Ht. apply in_map_iff in Ht as (sv & <- & Hsv). cbn. apply Hall. exact Hsv. }
+      assert (Hdrop : forall w, (LN b fl None [] 0 [] [i] w /\ Mi j i w) /\ cur j nd1 w -> LN b fl None [] 0 [] [] w).
+      { intros w ((HL & (n & Hn & Hi)) & Hcur). eapply LN_wx_drop; [exact HL|exact Hn|exact Hi|]. intros _ _ _ _ t Ht _ _. eapply Hallv; eauto. }
+      destruct (0 <? numo (n_c nd1)); [|eapply ht_post; [apply ht_ret|]; intros _ w _ [[[H _] _] _]; apply Hdrop; exact H].
+      eapply ht_bind; [apply ht_preempt_victim|intros v]. destruct v as [vi|]; [|eapply ht_post; [apply ht_ret|]; intros _ w _ [[[[H _] _] _] _]; apply Hdrop; exact H].
+      assert (Hpre : forall w, (((LN b fl None [] 0 [] [i] w /\ Mi j i w) /\ cur j nd1 w) /\ (false = false -> Cn j (Some c) w)) /\ curi c cx w -> Vc j (Some vi) w -> PreOK j vi c w).
+      { intros w (((HLM & Hcur) & HC) & _) HV. specialize (HC eq_refl). pose proof Hcur as [Hid Hn].
+        destruct (HV vi eq_refl) as (Hcfg & n & t & Hn' & Ht & Htc). rewrite Hn in Hn'. injection Hn' as <-.
+        destruct HC as (n' & Hn' & Hcm & Hcf). rewrite Hn in Hn'. injection Hn' as <-.
+        split; [exact Hcfg|]. exists (nv nd1), t. split; [exact Hn|]. split; [exact Einf|]. split; [exact Ht|]. split; [exact Htc|]. split; [exact Hcm|].
+        split; [exact Hcf|]. eapply Hallv; eauto. }
+      destruct (Z.eq_dec c i) as [->|Hne].
+      + eapply ht_post; [eapply ht_pre; [|apply (IHp j vi i fl [i])]|].
+        * intros w _ [H HV]. split; [apply H|apply Hpre; assumption].
+        * intros _ w _ [HL (sid & Hs)]. eapply LN_wx_nw; [exact HL|]. intros Hw. apply isvv_waitv in Hw. congruence.
+      + eapply ht_post; [eapply ht_pre; [|apply (IHp j vi c fl [])]|]; [|intros _ w _ [HL _]; exact HL].
+        intros w _ [H HV]. split; [apply Hdrop; apply H|apply Hpre; assumption].
   Qed.
 
-  Lemma core_spec : forall f,
-    (forall j i d rr fl xs, (forall a, In a xs -> a = i) ->
-       ht (fun w => LV fl None xs w /\ NIa j i w) (release cf f j i d rr) (fun _ w => LV fl None [] w)) /\
-    (forall j fl, ht (fun w => LV fl None [] w) (release_blocked_individual cf f j) (fun _ w => LV fl None [] w)) /\
-    (forall j i fl, ht (fun w => LV (i :: fl) None [] w) (accept cf f j i) (fun _ w => LV fl None [] w)) /\
-    (forall j v i fl, ht (fun w => LV fl None [] w /\ PreOK j v i w) (preempt cf f j v i) (fun _ w => LV fl None [] w)).
+  Lemma core_spec b : forall f,
+    (forall j i d fl xs, (forall a, In a xs -> a = i) ->
+       ht (fun w => LN b fl None xs 0 [] [] w /\ NIa j i w) (release cf f j i d false) (fun _ w => LN b fl None [] 0 [] [] w)) /\
+    (forall j fl, ht (fun w => LN b fl None [] 0 [] [] w) (release_blocked_individual cf f j) (fun _ w => LN b fl None [] 0 [] [] w)) /\
+    (forall j i fl, ht (fun w => LN b (i :: fl) None [] 0 [] [] w) (accept cf f j i) (fun _ w => LN b fl None [] 0 [] [] w)) /\
+    (forall j v i fl wx, ht (fun w => LN b fl None [] 0 [] wx w /\ PreOK j v i w) (preempt cf f j v i)
+                            (fun _ w => LN b fl None [] 0 [] wx w /\ exists sid, isvv w i = Some sid)).
   Proof.
     induction f as [|f (IHr & IHb & IHa & IHp)].
     - repeat split; intros; match goal with H : _ = Ok _ |- _ => discriminate H end.
@@ -2161,14 +2552,12 @@ Section Link.
       + apply acc_step; assumption.
       + apply pre_step.
   Qed.
-  Lemma ht_release f j i d rr fl xs : (forall a, In a xs -> a = i) ->
-    ht (fun w => LV fl None xs w /\ NIa j i w) (release cf f j i d rr) (fun _ w => LV fl None [] w).
+  Lemma ht_release b f j i d fl xs : (forall a, In a xs -> a = i) ->
+    ht (fun w => LN b fl None xs 0 [] [] w /\ NIa j i w) (release cf f j i d false) (fun _ w => LN b fl None [] 0 [] [] w).
   Proof. apply core_spec. Qed.
-  Lemma ht_rbi f j fl : ht (fun w => LV fl None [] w) (release_blocked_individual cf f j) (fun _ w => LV fl None [] w).
+  Lemma ht_rbi b f j fl : ht (fun w => LN b fl None [] 0 [] [] w) (release_blocked_individual cf f j) (fun _ w => LN b fl None [] 0 [] [] w).
   Proof. apply core_spec. Qed.
-  Lemma ht_accept f j i fl : ht (fun w => LV (i :: fl) None [] w) (accept cf f j i) (fun _ w => LV fl None [] w).
-  Proof. apply core_spec. Qed.
-  Lemma ht_preempt f j v i fl : ht (fun w => LV fl None [] w /\ PreOK j v i w) (preempt cf f j v i) (fun _ w => LV fl None [] w).
+  Lemma ht_accept b f j i fl : ht (fun w => LN b (i :: fl) None [] 0 [] [] w) (accept cf f j i) (fun _ w => LN b fl None [] 0 [] [] w).
   Proof. apply core_spec. Qed.
 
   (* ====================================================================================================================== *)
@@ -2197,8 +2586,6 @@ Section Link.
   Qed.
   Lemma htS_gets {X Y} (Ps : sim -> Prop) (g : sim -> X) (f : X -> M Y) Q : (forall a, htS Ps (f a) Q) -> htS Ps (bind (gets g) f) Q.
   Proof. intros Hf s a s' HI HPs E. unfold bind, gets in E. eapply Hf; eauto. Qed.
-  Lemma htS_ht {X} (Ps : sim -> Prop) (P : view -> Prop) (m : M X) Q : (forall s, Ps s -> P (VW s)) -> ht P m Q -> htS Ps m Q.
-  Proof. intros HP H s a s' HI HPs E. eapply H; eauto. Qed.
 
   Lemma waiting_notint fl vm xs w j n i : LV fl vm xs w -> wnode w j = Some n -> isvv w i = None -> ~ In i xs -> v_inf n = false -> ~ In i (v_int n).
   Proof.
@@ -2209,56 +2596,66 @@ Section Link.
       destruct (Hst Hx) as (_ & k' & Hk' & _). congruence.
   Qed.
 
-  Lemma ht_finish_service j :
-    htS (fun s => LV [] None [] (VW s) /\ forall nd, nthZ (nodes s) (j - 1) = Some nd -> forall i, In i (n_next_inds nd) -> NIa j i (VW s))
-        (finish_service cf j) (fun _ w => LV [] None [] w).
+  Lemma ht_finish_service b j :
+    htS (fun s => LN b [] None [] 0 [] [] (VW s) /\ forall nd, nthZ (nodes s) (j - 1) = Some nd -> forall i, In i (n_next_inds nd) -> NIa j i (VW s))
+        (finish_service cf j) (fun _ w => LN b [] None [] 0 [] [] w).
   Proof.
     unfold finish_service.
-    apply htS_node with (Pv := fun nd w => LV [] None [] w /\ forall i, In i (n_next_inds nd) -> NIa j i w).
+    apply htS_node with (Pv := fun nd w => LN b [] None [] 0 [] [] w /\ forall i, In i (n_next_inds nd) -> NIa j i w).
     { intros s nd [HL HN] Hn. split; [exact HL|]. apply HN. exact Hn. }
     intros nd. eapply ht_bind; [apply ht_decide_between|intros i].
     hK. hK. hK. hK. hK. hK.
-    match goal with |- ht _ (if ?b then _ else _) _ => destruct b end.
-    - hK. eapply ht_pre; [|apply (ht_release _ j i _ false [] [])]; [|intros ? []].
+    match goal with |- ht _ (if ?c then _ else _) _ => destruct c end.
+    - hK. eapply ht_pre; [|apply (ht_release b _ j i _ [] [])]; [|intros ? []].
       intros w _ (((HL & HN) & _) & Hi). split; [exact HL|]. apply HN. exact Hi.
     - eapply ht_post; [hk|]. intros _ w _ (((HL & _) & _) & _). exact HL.
   Qed.
 
-  Lemma ht_renege j :
-    htS (fun s => LV [] None [] (VW s) /\ forall nd, nthZ (nodes s) (j - 1) = Some nd -> forall i, In i (n_next_inds nd) -> isvv (VW s) i = None)
-        (renege cf j) (fun _ w => LV [] None [] w).
+  Lemma ht_renege b j :
+    htS (fun s => LN b [] None [] 0 [] [] (VW s) /\ forall nd, nthZ (nodes s) (j - 1) = Some nd -> forall i, In i (n_next_inds nd) -> isvv (VW s) i = None)
+        (renege cf j) (fun _ w => LN b [] None [] 0 [] [] w).
   Proof.
     unfold renege. unfold tnow. apply htS_gets. intros t.
-    apply htS_node with (Pv := fun nd w => LV [] None [] w /\ forall i, In i (n_next_inds nd) -> isvv w i = None).
+    apply htS_node with (Pv := fun nd w => LN b [] None [] 0 [] [] w /\ forall i, In i (n_next_inds nd) -> isvv w i = None).
     { intros s nd [HL HN] Hn. split; [exact HL|]. apply HN. exact Hn. }
     intros nd. eapply ht_bind; [apply ht_decide_between|intros i].
     hK. hK. hind x. hnode nd1. hliftc q Hq. hliftc q' Hq'.
     set (nd2 := nd1 <| n_queues := updZ (n_queues nd1) (i_pprio x) q' |> <| n_pop := n_pop nd1 - 1 |>).
-    eapply ht_bind with (Q := fun _ w => LV [i] None [] w).
+    eapply ht_bind with (Q := fun _ w => LN b [i] None [] 0 [] [] w).
     { eapply ht_post; [apply ht_put_node|]. intros _ w _ (w0 & HI0 & (((((HL & HN) & _) & Hi) & Hx) & Hcur) & ->).
-      destruct (rel_rm [] [] w0 j i nd1 (i_pprio x) q q' nd2 HL Hcur Hq Hq') as (HL1 & Hn1 & Hmem); try reflexivity.
-      eapply vm_to_fl with (b := nd_inf nd1); [exact HL1| |exact (HN i Hi)|intros ? []].
+      destruct (rel_rm b [] [] 0 [] [] w0 j i nd1 (i_pprio x) q q' nd2 HL Hcur Hq Hq') as (HL1 & Hn1 & Hmem); try reflexivity.
+      eapply vm_to_fl with (bi := nd_inf nd1); [exact HL1| |exact (HN i Hi)|intros ? []].
       exists (nv nd2). split; [exact Hn1|]. split; [reflexivity|]. split.
-      - intros Hinf. change (v_int (nv nd2)) with (v_int (nv nd1)). eapply waiting_notint; [exact HL|apply Hcur|exact (HN i Hi)|intros []|exact Hinf].
+      - intros Hinf. change (v_int (nv nd2)) with (v_int (nv nd1)). eapply waiting_notint; [exact (LN_LV _ _ _ _ _ _ _ _ HL)|apply Hcur|exact (HN i Hi)|intros []|exact Hinf].
       - unfold memv. replace (v_id (nv nd2)) with j by (symmetry; apply Hcur). rewrite vmof_same. apply in_or_app. right. left. reflexivity. }
     intros ?. hK. hK. hK. hK. hK.
-    eapply ht_bind with (Q := fun _ w => LV [] None [] w); [|intros ?; apply ht_rbi].
-    match goal with |- ht _ (if ?b then _ else _) _ => destruct b end; [apply ht_exit_accept|apply ht_accept].
+    eapply ht_bind with (Q := fun _ w => LN b [] None [] 0 [] [] w); [|intros ?; apply ht_rbi].
+    match goal with |- ht _ (if ?c then _ else _) _ => destruct c end; [apply ht_exit_accept|apply ht_accept].
   Qed.
 
-  Lemma ht_ccww j : cf_dyn cf = true ->
-    ht (fun w => LV [] None [] w) (change_customer_class_while_waiting cf j) (fun _ w => LV [] None [] w).
+  Lemma LN_mv b fl vm xs ej hs wx w k n n' :
+    LN b fl vm xs ej hs wx w -> nth_error (w_ns w) k = Some n ->
+    v_id n' = v_id n -> v_pop n' = v_pop n -> Permutation (mem n') (mem n) ->
+    v_srv n' = v_srv n -> v_inf n' = v_inf n -> v_hi n' = v_hi n -> v_int n' = v_int n ->
+    LN b fl vm xs ej hs wx (wputn n' w).
+  Proof.
+    intros [HL HN] Hk E1 E2 HP E3 E4 E5 E6. split; [eapply LV_mv; eauto|]. intros Hb.
+    eapply N_node; [exact HL|exact (HN Hb)|exact Hk|exact E1|exact E3|exact E4|]. intros c Hc. eapply Permutation_in; eauto.
+  Qed.
+
+  Lemma ht_ccww b j : cf_dyn cf = true ->
+    ht (fun w => LN b [] None [] 0 [] [] w) (change_customer_class_while_waiting cf j) (fun _ w => LN b [] None [] 0 [] [] w).
   Proof.
     intros Hdyn. unfold change_customer_class_while_waiting.
     hnode nd. hliftc i Hi. hind x. hliftc nc' Hnc'. hliftc p' Hp'.
     eapply ht_bind; [eapply ht_KK with (K := fun w => oki w x); [pva|intros w Hw; apply (curi_oki i); apply Hw]|intros ?].
-    eapply ht_bind with (Q := fun _ w => LV [] None [] w); [|intros ?; hK; eapply ht_post; [hk|]; intros ? w ? H; exact H].
+    eapply ht_bind with (Q := fun _ w => LN b [] None [] 0 [] [] w); [|intros ?; hK; eapply ht_post; [hk|]; intros ? w ? H; exact H].
     destruct (negb (p' =? i_pprio x)); [|eapply ht_post; [apply ht_ret|]; intros _ w _ [[[HL _] _] _]; exact HL].
     hliftc q Hq. hliftc q' Hq'. cbv zeta. hliftc qn Hqn.
-    eapply ht_bind with (Q := fun _ w => LV [] None [] w).
+    eapply ht_bind with (Q := fun _ w => LN b [] None [] 0 [] [] w).
     { eapply ht_post; [apply ht_put_node|]. intros _ w _ (w0 & HI0 & ((HL & [Hid Hn]) & _) & ->).
       destruct (wnode_nth _ _ _ Hn) as (k & Hjk & Hk).
-      eapply LV_mv; [exact HL|exact Hk|reflexivity|reflexivity| |reflexivity..].
+      eapply LN_mv; [exact HL|exact Hk|reflexivity|reflexivity| |reflexivity..].
       unfold mem, nv. cbn [v_qs].
       replace (n_queues (nd <| n_queues := updZ (updZ (n_queues nd) (i_pprio x) q') p' (qn ++ [i]) |>))
         with (updZ (updZ (n_queues nd) (i_pprio x) q') p' (qn ++ [i])) by reflexivity.
@@ -2267,7 +2664,7 @@ Section Link.
       rewrite (Conserve2.concat_upd_add _ _ _ (qn ++ [i]) i Hqnk); [|rewrite Permutation_app_comm; reflexivity].
       eapply Conserve2.concat_upd_rm; [exact Hqk|]. apply Conserve2.remove_first_perm. exact Hq'. }
     intros ?.
-    match goal with |- ht _ (if ?b then _ else _) _ => destruct b end; [|eapply ht_post; [apply ht_ret|]; intros _ w _ [HL _]; exact HL].
+    match goal with |- ht _ (if ?c then _ else _) _ => destruct c end; [|eapply ht_post; [apply ht_ret|]; intros _ w _ [HL _]; exact HL].
     eapply ht_bind; [apply ht_preempt_victim|intros v]. destruct v as [vi|]; [|eapply ht_post; [apply ht_ret|]; intros _ w _ [[HL _] _]; exact HL].
     eapply ht_pre; [|apply ht_false]. intros w _ [_ HV]. destruct (HV vi eq_refl) as [(nc & Hnc & Hpre) _].
     pose proof (scope_at j nc HS Hnc) as Hsc. unfold scope_nc in Hsc. apply andb_true_iff in Hsc as [Hsc _]. apply andb_true_iff in Hsc as [_ Hsc].
@@ -2275,13 +2672,13 @@ Section Link.
   Qed.
 
   (* ---------- schedules ---------- *)
-  Lemma ht_kill fl vm xs j sid S : ~ In sid S ->
-    ht (fun w => LV fl vm xs w /\ PF j (sid :: S) w) (kill_server j sid) (fun _ w => LV fl vm xs w /\ PF j S w).
+  Lemma ht_kill b fl vm xs ej hs wx j sid S : ~ In sid S ->
+    ht (fun w => LN b fl vm xs ej hs wx w /\ PF j (sid :: S) w) (kill_server j sid) (fun _ w => LN b fl vm xs ej hs wx w /\ PF j S w).
   Proof.
     intros HnS. eapply ht_vw with (F := killv j sid); [intros s a s' E HI; apply (kill_server_vw _ _ _ _ _ E HI)|].
-    intros _ w HI (HL & (n & Hn & Hinf & HSv)). destruct (HSv sid (or_introl eq_refl)) as (t & Hfs & Hc).
+    intros _ w HI ([HL HNI] & (n & Hn & Hinf & HSv)). destruct (HSv sid (or_introl eq_refl)) as (t & Hfs & Hc).
     assert (HL' : LV fl vm xs (killv j sid w)) by (eapply LV_killv; eauto; intros c Hc'; congruence).
-    split; [eapply LV_idx; eauto|]. split; [exact HL'|]. unfold killv. rewrite Hn.
+    split; [eapply LV_idx; eauto|]. split; [split; [exact HL'|intros Hb; eapply N_killv; eauto]|]. unfold killv. rewrite Hn.
     exists (killn sid n). split; [eapply wnode_wputn; eauto|]. split; [exact Hinf|]. intros s Hs. cbn.
     rewrite fsv_delsv_neq; [apply HSv; right; exact Hs|]. intros ->. contradiction.
   Qed.
@@ -2325,28 +2722,40 @@ Section Link.
     intros nc' Hc'. assert (nc' = nc) by congruence. subst nc'. unfold nc_slotted. rewrite Hsc. reflexivity.
   Qed.
 
-  Lemma ht_bsip_change_shift j : (forall nc, nthZ (cf_nodes cf) (j - 1) = Some nc -> exists sc, nc_srv nc = SSched sc) ->
-    ht (fun w => LV [] None [] w) (begin_service_if_possible_change_shift cf j) (fun _ w => LV [] None [] w).
+  (* the node in the middle of its shift change is exempt from the non-idling invariant; nothing else changes *)
+  Lemma LN_ex_n b fl vm xs ej hs wx w j n n' : LN b fl vm xs ej hs wx w -> wnode w j = Some n -> ej = j -> v_id n' = v_id n ->
+    LV fl vm xs (wputn n' w) -> LN b fl vm xs ej hs wx (wputn n' w).
+  Proof.
+    intros [HL HN] Hn He Eid HL'. split; [exact HL'|]. intros Hb. destruct (wnode_nth _ _ _ Hn) as (k & Hjk & Hk).
+    eapply N_ex_n; [exact HL|exact (HN Hb)|exact Hk|rewrite He; eapply wnode_id; eauto; eapply LV_idx; eauto|exact Eid].
+  Qed.
+
+  Lemma ht_bsip_change_shift b j : (forall nc, nthZ (cf_nodes cf) (j - 1) = Some nc -> exists sc, nc_srv nc = SSched sc) ->
+    ht (fun w => LN b [] None [] j [] [] w) (begin_service_if_possible_change_shift cf j) (fun _ w => LN b [] None [] 0 [] [] w).
   Proof.
     intros Hsch. unfold begin_service_if_possible_change_shift. hnode nd.
     set (ids := map sv_id (filter (fun sv => negb (sv_busy sv)) (n_servers nd))).
-    eapply ht_pre with (P := fun w => (LV [] None [] w /\ PF j ids w) /\ NoDup ids).
-    - intros w _ [HL Hcur]. destruct (sched_fin _ _ _ _ _ _ HL (proj2 Hcur) Hsch) as [Hinf Hns].
-      destruct (idle_PF _ _ _ _ _ _ HL Hcur Hinf Hns) as [H1 H2]. auto.
-    - apply ht_ctx. intros HN. eapply ht_post; [apply (ht_forM_PF (fun S w => LV [] None [] w /\ PF j S w) (serve_with cf j))|].
-      + intros sid S HnS. apply ht_serve_with. exact HnS.
+    eapply ht_pre with (P := fun w => (LN b [] None [] 0 (map (pair j) ids) [] w /\ PF j ids w) /\ NoDup ids).
+    - intros w HI [[HL HNI] Hcur]. destruct (sched_fin _ _ _ _ _ _ HL (proj2 Hcur) Hsch) as [Hinf Hns].
+      destruct (idle_PF _ _ _ _ _ _ HL Hcur Hinf Hns) as [H1 H2]. split; [split; [split; [exact HL|]|exact H1]|exact H2].
+      intros Hb. eapply N_ex_leave; [exact HI|exact (HNI Hb)|apply Hcur|].
+      intros t Ht Ho Hbu. apply in_map. cbn in Ht. apply in_map_iff in Ht as (sv & <- & Hsv). cbn. apply in_map. apply filter_In. split; [exact Hsv|].
+      cbn in Hbu. rewrite Hbu. reflexivity.
+    - apply ht_ctx. intros HN. eapply ht_post; [apply (ht_forM_PF (fun S w => LN b [] None [] 0 (map (pair j) S) [] w /\ PF j S w) (serve_with cf j))|].
+      + intros sid S HnS. apply (ht_serve_with b [] None 0 (map (pair j) S) [] j sid S HnS).
       + exact HN.
       + intros ? w ? [HL _]. exact HL.
   Qed.
 
-  Lemma ht_add_new_servers j k : (forall nc, nthZ (cf_nodes cf) (j - 1) = Some nc -> exists sc, nc_srv nc = SSched sc) ->
-    ht (fun w => LV [] None [] w) (add_new_servers k j) (fun _ w => LV [] None [] w).
+  Lemma ht_add_new_servers b j k : (forall nc, nthZ (cf_nodes cf) (j - 1) = Some nc -> exists sc, nc_srv nc = SSched sc) ->
+    ht (fun w => LN b [] None [] j [] [] w) (add_new_servers k j) (fun _ w => LN b [] None [] j [] [] w).
   Proof.
     intros Hsch. induction k as [|k IH]; cbn [add_new_servers]; [eapply ht_post; [apply ht_ret|]; intros ? w ? [H _]; exact H|].
     hK. eapply ht_bind; [|intros ?; exact IH]. unfold upd_node. hnode nd.
-    eapply ht_post; [apply ht_put_node|]. intros _ w _ (w0 & HI0 & (HL & [Hid Hn]) & ->).
+    eapply ht_post; [apply ht_put_node|]. intros _ w _ (w0 & HI0 & (HLN & [Hid Hn]) & ->). pose proof (LN_LV _ _ _ _ _ _ _ _ HLN) as HL.
     match goal with |- context [wputn (nv ?nd') _] => replace (nv nd') with (with_new (nv nd)) by (unfold nv, with_new; cbn; rewrite map_app; reflexivity) end.
     destruct (sched_fin _ _ _ _ _ _ HL Hn Hsch) as [Hinf Hns]. destruct (wnode_nth _ _ _ Hn) as (kk & Hjk & Hk).
+    eapply LN_ex_n; [exact HLN|exact Hn|reflexivity|reflexivity|].
     eapply LV_step_n; [exact HL|exact Hk|reflexivity..|].
     intros nc Hnc. assert (Hcz : nthZ (cf_nodes cf) (j - 1) = Some nc) by (rewrite Hjk, nthZ_of_nat; exact Hnc).
     apply NodeOK_lift; try reflexivity; try exact Hinf.
@@ -2362,18 +2771,18 @@ Section Link.
   Qed.
 
   (* non-pre-emptive schedule: busy servers go off duty, idle servers are retired *)
-  Lemma ht_take_off_nonpre f j nc sch : nthZ (cf_nodes cf) (j - 1) = Some nc -> nc_srv nc = SSched sch -> sc_pre sch = 0 ->
-    ht (fun w => LV [] None [] w) (take_servers_off_duty cf f j (sc_pre sch)) (fun _ w => LV [] None [] w).
+  Lemma ht_take_off_nonpre b f j nc sch : nthZ (cf_nodes cf) (j - 1) = Some nc -> nc_srv nc = SSched sch -> sc_pre sch = 0 ->
+    ht (fun w => LN b [] None [] j [] [] w) (take_servers_off_duty cf f j (sc_pre sch)) (fun _ w => LN b [] None [] j [] [] w).
   Proof.
     intros Hnc Hsc Hpre. unfold take_servers_off_duty. rewrite Hpre. cbn [Z.eqb]. change (0 =? 0) with true. cbv iota.
     assert (Hsch : forall nc', nthZ (cf_nodes cf) (j - 1) = Some nc' -> exists sc', nc_srv nc' = SSched sc') by (intros nc' E; assert (nc' = nc) by congruence; subst nc'; eauto).
-    hnode nd. eapply ht_bind with (Q := fun _ w => LV [] None [] w /\ cur j nd w).
+    hnode nd. eapply ht_bind with (Q := fun _ w => LN b [] None [] j [] [] w /\ cur j nd w).
     { destruct (n_next_date nd); [eapply ht_post; [apply ht_ret|]; intros ? w ? [H _]; exact H|apply ht_fail]. }
     intros se.
     set (g := fun sv : server => sv <| sv_shift_end := se |> <| sv_offduty := if sv_busy sv then true else sv_offduty sv |>).
     set (ids := map sv_id (filter (fun sv => negb (sv_busy sv)) (n_servers nd))).
-    eapply ht_bind with (Q := fun _ w => (LV [] None [] w /\ PF j ids w) /\ NoDup ids).
-    { eapply ht_post; [apply ht_put_node|]. intros _ w _ (w0 & HI0 & (HL & Hcur) & ->). pose proof Hcur as [Hid Hn].
+    eapply ht_bind with (Q := fun _ w => (LN b [] None [] j [] [] w /\ PF j ids w) /\ NoDup ids).
+    { eapply ht_post; [apply ht_put_node|]. intros _ w _ (w0 & HI0 & (HLN & Hcur) & ->). pose proof Hcur as [Hid Hn]. pose proof (LN_LV _ _ _ _ _ _ _ _ HLN) as HL.
       destruct (sched_fin _ _ _ _ _ _ HL Hn Hsch) as [Hinf Hns]. destruct (wnode_nth _ _ _ Hn) as (kk & Hjk & Hk).
       destruct (idle_PF _ _ _ _ _ _ HL Hcur Hinf Hns) as [HPF HNd].
       replace (nv (nd <| n_servers := map g (n_servers nd) |>)) with (with_srv (nv nd) (map sc (map g (n_servers nd)))) by reflexivity.
@@ -2385,12 +2794,12 @@ Section Link.
         assert (nc' = nc) by congruence. subst nc'.
         apply NodeOK_lift; try reflexivity; try exact Hinf; [rewrite (Hns nc Hcz); discriminate|].
         intros _ HF. cbn [with_srv v_srv v_hi v_int]. rewrite (proj2 (sc_pre0 j nc sch Hnc Hsc) Hpre) in *. eapply FinOK_off; [exact Hm|exact HF]. }
-      split; [split; [exact HL'|]|exact HNd].
+      split; [split; [eapply LN_ex_n; [exact HLN|exact Hn|reflexivity|reflexivity|exact HL']|]|exact HNd].
       exists (with_srv (nv nd) (map sc (map g (n_servers nd)))). split; [eapply wnode_wputn; eauto|]. split; [exact Hinf|].
       intros s Hs. destruct HPF as (n0 & Hn0 & _ & HSv). rewrite Hn in Hn0. injection Hn0 as <-. destruct (HSv s Hs) as (t & Hft & Hct).
       cbn [with_srv v_srv]. cbn [v_srv nv] in Hft. clear -Hft Hct. revert Hft. induction (n_servers nd) as [|y r IH]; cbn; [discriminate|].
       destruct (sv_id y =? s); [|exact IH]. intros E. injection E as <-. eexists. split; [reflexivity|exact Hct]. }
-    intros ?. apply ht_ctx. intros HN. eapply ht_post; [apply (ht_forM_PF (fun S w => LV [] None [] w /\ PF j S w) (kill_server j))|].
+    intros ?. apply ht_ctx. intros HN. eapply ht_post; [apply (ht_forM_PF (fun S w => LN b [] None [] j [] [] w /\ PF j S w) (kill_server j))|].
     - intros sid S HnS. apply ht_kill. exact HnS.
     - exact HN.
     - intros ? w ? [HL _]. exact HL.
@@ -2427,19 +2836,19 @@ Section Link.
 
   Lemma nv_set_int nd l k : nv (nd <| n_interrupted := l |> <| n_nint := k |>) = with_int (nv nd) l.
   Proof. destruct nd; reflexivity. Qed.
-  Lemma iv_set_flag y b : iv (y <| i_interrupted := b |>) = (i_id y, (i_server y, b)).
+  Lemma iv_set_flag y bb : iv (y <| i_interrupted := bb |>) = (i_id y, (i_server y, bb)).
   Proof. destruct y; reflexivity. Qed.
 
-  Lemma ht_interrupt_service f j c pre X ids idx :
+  Lemma ht_interrupt_service b f j c pre X ids idx :
     (pre =? 4) = false -> (forall nc, nthZ (cf_nodes cf) (j - 1) = Some nc -> nc_slotted nc = false) ->
-    ht (fun w => LV [] None X w /\ Sh j X ids idx w /\ exists n t, wnode w j = Some n /\ nth_error (v_srv n) idx = Some t /\ s_cust t = Some c)
-       (interrupt_service cf f j c pre) (fun _ w => LV [] None X w /\ Sh j X ids (S idx) w).
+    ht (fun w => LN b [] None X j [] [] w /\ Sh j X ids idx w /\ exists n t, wnode w j = Some n /\ nth_error (v_srv n) idx = Some t /\ s_cust t = Some c)
+       (interrupt_service cf f j c pre) (fun _ w => LN b [] None X j [] [] w /\ Sh j X ids (S idx) w).
   Proof.
     intros Hp4 Hns. unfold interrupt_service. rewrite Hp4. hK. hK.
     eapply ht_bind; [apply ht_upd_node_sp|intros ?].
-    eapply ht_bind with (Q := fun _ w => LV [] None X w /\ Sh j X ids (S idx) w); [|intros ?; hk].
+    eapply ht_bind with (Q := fun _ w => LN b [] None X j [] [] w /\ Sh j X ids (S idx) w); [|intros ?; hk].
     eapply ht_post; [apply ht_upd_ind_sp|].
-    intros _ w _ (y & w1 & HI1 & (nd & w0 & HI0 & (HL & HSh & Hsv) & [Hid Hn] & ->) & [Hyi Hyf] & ->).
+    intros _ w _ (y & w1 & HI1 & (nd & w0 & HI0 & (HLN & HSh & Hsv) & [Hid Hn] & ->) & [Hyi Hyf] & ->). pose proof HLN as [HL HNI].
     change (fiv c (w_is w0) = Some (i_server y, i_interrupted y)) in Hyf.
     rewrite iv_set_flag, Hyi, nv_set_int. change (n_interrupted nd) with (v_int (nv nd)).
     destruct HSh as (n & Hn' & Hinf & Hids & HcX & HX & Hlt & Hge). rewrite Hn in Hn'. injection Hn' as <-.
@@ -2455,7 +2864,9 @@ Section Link.
       - rewrite (Hns nc Hcz). discriminate.
       - intros _ HF'. cbn. eapply FinOK_int_add; [exact HF'| |exact HcX0|exact Hcni]. unfold memv. apply in_or_app. left. apply (HX c HcX0). }
     assert (Hn1 : wnode (wputn n1 w0) j = Some n1) by (eapply wnode_wputn; eauto).
-    split; [eapply LV_flag; [exact HL1|exact HcX0|exact Hyf]|].
+    split.
+    { split; [eapply LV_flag; [exact HL1|exact HcX0|exact Hyf]|]. intros Hb.
+      eapply N_ex_io; [exact HL|exact (HNI Hb)|exact Hk|eapply wnode_id; eauto|reflexivity|]. apply mem_memv. apply (HX c HcX0). }
     exists n1. split; [rewrite wnode_wputi; exact Hn1|]. split; [exact Hinf|]. split; [exact Hids|]. split; [exact HcX|].
     split; [|split].
     - intros c' Hc'. destruct (HX c' Hc') as (H1 & (k' & H2) & H3). split; [exact H1|]. split; [|exact H3].
@@ -2488,17 +2899,17 @@ Section Link.
     - intros m t c Hm. apply Hge. lia.
   Qed.
 
-  Lemma ht_off_duty_loop f j pre se X ids :
+  Lemma ht_off_duty_loop b f j pre se X ids :
     (pre =? 4) = false -> (forall nc, nthZ (cf_nodes cf) (j - 1) = Some nc -> nc_slotted nc = false) ->
     forall k idx, (S (length ids) <= k + idx)%nat ->
-    ht (fun w => LV [] None X w /\ Sh j X ids idx w) (off_duty_loop cf k f j idx pre se)
-       (fun _ w => LV [] None X w /\ exists idx', (length ids <= idx')%nat /\ Sh j X ids idx' w).
+    ht (fun w => LN b [] None X j [] [] w /\ Sh j X ids idx w) (off_duty_loop cf k f j idx pre se)
+       (fun _ w => LN b [] None X j [] [] w /\ exists idx', (length ids <= idx')%nat /\ Sh j X ids idx' w).
   Proof.
     intros Hp4 Hns. induction k as [|k IH]; intros idx Hk; cbn [off_duty_loop].
     - eapply ht_post; [apply ht_ret|]. intros ? w ? [[HL HSh] _]. split; [exact HL|]. exists idx. split; [lia|exact HSh].
     - hnode nd. destruct (nth_error (n_servers nd) idx) as [sv|] eqn:Esv.
-      + eapply ht_bind with (Q := fun _ w => (LV [] None X w /\ Sh j X ids idx w) /\ cur j nd w).
-        { eapply ht_post; [apply ht_put_node|]. intros _ w _ (w0 & HI0 & ((HL & HSh) & Hcur) & ->).
+      + eapply ht_bind with (Q := fun _ w => (LN b [] None X j [] [] w /\ Sh j X ids idx w) /\ cur j nd w).
+        { eapply ht_post; [apply ht_put_node|]. intros _ w _ (w0 & HI0 & ((HLN & HSh) & Hcur) & ->). pose proof (LN_LV _ _ _ _ _ _ _ _ HLN) as HL.
           assert (E : wputn (nv (nd <| n_servers := put_server_l (sv <| sv_shift_end := se |>) (n_servers nd) |>)) w0 = w0); [|rewrite E; auto].
           destruct Hcur as [Hid Hn]. destruct HSh as (n & Hn' & Hinf & _). rewrite Hn in Hn'. injection Hn' as <-.
           destruct (LV_node _ _ _ _ _ _ HL Hn) as (kk & nc & Hjk & Hkk & Hc & Hcz & HN).
@@ -2507,7 +2918,7 @@ Section Link.
           - change (map sc (n_servers nd)) with (v_srv (nv nd)). rewrite with_srv_same. apply wputn_same.
             rewrite (wnode_id _ _ _ HI0 Hn). unfold wnode in Hn. destruct (j <? 1); [discriminate|exact Hn].
           - apply fsv_In; [exact (fo_nd _ _ _ _ _ _ _ _ HF)|apply in_map; eapply nth_error_In; eauto|reflexivity]. }
-        intros ?. eapply ht_bind with (Q := fun _ w => LV [] None X w /\ Sh j X ids (S idx) w); [|intros ?; apply IH; lia].
+        intros ?. eapply ht_bind with (Q := fun _ w => LN b [] None X j [] [] w /\ Sh j X ids (S idx) w); [|intros ?; apply IH; lia].
         destruct (sv_cust sv) as [c|] eqn:Ec.
         * eapply ht_pre; [|apply ht_interrupt_service; assumption].
           intros w _ ((HL & HSh) & [Hid Hn]). split; [exact HL|]. split; [exact HSh|].
@@ -2518,5 +2929,897 @@ Section Link.
         destruct HSh as (n & Hn' & _ & Hids & _). rewrite Hn in Hn'. injection Hn' as <-. apply nth_error_None in Esv.
         rewrite <- Hids. unfold sids. cbn. rewrite !map_length. exact Esv.
   Qed.
+
+  (* sort_interrupted_individuals permutes the list *)
+  Lemma ins_key_perm k i l : Permutation (map snd (ins_key k i l)) (i :: map snd l).
+  Proof.
+    induction l as [|[k' i'] r IH]; cbn; [reflexivity|]. destruct (key_le k' k); cbn; [|reflexivity].
+    rewrite IH. apply perm_swap.
+  Qed.
+  Lemma sort_by_key_perm l : Permutation (sort_by_key l) (map snd l).
+  Proof.
+    unfold sort_by_key. assert (G : forall acc, Permutation (map snd (fold_left (fun acc p => ins_key (fst p) (snd p) acc) l acc)) (map snd l ++ map snd acc)).
+    { induction l as [|p r IH]; intros acc; cbn; [reflexivity|]. rewrite IH, ins_key_perm. cbn. symmetry. apply Permutation_middle. }
+    rewrite (G []). cbn. rewrite app_nil_r. reflexivity.
+  Qed.
+  Lemma ht_keyed l : forall (P : view -> Prop), ht P (keyed l) (fun kl w => P w /\ map snd kl = l).
+  Proof.
+    unfold keyed. induction l as [|i r IH]; intros P; cbn [mapM].
+    - eapply ht_post; [apply ht_ret|]. intros kl w _ [HP ->]. auto.
+    - eapply ht_bind with (Q := fun bb w => P w /\ snd bb = i).
+      { hind x. eapply ht_post; [apply ht_ret|]. intros bb w _ [[HP _] ->]. auto. }
+      intros bb. eapply ht_bind; [apply IH|]. intros bs. eapply ht_post; [apply ht_ret|].
+      intros kl w _ [[[HP Hb] Hbs] ->]. split; [exact HP|]. cbn. congruence.
+  Qed.
+
+  Lemma NodeOK_int_perm nc vm xs n int' f g : Permutation (v_int n) int' -> NodeOK nc vm xs n f g -> NodeOK nc vm xs (with_int n int') f g.
+  Proof.
+    intros HP. unfold NodeOK. cbn [with_int v_inf v_srv v_hi v_int]. replace (memv vm (with_int n int')) with (memv vm n) by reflexivity.
+    destruct (nc_srv nc).
+    - destruct (v_inf n); [auto|]. intros H. eapply FinOK_int_perm; eauto.
+    - intros [H1 H2]. split; [exact H1|eapply FinOK_int_perm; eauto].
+    - intros [H1 H2]. rewrite H1 in HP. apply Permutation_nil in HP. auto.
+  Qed.
+  Lemma nv_set_int1 nd l : nv (nd <| n_interrupted := l |>) = with_int (nv nd) l.
+  Proof. destruct nd; reflexivity. Qed.
+
+  (* the phase in which the servers are retired: every customer of X is on the interrupted list, flagged *)
+  Definition Pk (b : bool) (j : Z) (X ids : list Z) (w : view) : Prop :=
+    LN b [] None X j [] [] w /\ exists n, wnode w j = Some n /\ v_inf n = false /\ sids (v_srv n) = ids /\
+      (forall t c, In t (v_srv n) -> s_cust t = Some c -> In c X) /\
+      (forall c, In c X -> In c (mem n) /\ (exists k, isvv w c = Some k) /\ In c (v_int n) /\ iflag w c = true).
+
+  Lemma Sh_Pk b j X ids idx w : LN b [] None X j [] [] w -> (length ids <= idx)%nat -> Sh j X ids idx w -> Pk b j X ids w.
+  Proof.
+    intros HL Hlen (n & Hn & Hinf & Hids & HcX & HX & Hlt & _). split; [exact HL|]. exists n. repeat (split; [assumption|]).
+    intros c Hc. destruct (HX c Hc) as (H1 & H2 & t & Ht & Htc). split; [exact H1|]. split; [exact H2|].
+    apply In_nth_error in Ht as [m Hm]. eapply (Hlt m t c); [|exact Hm|exact Htc].
+    assert (m < length (v_srv n))%nat by (apply nth_error_Some; congruence). rewrite <- Hids in Hlen. unfold sids in Hlen. rewrite map_length in Hlen. lia.
+  Qed.
+
+  Lemma ht_sort_int b j X ids : ht (Pk b j X ids) (sort_interrupted_individuals j) (fun _ => Pk b j X ids).
+  Proof.
+    unfold sort_interrupted_individuals. hnode nd. eapply ht_bind; [apply ht_keyed|intros kl].
+    eapply ht_post; [apply ht_put_node|]. intros _ w _ (w0 & HI0 & (((HL & HP) & [Hid Hn]) & Hkl) & ->).
+    rewrite nv_set_int1. destruct HP as (n & Hn' & Hinf & Hids & HcX & HX). rewrite Hn in Hn'. injection Hn' as <-.
+    assert (HPm : Permutation (v_int (nv nd)) (sort_by_key kl)) by (symmetry; rewrite sort_by_key_perm, Hkl; reflexivity).
+    split.
+    - eapply LN_int_g; [exact HL|exact Hn|]. intros nc Hc HN. eapply NodeOK_int_perm; eauto.
+    - exists (with_int (nv nd) (sort_by_key kl)). split; [eapply wnode_wputn; eauto|]. split; [exact Hinf|]. split; [exact Hids|]. split; [exact HcX|].
+      intros c Hc. destruct (HX c Hc) as (H1 & H2 & H3 & H4). split; [exact H1|]. split; [exact H2|]. split; [|exact H4].
+      cbn. eapply Permutation_in; eauto.
+  Qed.
+
+  Lemma ht_kill_pk b j X sid r : ht (Pk b j X (sid :: r)) (kill_server j sid) (fun _ => Pk b j X r).
+  Proof.
+    eapply ht_vw with (F := killv j sid); [intros s a s' E HI; apply (kill_server_vw _ _ _ _ _ E HI)|].
+    intros _ w HI ([HL HNI] & n & Hn & Hinf & Hids & HcX & HX).
+    assert (Hex : exists t l, v_srv n = t :: l /\ s_id t = sid /\ sids l = r).
+    { destruct (v_srv n) as [|t l]; [discriminate|]. cbn in Hids. injection Hids as Hid Hr. eauto. }
+    destruct Hex as (t & l & El & Hid & Hr).
+    assert (Hfs : fsv sid (v_srv n) = Some t) by (rewrite El; cbn; rewrite Hid, Z.eqb_refl; reflexivity).
+    assert (HL' : LV [] None X (killv j sid w)).
+    { eapply LV_killv; eauto. intros c Hc. apply (HcX t c); [rewrite El; left; reflexivity|exact Hc]. }
+    split; [eapply LV_idx; eauto|]. split; [split; [exact HL'|intros Hb; eapply N_killv; eauto]|]. unfold killv. rewrite Hn.
+    exists (killn sid n). split; [eapply wnode_wputn; eauto|]. split; [exact Hinf|].
+    assert (Ed : delsv sid (v_srv n) = l) by (rewrite El; cbn; rewrite Hid, Z.eqb_refl; reflexivity).
+    split; [cbn; rewrite Ed; exact Hr|]. split.
+    - intros t' c Ht' Hc. cbn in Ht'. rewrite Ed in Ht'. apply (HcX t' c); [rewrite El; right; exact Ht'|exact Hc].
+    - exact HX.
+  Qed.
+
+  Lemma Pk_done b j X w : Pk b j X [] w -> LN b [] None [] j [] [] w.
+  Proof.
+    intros ([HL HNI] & n & Hn & Hinf & Hids & HcX & HX). split; [|exact HNI].
+    assert (Es : v_srv n = []) by (destruct (v_srv n); [reflexivity|discriminate]).
+    destruct (LV_node _ _ _ _ _ _ HL Hn) as (k & nc & Hjk & Hk & Hc & _ & _).
+    destruct HL as (HW & HN & HF & HLen). split; [exact HW|]. split; [|split; [exact HF|exact HLen]].
+    intros k1 n1 nc1 Hk1 Hc1. specialize (HN _ _ _ Hk1 Hc1). destruct (Nat.eq_dec k1 k) as [->|Hne].
+    - rewrite Hk in Hk1. injection Hk1 as <-. revert HN. unfold NodeOK.
+      assert (HU : FinOK (nc_preempt nc1) X (memv None n) (v_srv n) (v_hi n) (v_int n) (isvv w) (iflag w) ->
+                   FinOK (nc_preempt nc1) [] (memv None n) (v_srv n) (v_hi n) (v_int n) (isvv w) (iflag w)).
+      { apply FinOK_unexempt. intros i Hm Hx _. destruct (HX i Hx) as (H1 & (k' & H2) & H3 & H4). rewrite Es. split.
+        - intros _. split; [exact H4|]. exists k'. split; [exact H2|]. intros [].
+        - intros; exact H3. }
+      destruct (nc_srv nc1); [|intros [H1 H2]; auto|auto]. destruct (v_inf n); auto.
+    - eapply NodeOK_xs; [|exact HN]. intros i Hm Hx. exfalso. apply Hne.
+      eapply memv_one; [exact HW|exact Hk1|exact Hk|exact Hm|]. unfold memv. apply in_or_app. left. apply (HX i Hx).
+  Qed.
+
+  Definition custs (l : list sview) : list Z := flat_map (fun t => match s_cust t with Some c => [c] | None => [] end) l.
+  Lemma custs_In l c : In c (custs l) <-> exists t, In t l /\ s_cust t = Some c.
+  Proof.
+    unfold custs. rewrite in_flat_map. split.
+    - intros (t & Ht & Hc). exists t. split; [exact Ht|]. destruct (s_cust t); [destruct Hc as [->|[]]; reflexivity|destruct Hc].
+    - intros (t & Ht & Hc). exists t. split; [exact Ht|]. rewrite Hc. left. reflexivity.
+  Qed.
+
+  Lemma ht_take_off_pre b f j nc sch : nthZ (cf_nodes cf) (j - 1) = Some nc -> nc_srv nc = SSched sch -> (sc_pre sch =? 0) = false ->
+    ht (fun w => LN b [] None [] j [] [] w) (take_servers_off_duty cf f j (sc_pre sch)) (fun _ w => LN b [] None [] j [] [] w).
+  Proof.
+    intros Hnc Hsc Hpre. unfold take_servers_off_duty. rewrite Hpre.
+    assert (Hns : forall nc', nthZ (cf_nodes cf) (j - 1) = Some nc' -> nc_slotted nc' = false).
+    { intros nc' E. assert (nc' = nc) by congruence. subst nc'. unfold nc_slotted. rewrite Hsc. reflexivity. }
+    destruct (sc_pre0 j nc sch Hnc Hsc) as [Hp4 _].
+    hnode nd. eapply ht_bind with (Q := fun _ w => LN b [] None [] j [] [] w /\ cur j nd w).
+    { destruct (n_next_date nd); [eapply ht_post; [apply ht_ret|]; intros ? w ? [H _]; exact H|apply ht_fail]. }
+    intros se.
+    set (ids := map sv_id (n_servers nd)). set (X := custs (v_srv (nv nd))).
+    eapply ht_pre with (P := fun w => (LN b [] None X j [] [] w /\ Sh j X ids 0 w) /\ NoDup ids).
+    { intros w _ [HLN [Hid Hn]]. pose proof (LN_LV _ _ _ _ _ _ _ _ HLN) as HL. destruct (LV_node _ _ _ _ _ _ HL Hn) as (k & nc' & Hjk & Hk & Hc & Hcz & HN).
+      assert (nc' = nc) by congruence. subst nc'.
+      assert (Hinf : v_inf (nv nd) = false) by (unfold NodeOK in HN; rewrite Hsc in HN; apply HN).
+      pose proof (NodeOK_fin nc None [] (nv nd) _ _ (Hns nc Hnc) Hinf HN) as HF.
+      assert (Eids : sids (v_srv (nv nd)) = ids) by (unfold sids, ids; cbn; rewrite map_map; reflexivity).
+      split; [split; [eapply LN_xs; [|exact HLN]; intros ? []|]|rewrite <- Eids; exact (fo_nd _ _ _ _ _ _ _ _ HF)].
+      exists (nv nd). split; [exact Hn|]. split; [exact Hinf|]. split; [exact Eids|]. split; [|split; [|split]].
+      - intros t c Ht Htc. apply custs_In. eauto.
+      - intros c Hc'. apply custs_In in Hc' as (t & Ht & Htc). destruct (fo_cust _ _ _ _ _ _ _ _ HF t c Ht Htc) as [H1 H2].
+        split; [unfold memv in H1; cbn [vmof] in H1; rewrite app_nil_r in H1; exact H1|]. split; [eauto|eauto].
+      - intros m t c Hm. lia.
+      - intros m t c _ Ht Htc Hin. destruct (fo_cust _ _ _ _ _ _ _ _ HF t c (nth_error_In _ _ Ht) Htc) as [_ H2].
+        destruct (fo_int _ _ _ _ _ _ _ _ HF c Hin) as [_ Hst]. destruct (Hst (fun F => F)) as (_ & k' & Hk' & Hs').
+        rewrite H2 in Hk'. injection Hk' as <-. apply Hs'. apply in_map. eapply nth_error_In; eauto. }
+    apply ht_ctx. intros HN.
+    eapply ht_bind with (Q := fun _ => Pk b j X ids).
+    { eapply ht_post; [apply (ht_off_duty_loop b f j (sc_pre sch) se X ids Hp4 Hns)|].
+      - unfold ids. rewrite map_length. lia.
+      - intros ? w ? (HL & idx' & Hlen & HSh). eapply Sh_Pk; eauto. }
+    intros ?. eapply ht_bind; [apply ht_sort_int|intros ?].
+    eapply ht_post; [apply (ht_forM_PF (fun S w => Pk b j X S w) (kill_server j))|].
+    - intros sid S _. apply ht_kill_pk.
+    - exact HN.
+    - intros ? w ? H. apply (Pk_done b j X w). exact H.
+  Qed.
+
+  Lemma nv_change_shift nd a bb c0 : nd_inf nd = false ->
+    nv (nd <| n_spos := a |> <| n_next_shift := bb |> <| n_c := Some c0 |>) = nv nd.
+  Proof. intros H. destruct nd. unfold nv, nd_inf in *. cbn in *. rewrite H. reflexivity. Qed.
+
+  Lemma ht_change_shift b j : ht (fun w => LN b [] None [] 0 [] [] w) (change_shift cf j) (fun _ w => LN b [] None [] 0 [] [] w).
+  Proof.
+    unfold change_shift, ncfg_of. hliftc nc Hnc. destruct (nc_srv nc) as [|sch|] eqn:Hsc; try apply ht_fail.
+    assert (Hsch : forall nc', nthZ (cf_nodes cf) (j - 1) = Some nc' -> exists sc', nc_srv nc' = SSched sc') by (intros nc' E; assert (nc' = nc) by congruence; subst nc'; eauto).
+    hnode nd. hK. cbv zeta.
+    eapply ht_bind with (Q := fun _ w => LN b [] None [] j [] [] w).
+    { eapply ht_post; [apply ht_put_node|]. intros _ w HI (w0 & HI0 & (HLN & [Hid Hn]) & ->). pose proof HLN as [HL HNI].
+      destruct (sched_fin _ _ _ _ _ _ HL Hn Hsch) as [Hinf _]. rewrite nv_change_shift by exact Hinf.
+      rewrite wputn_same; [|rewrite (wnode_id _ _ _ HI0 Hn); unfold wnode in Hn; destruct (j <? 1); [discriminate|exact Hn]].
+      split; [exact HL|]. intros Hb. eapply N_ex_enter; [exact HI0| |exact (HNI Hb)]. intros h []. }
+    intros ?. hK.
+    eapply ht_bind with (Q := fun _ w => LN b [] None [] j [] [] w).
+    { destruct (sc_pre sch =? 0) eqn:Ep; [apply Z.eqb_eq in Ep; eapply ht_take_off_nonpre; eauto|eapply ht_take_off_pre; eauto]. }
+    intros ?. eapply ht_bind; [apply ht_add_new_servers; exact Hsch|intros ?]. apply ht_bsip_change_shift. exact Hsch.
+  Qed.
+
+  (* ---------- slotted services ---------- *)
+  Lemma iv_set_srv x a bb : iv (x <| i_send := a |> <| i_server := bb |>) = (i_id x, (bb, i_interrupted x)).
+  Proof. destruct x; reflexivity. Qed.
+
+  Lemma LN_slot_isv b fl vm xs ej hs wx w j n nc i o bb :
+    LN b fl vm xs ej hs wx w -> wnode w j = Some n -> nthZ (cf_nodes cf) (j - 1) = Some nc -> nc_slotted nc = true -> In i (memv vm n) ->
+    LN b fl vm xs ej hs wx (wputi (i, (o, bb)) w).
+  Proof.
+    intros [HL HNI] Hn Hnc Hsl Hi. pose proof (LV_idx _ _ _ _ HL) as HI. destruct (wnode_nth _ _ _ Hn) as (k & Hjk & Hk).
+    split.
+    - rewrite <- (wputn_same n w) at 1; [|rewrite (wnode_id _ _ _ HI Hn); unfold wnode in Hn; destruct (j <? 1); [discriminate|exact Hn]].
+      eapply LV_step_io; [exact HL|exact Hk|exact Hi|reflexivity..|].
+      intros nc2 Hc2 HN2. assert (nc2 = nc) by (rewrite Hjk, nthZ_of_nat in Hnc; congruence). subst nc2.
+      unfold NodeOK in *. unfold nc_slotted in Hsl. destruct (nc_srv nc); try discriminate. exact HN2.
+    - intros Hb. eapply N_step with (k := k) (n := n) (n' := n) (hs := hs) (wx := wx); try exact HL; try exact (HNI Hb); try exact Hk; try reflexivity; auto.
+      + cbn. symmetry. apply upd_same. exact Hk.
+      + intros i' Hi'. cbn. rewrite fiv_putiv. cbn. destruct (i =? i') eqn:E; [apply Z.eqb_eq in E; subst i'; contradiction|reflexivity].
+      + intros nc2 Hc2 Hs2. assert (nc2 = nc) by (rewrite Hjk, nthZ_of_nat in Hnc; congruence). subst nc2. congruence.
+  Qed.
+
+  Lemma ht_slot_loop b j nc : nthZ (cf_nodes cf) (j - 1) = Some nc -> nc_slotted nc = true ->
+    forall k, ht (fun w => LN b [] None [] 0 [] [] w) (slot_loop cf k j) (fun _ w => LN b [] None [] 0 [] [] w).
+  Proof.
+    intros Hnc Hsl. induction k as [|k IH]; cbn [slot_loop]; [eapply ht_post; [apply ht_ret|]; intros ? w ? [H _]; exact H|].
+    hK. hnode nd.
+    eapply ht_bind with (Q := fun cand w => LN b [] None [] 0 [] [] w /\ Cn j cand w).
+    { destruct (0 <? n_nint nd).
+      - hliftc i Hi. eapply ht_pre; [|apply ht_false]. intros w _ [HLN [Hid Hn]]. pose proof (LN_LV _ _ _ _ _ _ _ _ HLN) as HL.
+        destruct (LV_node _ _ _ _ _ _ HL Hn) as (kk & nc' & Hjk & Hk & Hc & Hcz & HN). assert (nc' = nc) by congruence. subst nc'.
+        destruct (NodeOK_slot _ _ _ _ _ _ Hsl HN) as [E _]. cbn in E. rewrite E in Hi. discriminate.
+      - eapply ht_post; [apply ht_choose|]. intros c w _ [[HL _] HC]. auto. }
+    intros cand. eapply ht_bind with (Q := fun _ w => LN b [] None [] 0 [] [] w); [|intros ?; exact IH].
+    destruct cand as [i|]; [|eapply ht_post; [apply ht_ret|]; intros ? w ? [[HL _] _]; exact HL].
+    hK. hK. hind x. hK.
+    eapply ht_bind with (Q := fun _ w => LN b [] None [] 0 [] [] w); [|intros ?; hk].
+    eapply ht_post; [apply ht_put_ind|]. intros _ w _ (w0 & HI0 & ((HL & HC) & [Hxi Hxf]) & ->).
+    rewrite iv_set_srv, Hxi. destruct HC as (n & Hn & Hm & _).
+    eapply LN_slot_isv; [exact HL|exact Hn|exact Hnc|exact Hsl|]. unfold memv. apply in_or_app. left. exact Hm.
+  Qed.
+
+  Lemma ht_slotted_service b j : ht (fun w => LN b [] None [] 0 [] [] w) (slotted_service cf j) (fun _ w => LN b [] None [] 0 [] [] w).
+  Proof.
+    unfold slotted_service, ncfg_of. hliftc nc Hnc. destruct (nc_srv nc) as [| |sl] eqn:Hsc; try apply ht_fail.
+    assert (Hsl : nc_slotted nc = true) by (unfold nc_slotted; rewrite Hsc; reflexivity).
+    assert (Hno : sl_cap sl && negb (sl_pre sl =? 0) = false).
+    { pose proof (scope_at j nc HS Hnc) as H. unfold scope_nc in H. rewrite Hsc in H. apply andb_true_iff in H as [_ H].
+      destruct (sl_cap sl); [|reflexivity]. cbn in H |- *. rewrite H. reflexivity. }
+    hnode nd. hK. cbv zeta. rewrite Hno.
+    eapply ht_bind with (Q := fun _ w => LN b [] None [] 0 [] [] w); [eapply ht_post; [apply ht_ret|]; intros ? w ? [[HL _] _]; exact HL|intros ?].
+    eapply ht_bind; [apply (ht_slot_loop b j nc Hnc Hsl)|intros ?]. hk.
+  Qed.
+
+  (* ---------- the arrival node ---------- *)
+  Lemma ht_send_individual b j i fl : ht (fun w => LN b (i :: fl) None [] 0 [] [] w) (send_individual cf j i) (fun _ w => LN b fl None [] 0 [] [] w).
+  Proof. unfold send_individual. hK. hK. apply ht_accept. Qed.
+  Lemma ht_release_individual b j i fl : ht (fun w => LN b (i :: fl) None [] 0 [] [] w) (release_individual cf j i) (fun _ w => LN b fl None [] 0 [] [] w).
+  Proof.
+    unfold release_individual. hK. hK. hK. hK.
+    match goal with |- ht _ (if ?c then _ else _) _ => destruct c end; [hK; apply ht_exit_accept|].
+    hK. hK. match goal with |- ht _ (match ?t with _ => _ end) _ => destruct t end; [|apply ht_send_individual].
+    hK. match goal with |- ht _ (if ?c then _ else _) _ => destruct c end; [hK; apply ht_exit_accept|apply ht_send_individual].
+  Qed.
+
+  Definition decr (w : view) : view := mkVw (w_ns w) (w_ex w) (w_en w) (w_cr w - 1) (w_is w).
+  Lemma iv_new_ind i c p r : iv (new_ind i c p r) = (i, (None, false)).
+  Proof. reflexivity. Qed.
+
+  Lemma ht_batch_loop b : forall n j c p, ht (fun w => LN b [] None [] 0 [] [] w) (batch_loop cf n j c p) (fun _ w => LN b [] None [] 0 [] [] w).
+  Proof.
+    induction n as [|n IH]; intros j c p; cbn [batch_loop]; [eapply ht_post; [apply ht_ret|]; intros ? w ? [H _]; exact H|].
+    eapply ht_bind with (Q := fun _ w => LN b [] None [] 0 [] [] (decr w)).
+    { eapply ht_vw with (F := fun w => mkVw (w_ns w) (w_ex w) (w_en w) (w_cr w + 1) (w_is w)).
+      - intros s a s' E _. apply modify_inv in E. rewrite E. reflexivity.
+      - intros _ w HI HL. split; [exact HI|]. unfold decr. cbn. replace (w_cr w + 1 - 1) with (w_cr w) by lia. destruct w; exact HL. }
+    intros ?. eapply ht_bind; [apply ht_gets_cr|intros i]. hK. hK. hK.
+    eapply ht_bind with (Q := fun _ w => LN b [i] None [] 0 [] [] w); [|intros ?; eapply ht_bind; [apply ht_release_individual|intros ?; apply IH]].
+    eapply ht_post; [apply ht_put_ind|]. intros _ w _ (w0 & HI0 & ([HL HNI] & ->) & ->). rewrite iv_new_ind.
+    pose proof (LV_spawn [] (decr w0) HL) as H. unfold decr in H. cbn in H. replace (w_cr w0 - 1 + 1) with (w_cr w0) in H by lia.
+    split; [exact H|]. intros Hb. eapply N_inds; [exact (HNI Hb)|reflexivity|]. intros k nn c0 Hk Hc0. cbn. rewrite fiv_putiv. cbn.
+    destruct (w_cr w0 =? c0) eqn:E; [|reflexivity]. apply Z.eqb_eq in E. subst c0. exfalso.
+    destruct HL as (HW & _). pose proof (Conserve2.WFsh_fresh _ HW) as Hfr. cbn in Hfr. apply Hfr. replace (w_cr w0 - 1 + 1) with (w_cr w0) by lia.
+    apply (W_rec _ _ _ HW). left. eapply (in_mem_all (decr w0)); eauto.
+  Qed.
+
+  Lemma ht_arrival b : ht (fun w => LN b [] None [] 0 [] [] w) (arrival_have_event cf) (fun _ w => LN b [] None [] 0 [] [] w).
+  Proof.
+    unfold arrival_have_event. hK. hK. hK. hK. eapply ht_bind; [apply ht_batch_loop|intros ?]. hk.
+  Qed.
+
+  (* ---------- the boundary facts about the candidates of the next event ---------- *)
+  Definition NOKn (j : Z) (nd : node) (w : view) : Prop :=
+    (n_next_type nd = 0 -> forall i, In i (n_next_inds nd) -> NIa j i w) /\
+    (n_next_type nd = 2 -> forall i, In i (n_next_inds nd) -> isvv w i = None) /\
+    (n_next_type nd = 3 -> cf_dyn cf = true).
+  Definition NextOK (s : sim) : Prop := forall j nd, 1 <= j -> nthZ (nodes s) (j - 1) = Some nd -> NOKn j nd (VW s).
+
+  Lemma ht_node_have_event b j :
+    htS (fun s => LN b [] None [] 0 [] [] (VW s) /\ NextOK s) (node_have_event cf j) (fun _ w => LN b [] None [] 0 [] [] w).
+  Proof.
+    intros s a s' HI [HL HX] E. unfold node_have_event in E. minv E nd s1 E1. apply get_node_spec in E1 as (-> & Hj & Hn).
+    destruct (HX j nd Hj Hn) as (H0 & H2 & H3).
+    assert (Hsame : forall nd', nthZ (nodes s) (j - 1) = Some nd' -> nd' = nd) by (intros nd' E'; congruence).
+    destruct (n_next_type nd =? 0) eqn:E0.
+    { apply Z.eqb_eq in E0. eapply ht_finish_service; [exact HI| |exact E]. split; [exact HL|]. intros nd' Hn'. rewrite (Hsame _ Hn'). auto. }
+    destruct (n_next_type nd =? 1) eqn:E1; [eapply ht_change_shift; eauto|].
+    destruct (n_next_type nd =? 2) eqn:E2.
+    { apply Z.eqb_eq in E2. eapply ht_renege; [exact HI| |exact E]. split; [exact HL|]. intros nd' Hn'. rewrite (Hsame _ Hn'). auto. }
+    destruct (n_next_type nd =? 3) eqn:E3; [apply Z.eqb_eq in E3; eapply ht_ccww; eauto|].
+    destruct (n_next_type nd =? 4) eqn:E4; [eapply ht_slotted_service; eauto|].
+    apply ret_inv in E as [_ ->]. auto.
+  Qed.
+
+  Lemma scan_servers_In l : forall best acc d r, scan_servers l best acc = (d, r) ->
+    forall i, In i r -> In i acc \/ exists sv, In sv l /\ sv_cust sv = Some i.
+  Proof.
+    induction l as [|sv l IH]; intros best acc d r H i Hi; cbn [scan_servers] in H; [injection H as _ <-; left; exact Hi|].
+    destruct (date_lt (sv_next_end sv) best).
+    - destruct (IH _ _ _ _ H i Hi) as [Ha|(sv' & Hs & Hc)]; [|right; exists sv'; split; [right; exact Hs|exact Hc]].
+      destruct (sv_cust sv) as [c|] eqn:Ec; [destruct Ha as [<-|[]]; right; exists sv; split; [left; reflexivity|exact Ec]|destruct Ha].
+    - destruct (date_eqb (sv_next_end sv) best && match best with Some _ => true | None => false end).
+      + destruct (IH _ _ _ _ H i Hi) as [Ha|(sv' & Hs & Hc)]; [|right; exists sv'; split; [right; exact Hs|exact Hc]].
+        apply in_app_or in Ha as [Ha|Ha]; [left; exact Ha|].
+        destruct (sv_cust sv) as [c|] eqn:Ec; [destruct Ha as [<-|[]]; right; exists sv; split; [left; reflexivity|exact Ec]|destruct Ha].
+      + destruct (IH _ _ _ _ H i Hi) as [Ha|(sv' & Hs & Hc)]; [left; exact Ha|right; exists sv'; split; [right; exact Hs|exact Hc]].
+  Qed.
+
+  Lemma unx_spec j s s' : update_next_event_date cf j s = Ok (tt, s') ->
+    exists nd d l ty, 1 <= j /\ nthZ (nodes s) (j - 1) = Some nd /\
+      s' = s <| nodes := updZ (nodes s) (n_id nd - 1) (nd <| n_next_date := d |> <| n_next_inds := l |> <| n_next_type := ty |>) |> /\
+      (ty = 0 -> nd_inf nd = false -> (forall nc, nthZ (cf_nodes cf) (j - 1) = Some nc -> nc_slotted nc = false) ->
+         forall i, In i l -> exists sv, In sv (n_servers nd) /\ sv_cust sv = Some i) /\
+      (ty = 2 -> forall i, In i l -> isvv (VW s) i = None) /\
+      (ty = 3 -> cf_dyn cf = true).
+  Proof.
+    intros H. unfold update_next_event_date in H.
+    minv H nd s1 E1. apply get_node_spec in E1 as (-> & Hj & Hn).
+    minv H nc s1 E2. unfold ncfg_of in E2. apply lift_inv in E2 as [Hc ->].
+    minv H t s1 E3. apply gets_inv in E3 as [-> ->].
+    minv H il s1 E4. apply gets_inv in E4 as [-> ->].
+    cbv zeta in H.
+    set (es := if nc_slotted nc || nd_inf nd then scan_inds (now s) (all_individuals nd) (inds s) None [] else scan_servers (n_servers nd) None []) in H.
+    minv H rn s1 E5.
+    assert (Hrn : s1 = s /\ if negb (nd_inf nd) && nc_reneging nc then scan_ren (all_individuals nd) (inds s) None [] = Some rn else rn = (None, [])).
+    { destruct (negb (nd_inf nd) && nc_reneging nc); [apply lift_inv in E5 as [E5 ->]; auto|apply ret_inv in E5 as [-> ->]; auto]. }
+    destruct Hrn as [-> Hrn]. clear E5.
+    set (cc := if cf_dyn cf && negb (nd_inf nd) then (n_nccd nd, match n_ncci nd with Some i => [i] | None => [] end) else (None, [])) in H.
+    set (sh := match nc_srv nc with
+               | SSched _ => [(1, (n_next_shift nd, []))]
+               | SSlot sl => [(4, (Some (snd (slot_values sl (Z.to_nat (n_spos nd)))), []))]
+               | SFixed => [] end) in H.
+    assert (Hes : nd_inf nd = false -> (forall nc', nthZ (cf_nodes cf) (j - 1) = Some nc' -> nc_slotted nc' = false) ->
+                  forall i, In i (snd es) -> exists sv, In sv (n_servers nd) /\ sv_cust sv = Some i).
+    { intros Hinf Hns i Hi. unfold es in Hi. rewrite (Hns nc Hc), Hinf in Hi. cbn [orb] in Hi.
+      destruct (scan_servers (n_servers nd) None []) as [d0 r0] eqn:Es. destruct (scan_servers_In _ _ _ _ _ Es i Hi) as [[]|H0]. exact H0. }
+    destruct (nc_reneging nc || cf_dyn cf || nc_sched nc) eqn:Eg.
+    - destruct (decide_next_event (sh ++ [(0, es); (3, cc); (2, rn)]) (5, (None, []))) as [ty [d l]] eqn:ED.
+      unfold put_node in H. apply modify_inv in H. exists nd, d, l, ty. split; [exact Hj|]. split; [exact Hn|]. split; [exact H|].
+      pose proof (Renege2.dne_spec (sh ++ [(0, es); (3, cc); (2, rn)]) (5, (None, []))) as D. cbv zeta in D. rewrite ED in D. cbn [fst snd] in D.
+      destruct D as (DA & _ & _).
+      assert (Hcand : ty = 5 \/ ((In (ty, (d, l)) sh \/ (ty, (d, l)) = (0, es) \/ (ty, (d, l)) = (3, cc) \/ (ty, (d, l)) = (2, rn)) /\ exists z, d = Some z)).
+      { destruct DA as [DA|(DA & z & Hz)]; [left; congruence|]. right. split; [|eauto]. apply in_app_or in DA as [DA|DA]; [auto|].
+        destruct DA as [DA|[DA|[DA|[]]]]; auto. }
+      assert (Hsh : forall t0, In (t0, (d, l)) sh -> t0 = 1 \/ t0 = 4).
+      { intros t0 Hin. unfold sh in Hin. destruct (nc_srv nc); [destruct Hin|destruct Hin as [E|[]]; injection E as <- _ _; auto|destruct Hin as [E|[]]; injection E as <- _ _; auto]. }
+      split; [|split].
+      + intros -> Hinf Hns i Hi. destruct Hcand as [?|[[Hin|[E|[E|E]]] _]]; try lia; try (destruct (Hsh _ Hin); lia); try discriminate E.
+        assert (Ees : es = (d, l)) by congruence. apply Hes; try assumption. rewrite Ees. exact Hi.
+      + intros -> i Hi. destruct Hcand as [?|[[Hin|[E|[E|E]]] [z Hz]]]; try lia; try (destruct (Hsh _ Hin); lia); try discriminate E.
+        injection E as Ern. destruct (negb (nd_inf nd) && nc_reneging nc).
+        * rewrite <- Ern in Hrn. destruct (Renege2.scan_ren_spec _ _ _ _ _ _ Hrn) as (_ & _ & _ & G4 & _).
+          destruct (G4 i Hi) as [[[] _]|(_ & z' & (x & Hx & _ & Hs) & _)]. unfold isvv. cbn. rewrite fiv_find, Hx. exact Hs.
+        * rewrite <- Ern in Hrn. injection Hrn as -> _. discriminate.
+      + intros ->. destruct Hcand as [?|[[Hin|[E|[E|E]]] [z Hz]]]; try lia; try (destruct (Hsh _ Hin); lia); try discriminate E.
+        injection E as Ecc. unfold cc in Ecc. destruct (cf_dyn cf); [reflexivity|]. cbn in Ecc. injection Ecc as -> _. discriminate.
+    - unfold put_node in H. apply modify_inv in H. exists nd, (fst es), (snd es), 0. split; [exact Hj|]. split; [exact Hn|]. split; [exact H|].
+      split; [intros _; exact Hes|]. split; intros; lia.
+  Qed.
+
+  Lemma nthZ_updZ_eq {A} (l : list A) a x y : nthZ l a = Some y -> nthZ (updZ l a x) a = Some x.
+  Proof. unfold nthZ, updZ. destruct (a <? 0); [discriminate|]. apply nth_error_upd_eq. Qed.
+  Lemma nthZ_updZ_neq {A} (l : list A) a b x : a <> b -> nthZ (updZ l a x) b = nthZ l b.
+  Proof.
+    intros Hne. unfold nthZ, updZ. destruct (b <? 0) eqn:Eb; [reflexivity|]. destruct (a <? 0) eqn:Ea; [reflexivity|].
+    apply Z.ltb_ge in Ea, Eb. apply nth_error_upd_neq. lia.
+  Qed.
+
+  Lemma unx_nok j s s' : idxv (VW s) -> LV [] None [] (VW s) -> update_next_event_date cf j s = Ok (tt, s') ->
+    VW s' = VW s /\ exists nd nd', 1 <= j /\ nthZ (nodes s) (j - 1) = Some nd /\ n_id nd = j /\
+      nodes s' = updZ (nodes s) (j - 1) nd' /\ NOKn j nd' (VW s).
+  Proof.
+    intros HI HL H. split; [eapply pv_update_next_event_date; eauto; exact I|].
+    destruct (unx_spec _ _ _ H) as (nd & d & l & ty & Hj & Hn & -> & T0 & T2 & T3).
+    destruct (get_node_okn j s nd HI Hn) as [Hid _]. exists nd. eexists. split; [exact Hj|]. split; [exact Hn|]. split; [exact Hid|].
+    split; [cbn; rewrite Hid; reflexivity|]. split; [|split]; cbn.
+    - intros Hty i Hi n Hw Hinf Hin. pose proof (wnode_VW s j nd Hj Hn) as Hw'. rewrite Hw' in Hw. injection Hw as <-.
+      destruct (LV_node _ _ _ _ _ _ HL Hw') as (k & nc & Hjk & Hk & Hc & Hcz & HN).
+      destruct (nc_slotted nc) eqn:Es.
+      + destruct (NodeOK_slot _ _ _ _ _ _ Es HN) as [E _]. rewrite E in Hin. destruct Hin.
+      + pose proof (NodeOK_fin nc None [] (nv nd) _ _ Es Hinf HN) as HF.
+        destruct (T0 Hty Hinf ltac:(intros nc' E'; congruence) i Hi) as (sv & Hsv & Hcu).
+        assert (Hin' : In (sc sv) (v_srv (nv nd))) by (cbn; apply in_map; exact Hsv).
+        destruct (fo_cust _ _ _ _ _ _ _ _ HF (sc sv) i Hin' Hcu) as [_ Hf].
+        destruct (fo_int _ _ _ _ _ _ _ _ HF i Hin) as [_ Hst]. destruct (Hst (fun F => F)) as (_ & k' & Hk' & Hs').
+        rewrite Hf in Hk'. injection Hk' as <-. apply Hs'. apply (in_map s_id _ _ Hin').
+    - intros Hty. apply T2. exact Hty.
+    - exact T3.
+  Qed.
+
+  Lemma update_all_nok : forall js s s', idxv (VW s) -> LV [] None [] (VW s) -> update_all cf js s = Ok (tt, s') ->
+    VW s' = VW s /\ forall j nd', 1 <= j -> nthZ (nodes s') (j - 1) = Some nd' ->
+      (In j js -> NOKn j nd' (VW s)) /\ (~ In j js -> nthZ (nodes s) (j - 1) = Some nd').
+  Proof.
+    induction js as [|j0 r IH]; intros s s' HI HL H; cbn [update_all] in H.
+    - apply ret_inv in H as [_ ->]. split; [reflexivity|]. intros j nd' _ Hn. split; [intros []|auto].
+    - minv H u s1 E1. destruct u. destruct (unx_nok _ _ _ HI HL E1) as (V1 & nd & nd0 & Hj0 & Hn0 & Hid0 & En1 & HK0).
+      assert (HI1 : idxv (VW s1)) by (rewrite V1; exact HI). assert (HL1 : LV [] None [] (VW s1)) by (rewrite V1; exact HL).
+      destruct (IH _ _ HI1 HL1 H) as (V2 & Hr). split; [congruence|]. intros j nd' Hj Hn'. destruct (Hr j nd' Hj Hn') as [R1 R2]. rewrite V1 in R1.
+      destruct (in_dec Z.eq_dec j r) as [Hin|Hnin].
+      + split; [intros _; auto|]. intros Hn. exfalso. apply Hn. right. exact Hin.
+      + specialize (R2 Hnin). rewrite En1 in R2. destruct (Z.eq_dec j j0) as [->|Hne].
+        * rewrite (nthZ_updZ_eq _ _ _ _ Hn0) in R2. injection R2 as <-. split; [intros _; exact HK0|]. intros Hn. exfalso. apply Hn. left. reflexivity.
+        * rewrite nthZ_updZ_neq in R2 by lia. split; [intros [E|F]; [congruence|contradiction]|intros _; exact R2].
+  Qed.
+
+  Lemma fnan_spec s u s' : find_next_active_node s = Ok (u, s') -> nodes s' = nodes s /\ inds s' = inds s.
+  Proof.
+    unfold find_next_active_node. intros H. minv H s0 s1 E1. apply gets_inv in E1 as [-> ->].
+    destruct (scan_active 0 (a_next_date (arr s) :: map n_next_date (nodes s)) None []) as [d cands].
+    minv H k s1 E2.
+    assert (Hs1 : nodes s1 = nodes s /\ inds s1 = inds s).
+    { destruct cands as [|a [|b r]]; [discriminate|apply ret_inv in E2 as [_ ->]; auto|].
+      unfold choice_uniform in E2. minv E2 x s2 E3. apply lift_inv in E2 as [_ ->].
+      unfold draw_unif in E3. destruct (d_unif (dr s)); [discriminate|]. injection E3 as _ <-. auto. }
+    apply modify_inv in H. rewrite H. cbn. exact Hs1.
+  Qed.
+
+
+  (* ---------- one event ---------- *)
+  Lemma event_step_both b s s' : LN b [] None [] 0 [] [] (VW s) -> NextOK s -> event_step cf s = Ok (tt, s') ->
+    LN b [] None [] 0 [] [] (VW s') /\ NextOK s'.
+  Proof.
+    intros HL HX H. unfold event_step in H.
+    minv H u0 s0 E0. apply modify_inv in E0.
+    assert (V0 : VW s0 = VW s) by (rewrite E0; reflexivity). assert (N0 : nodes s0 = nodes s) by (rewrite E0; reflexivity).
+    assert (HL0 : LN b [] None [] 0 [] [] (VW s0)) by (rewrite V0; exact HL).
+    assert (HX0 : NextOK s0) by (intros j nd Hj Hn; rewrite V0; apply HX; [exact Hj|rewrite <- N0; exact Hn]).
+    pose proof (LV_idx _ _ _ _ (LN_LV _ _ _ _ _ _ _ _ HL0)) as HI0.
+    minv H k s0' E1. apply gets_inv in E1 as [-> ->].
+    minv H u1 s1 E2.
+    assert (HL1 : idxv (VW s1) /\ LN b [] None [] 0 [] [] (VW s1)).
+    { destruct (next_active s0 =? 0); [eapply ht_arrival; eauto|eapply ht_node_have_event; eauto]. }
+    destruct HL1 as [HI1 HL1].
+    minv H ns s1' E3. apply gets_inv in E3 as [-> ->].
+    minv H u2 s2 E4. destruct u2.
+    destruct (update_all_nok _ _ _ HI1 (LN_LV _ _ _ _ _ _ _ _ HL1) E4) as (V2 & HN2).
+    assert (V3 : VW s' = VW s2) by (eapply pv_find_next_active_node; [rewrite V2; exact HI1|exact I|exact H]).
+    destruct (fnan_spec _ _ _ H) as [N3 _].
+    split; [rewrite V3, V2; exact HL1|].
+    intros j nd Hj Hn. rewrite V3, V2. rewrite N3 in Hn. apply (HN2 j nd Hj Hn).
+    assert (Hv : nthZ (map nv (nodes s1)) (j - 1) = Some (nv nd)).
+    { assert (E : map nv (nodes s2) = map nv (nodes s1)) by (apply (f_equal w_ns) in V2; exact V2). rewrite <- E, nthZ_map, Hn. reflexivity. }
+    rewrite nthZ_map in Hv. destruct (nthZ (nodes s1) (j - 1)) as [nd1|] eqn:E1; [|discriminate]. cbn in Hv. injection Hv as Hv.
+    destruct (get_node_okn j s1 nd1 HI1 E1) as [Hid _]. rewrite <- Hid. apply in_map. unfold nthZ in E1. destruct (j - 1 <? 0); [discriminate|].
+    eapply nth_error_In; eauto.
+  Qed.
+
+  (* C04: the link invariant *)
+  Definition SrvInv2 (s : sim) : Prop := LV [] None [] (VW s) /\ NextOK s.
+  (* C05: at a finite, not slotted node, whenever a customer is waiting (is at the node and records no server) every server on
+     duty is busy *)
+  Definition NonIdle2 (s : sim) : Prop := NIv 0 [] [] (VW s).
+
+  Theorem event_step_srv2 s s' : SrvInv2 s -> event_step cf s = Ok (tt, s') -> SrvInv2 s'.
+  Proof.
+    intros [HL HX] H. destruct (event_step_both false s s' (conj HL (fun F => False_ind _ (Bool.diff_false_true F))) HX H) as [[HL' _] HX']. split; assumption.
+  Qed.
+  Theorem event_step_nonidle2 s s' : SrvInv2 s -> NonIdle2 s -> event_step cf s = Ok (tt, s') -> NonIdle2 s'.
+  Proof.
+    intros [HL HX] HN H. destruct (event_step_both true s s' (conj HL (fun _ => HN)) HX H) as [[_ HN'] _]. exact (HN' eq_refl).
+  Qed.
   End Core.
 End Link.
+
+(* ====================================================================================================================== *)
+(* Part 7.  Runs                                                                                                          *)
+(* ====================================================================================================================== *)
+Theorem run_many_srv2 cf : srv_scope cf = true -> forall ds s s', SrvInv2 cf s -> run_many cf s ds = Ok s' -> SrvInv2 cf s'.
+Proof.
+  intros HS. induction ds as [|d r IH]; intros s s' HI H; cbn [run_many] in H; [inversion H; subst s'; exact HI|].
+  destruct (event_step cf (s <| dr := d |>)) as [[u s1]| |] eqn:E; try discriminate. destruct u.
+  eapply IH; [|exact H]. eapply event_step_srv2; [exact HS| |exact E].
+  destruct HI as [HL HX]. split; [exact HL|]. intros j nd Hj Hn. apply (HX j nd Hj Hn).
+Qed.
+Theorem run_many_nonidle2 cf : srv_scope cf = true -> forall ds s s', SrvInv2 cf s -> NonIdle2 cf s -> run_many cf s ds = Ok s' -> NonIdle2 cf s'.
+Proof.
+  intros HS. induction ds as [|d r IH]; intros s s' HI HN H; cbn [run_many] in H; [inversion H; subst s'; exact HN|].
+  destruct (event_step cf (s <| dr := d |>)) as [[u s1]| |] eqn:E; try discriminate. destruct u.
+  assert (HI0 : SrvInv2 cf (s <| dr := d |>)) by (destruct HI as [HL HX]; split; [exact HL|]; intros j nd Hj Hn; apply (HX j nd Hj Hn)).
+  eapply IH; [eapply event_step_srv2; eauto|eapply event_step_nonidle2; eauto|exact H].
+Qed.
+
+(* ====================================================================================================================== *)
+(* Part 8.  The invariant in the words of C04                                                                            *)
+(* ====================================================================================================================== *)
+Definition isv (il : list ind) (i : Z) : option Z := match find_ind i il with Some x => i_server x | None => None end.
+Definition iflg (il : list ind) (i : Z) : bool := match find_ind i il with Some x => i_interrupted x | None => false end.
+Lemma isvv_VW s i : isvv (VW s) i = isv (inds s) i.
+Proof. unfold isvv, isv. cbn. rewrite fiv_find. destruct (find_ind i (inds s)); reflexivity. Qed.
+Lemma iflag_VW s i : iflag (VW s) i = iflg (inds s) i.
+Proof. unfold iflag, iflg. cbn. rewrite fiv_find. destruct (find_ind i (inds s)); reflexivity. Qed.
+
+(* customer i of the node is in service: the server it records is one of the node's servers *)
+Definition in_service (nd : node) (il : list ind) (i : Z) : bool :=
+  match isv il i with Some k => memZ k (map sv_id (n_servers nd)) | None => false end.
+
+Lemma NoDup_incl_len (a b : list Z) : NoDup a -> incl a b -> (length a <= length b)%nat.
+Proof. intros. apply NoDup_incl_length; assumption. Qed.
+
+Lemma NoDup_map_inj {A B} (f : A -> B) (l : list A) : NoDup l -> (forall a b, In a l -> In b l -> f a = f b -> a = b) -> NoDup (map f l).
+Proof.
+  intros HNl Hinj. induction l as [|a r IH]; cbn; [constructor|]. inversion HNl as [|? ? Hn HNr]; subst. constructor.
+  - intros Hin. apply in_map_iff in Hin as (b & E & Hb). apply Hn. rewrite (Hinj a b (or_introl eq_refl) (or_intror Hb) (eq_sym E)). exact Hb.
+  - apply IH; [exact HNr|]. intros x y Hx Hy. apply Hinj; right; assumption.
+Qed.
+
+Theorem SrvInv2_means cf s : SrvInv2 cf s ->
+  (* customers are conserved (C01) and node identities are positions *)
+  Conserve2.WFx2 [] s /\
+  forall k nd nc, nth_error (nodes s) k = Some nd -> nth_error (cf_nodes cf) k = Some nc -> nc_slotted nc = false ->
+    if nd_inf nd
+    then (* infinitely many servers: nobody records a server *)
+         forall i, In i (all_individuals nd) -> isv (inds s) i = None
+    else
+      (* the servers present at the node (on duty, or finishing overtime) have distinct identities, none above highest_id *)
+      NoDup (map sv_id (n_servers nd)) /\ (forall sv, In sv (n_servers nd) -> sv_id sv <= n_highest nd) /\
+      (* a server is busy exactly when it holds a customer *)
+      (forall sv, In sv (n_servers nd) -> sv_busy sv = match sv_cust sv with Some _ => true | None => false end) /\
+      (* the customer a server holds is at this node and records exactly this server: no server has two customers *)
+      (forall sv i, In sv (n_servers nd) -> sv_cust sv = Some i -> In i (all_individuals nd) /\ isv (inds s) i = Some (sv_id sv)) /\
+      (* a customer of the node that records a server is either the customer of exactly that server (it is in service, and it
+         keeps that server while it is blocked), or its server has been retired and it is on the list of interrupted customers *)
+      (forall i sid, In i (all_individuals nd) -> isv (inds s) i = Some sid ->
+         (exists sv, In sv (n_servers nd) /\ sv_id sv = sid /\ sv_cust sv = Some i) \/
+         (~ In sid (map sv_id (n_servers nd)) /\ In i (n_interrupted nd))) /\
+      (* interrupted customers are not in service: they are at the node, flagged, and record a retired server *)
+      NoDup (n_interrupted nd) /\
+      (forall i, In i (n_interrupted nd) -> In i (all_individuals nd) /\ iflg (inds s) i = true /\
+                                            exists sid, isv (inds s) i = Some sid /\ ~ In sid (map sv_id (n_servers nd))) /\
+      (* hence: no two customers share a server, and no more customers are in service than there are servers at the node *)
+      (forall i i' sid, In i (all_individuals nd) -> In i' (all_individuals nd) -> in_service nd (inds s) i = true ->
+         isv (inds s) i = Some sid -> isv (inds s) i' = Some sid -> i = i') /\
+      NoDup (map (isv (inds s)) (filter (in_service nd (inds s)) (all_individuals nd))) /\
+      (length (filter (in_service nd (inds s)) (all_individuals nd)) <= length (n_servers nd))%nat /\
+      (* a node that pre-empts by priority has no server finishing overtime *)
+      (nc_preempt nc <> 0 -> forall sv, In sv (n_servers nd) -> sv_offduty sv = false).
+Proof.
+  intros [(HW & HN & HF & HLen) _]. split; [unfold Conserve2.WFx2; rewrite <- shv_VW; exact HW|].
+  intros k nd nc Hk Hc Hsl.
+  assert (Hk' : nth_error (w_ns (VW s)) k = Some (nv nd)) by (cbn; rewrite nth_error_map, Hk; reflexivity).
+  specialize (HN k (nv nd) nc Hk' Hc).
+  assert (Hmem : memv None (nv nd) = all_individuals nd) by (unfold memv, mem; cbn; rewrite app_nil_r; reflexivity).
+  destruct (nd_inf nd) eqn:Einf.
+  - unfold NodeOK in HN. change (v_inf (nv nd)) with (nd_inf nd) in HN. rewrite Einf in HN. unfold nc_slotted in Hsl.
+    destruct (nc_srv nc); [|destruct HN; discriminate|discriminate]. intros i Hi. rewrite <- isvv_VW. apply HN. rewrite Hmem. exact Hi.
+  - pose proof (NodeOK_fin nc None [] (nv nd) _ _ Hsl Einf HN) as [A1 A2 A3 A4 A5 A6 A7 A8 A9]. rewrite Hmem in *.
+    assert (Hids : sids (v_srv (nv nd)) = map sv_id (n_servers nd)) by (unfold sids; cbn; rewrite map_map; reflexivity).
+    rewrite Hids in *.
+    assert (Hin : forall sv, In sv (n_servers nd) -> In (sc sv) (v_srv (nv nd))) by (intros sv H; cbn; apply in_map; exact H).
+    assert (Hlink : forall i sid, In i (all_individuals nd) -> isv (inds s) i = Some sid -> In sid (map sv_id (n_servers nd)) ->
+                    exists sv, In sv (n_servers nd) /\ sv_id sv = sid /\ sv_cust sv = Some i).
+    { intros i sid Hi Hs Hsid. apply in_map_iff in Hsid as (sv & E & Hsv). exists sv. split; [exact Hsv|]. split; [exact E|].
+      rewrite <- isvv_VW in Hs. apply (proj2 (A5 _ _ Hi Hs) (sc sv) (Hin _ Hsv) E). }
+    assert (Hshare : forall i i' sid, In i (all_individuals nd) -> In i' (all_individuals nd) -> in_service nd (inds s) i = true ->
+         isv (inds s) i = Some sid -> isv (inds s) i' = Some sid -> i = i').
+    { intros i i' sid Hi Hi' Hsv Hs Hs'. unfold in_service in Hsv. rewrite Hs in Hsv. apply memZ_In in Hsv.
+      destruct (Hlink i sid Hi Hs Hsv) as (sv & H1 & H2 & H3). destruct (Hlink i' sid Hi' Hs' Hsv) as (sv' & H1' & H2' & H3').
+      assert (sc sv = sc sv') by (eapply sv_unique; [rewrite Hids; exact A1|apply Hin; exact H1|apply Hin; exact H1'|cbn; congruence]).
+      assert (sv_cust sv = sv_cust sv') by (apply (f_equal s_cust) in H; exact H). congruence. }
+    split; [exact A1|]. split; [intros sv H; apply (A2 (sc sv)), Hin, H|]. split; [intros sv H; apply (A3 (sc sv)), Hin, H|].
+    split; [intros sv i H Hcu; destruct (A4 (sc sv) i (Hin _ H) Hcu) as [B1 B2]; rewrite isvv_VW in B2; auto|].
+    split.
+    { intros i sid Hi Hs. destruct (in_dec Z.eq_dec sid (map sv_id (n_servers nd))) as [Hsid|Hsid]; [left; apply Hlink; assumption|].
+      right. split; [exact Hsid|]. rewrite <- isvv_VW in Hs. eapply A9; eauto. }
+    split; [exact A7|]. split.
+    { intros i Hi. destruct (A8 i Hi) as [B1 B2]. destruct (B2 (fun F => F)) as (B3 & sid & B4 & B5). rewrite iflag_VW in B3. rewrite isvv_VW in B4. eauto. }
+    split; [exact Hshare|].
+    (* counting: the servers recorded by the customers in service are distinct servers of the node *)
+    assert (HNd : NoDup (all_individuals nd)).
+    { destruct (Conserve2.WFx2_means s ltac:(unfold Conserve2.WFx2; rewrite <- shv_VW; exact HW)) as (_ & HNd & _).
+      unfold Conserve2.ids_of, Conserve2.ids_in_nodes in HNd. apply NoDup_app_l in HNd.
+      clear -HNd Hk. revert k Hk. induction (nodes s) as [|x r IH]; intros [|k] Hk; cbn in *; try discriminate.
+      - injection Hk as ->. eapply NoDup_app_l; eauto.
+      - eapply IH; eauto. eapply NoDup_app_r; eauto. }
+    set (l := filter (in_service nd (inds s)) (all_individuals nd)).
+    set (g := fun i => match isv (inds s) i with Some sid => sid | None => 0 end).
+    assert (HNl : NoDup l) by (apply NoDup_filter; exact HNd).
+    assert (Hinj : forall a b, In a l -> In b l -> isv (inds s) a = isv (inds s) b -> a = b).
+    { intros a b Ha Hb E. apply filter_In in Ha as [Ha1 Ha2]. apply filter_In in Hb as [Hb1 Hb2].
+      unfold in_service in Ha2, Hb2. destruct (isv (inds s) a) as [ka|] eqn:Ea; [|discriminate]. destruct (isv (inds s) b) as [kb|] eqn:Eb; [|discriminate].
+      injection E as <-. eapply Hshare; eauto. unfold in_service. rewrite Ea. exact Ha2. }
+    split; [apply NoDup_map_inj; assumption|]. split; [|intros Hp sv H; apply (A6 Hp (sc sv)), Hin, H].
+    assert (L1 : NoDup (map g l)).
+    { apply NoDup_map_inj; [exact HNl|]. intros a b Ha Hb E. apply Hinj; try assumption.
+      apply filter_In in Ha as [_ Ha2]. apply filter_In in Hb as [_ Hb2]. unfold in_service in Ha2, Hb2. unfold g in E.
+      destruct (isv (inds s) a); [|discriminate]. destruct (isv (inds s) b); [|discriminate]. congruence. }
+    assert (L2 : incl (map g l) (map sv_id (n_servers nd))).
+    { intros x Hx. apply in_map_iff in Hx as (i & <- & Hi). apply filter_In in Hi as [_ Hi]. unfold in_service in Hi. unfold g.
+      destruct (isv (inds s) i); [apply memZ_In; exact Hi|discriminate]. }
+    pose proof (NoDup_incl_len _ _ L1 L2) as L3. rewrite !map_length in L3. exact L3.
+Qed.
+
+(* ====================================================================================================================== *)
+(* Part 9.  An executable test of the invariant                                                                          *)
+(* ====================================================================================================================== *)
+Definition opt_eqb (a b : option Z) : bool := match a, b with Some x, Some y => x =? y | None, None => true | _, _ => false end.
+Lemma opt_eqb_eq a b : opt_eqb a b = true -> a = b.
+Proof. destruct a, b; cbn; try discriminate; [intros H; apply Z.eqb_eq in H; congruence|reflexivity]. Qed.
+Fixpoint nodupZ_b (l : list Z) : bool := match l with [] => true | x :: r => negb (memZ x r) && nodupZ_b r end.
+Lemma nodupZ_b_sound l : nodupZ_b l = true -> NoDup l.
+Proof.
+  induction l as [|x r IH]; cbn; [constructor|]. intros H. apply andb_true_iff in H as [H1 H2]. constructor; [|auto].
+  intros Hin. apply memZ_In in Hin. rewrite Hin in H1. discriminate.
+Qed.
+
+Definition fin_b (pre : Z) (nd : node) (il : list ind) : bool :=
+  let ms := all_individuals nd in let ids := map sv_id (n_servers nd) in
+  nodupZ_b ids &&
+  forallb (fun sv => sv_id sv <=? n_highest nd) (n_servers nd) &&
+  forallb (fun sv => Bool.eqb (sv_busy sv) (match sv_cust sv with Some _ => true | None => false end)) (n_servers nd) &&
+  forallb (fun sv => match sv_cust sv with Some i => memZ i ms && opt_eqb (isv il i) (Some (sv_id sv)) | None => true end) (n_servers nd) &&
+  forallb (fun i => match isv il i with
+                    | None => true
+                    | Some k => (k <=? n_highest nd) &&
+                                match find_server k (n_servers nd) with Some sv => opt_eqb (sv_cust sv) (Some i) | None => memZ i (n_interrupted nd) end
+                    end) ms &&
+  ((pre =? 0) || forallb (fun sv => negb (sv_offduty sv)) (n_servers nd)) &&
+  nodupZ_b (n_interrupted nd) &&
+  forallb (fun i => memZ i ms && iflg il i && match isv il i with Some k => negb (memZ k ids) | None => false end) (n_interrupted nd).
+
+Definition node_b (nc : ncfg) (nd : node) (il : list ind) : bool :=
+  match nc_srv nc with
+  | SSlot _ => match n_interrupted nd, n_servers nd with [], [] => true | _, _ => false end
+  | SSched _ => negb (nd_inf nd) && fin_b (nc_preempt nc) nd il
+  | SFixed => if nd_inf nd then forallb (fun i => match isv il i with None => true | Some _ => false end) (all_individuals nd)
+              else fin_b (nc_preempt nc) nd il
+  end.
+Fixpoint nodes_b (ncs : list ncfg) (nds : list node) (il : list ind) : bool :=
+  match nds, ncs with
+  | [], _ => true
+  | nd :: r, nc :: rc => node_b nc nd il && nodes_b rc r il
+  | _ :: _, [] => false
+  end.
+Definition next_b (cf : config) (nd : node) (il : list ind) : bool :=
+  (if n_next_type nd =? 0 then nd_inf nd || forallb (fun i => negb (memZ i (n_interrupted nd))) (n_next_inds nd) else true) &&
+  (if n_next_type nd =? 2 then forallb (fun i => match isv il i with None => true | Some _ => false end) (n_next_inds nd) else true) &&
+  (if n_next_type nd =? 3 then cf_dyn cf else true).
+Definition srvinv2_b (cf : config) (s : sim) : bool :=
+  Conserve2.wfx2_b s && nodes_b (cf_nodes cf) (nodes s) (inds s) && forallb (fun nd => next_b cf nd (inds s)) (nodes s).
+
+Lemma find_server_none_b k l : find_server k l = None -> ~ In k (map sv_id l).
+Proof.
+  induction l as [|y r IH]; cbn; [tauto|]. destruct (sv_id y =? k) eqn:E; [discriminate|]. apply Z.eqb_neq in E. intros H [F|F]; [contradiction|]. exact (IH H F).
+Qed.
+
+Lemma fin_b_sound pre nd s : fin_b pre nd (inds s) = true ->
+  FinOK pre [] (memv None (nv nd)) (v_srv (nv nd)) (v_hi (nv nd)) (v_int (nv nd)) (isvv (VW s)) (iflag (VW s)).
+Proof.
+  unfold fin_b. intros H.
+  apply andb_true_iff in H as [H H8]. apply andb_true_iff in H as [H H7]. apply andb_true_iff in H as [H H6]. apply andb_true_iff in H as [H H5].
+  apply andb_true_iff in H as [H H4]. apply andb_true_iff in H as [H H3]. apply andb_true_iff in H as [H1 H2].
+  apply nodupZ_b_sound in H1, H7. rewrite forallb_forall in H2, H3, H4, H5, H8.
+  assert (Hmem : memv None (nv nd) = all_individuals nd) by (unfold memv, mem; cbn; rewrite app_nil_r; reflexivity). rewrite Hmem.
+  assert (Hids : sids (v_srv (nv nd)) = map sv_id (n_servers nd)) by (unfold sids; cbn; rewrite map_map; reflexivity).
+  assert (Hto : forall t, In t (v_srv (nv nd)) -> exists sv, In sv (n_servers nd) /\ t = sc sv).
+  { intros t Ht. cbn in Ht. apply in_map_iff in Ht as (sv & <- & Hsv). eauto. }
+  split.
+  - rewrite Hids. exact H1.
+  - intros t Ht. destruct (Hto t Ht) as (sv & Hsv & ->). apply Z.leb_le. apply (H2 sv Hsv).
+  - intros t Ht. destruct (Hto t Ht) as (sv & Hsv & ->). cbn. apply eqb_prop. apply (H3 sv Hsv).
+  - intros t i Ht Hc. destruct (Hto t Ht) as (sv & Hsv & ->). cbn in Hc. specialize (H4 sv Hsv). rewrite Hc in H4.
+    apply andb_true_iff in H4 as [A B]. apply memZ_In in A. apply opt_eqb_eq in B. rewrite isvv_VW. auto.
+  - intros i k Hi Hk. rewrite isvv_VW in Hk. specialize (H5 i Hi). rewrite Hk in H5. apply andb_true_iff in H5 as [A B]. apply Z.leb_le in A.
+    split; [exact A|]. intros t Ht Hid. destruct (Hto t Ht) as (sv & Hsv & ->). cbn in Hid |- *.
+    destruct (find_server k (n_servers nd)) as [sv0|] eqn:Ef.
+    + destruct (find_server_id _ _ _ Ef) as [Hid0 Hin0]. apply opt_eqb_eq in B.
+      assert (Esc : sc sv0 = sc sv); [|apply (f_equal s_cust) in Esc; cbn in Esc; congruence].
+      eapply sv_unique; [rewrite Hids; exact H1|cbn; apply in_map; exact Hin0|cbn; apply in_map; exact Hsv|cbn; congruence].
+    + exfalso. apply (find_server_none_b _ _ Ef). rewrite <- Hid. apply in_map. exact Hsv.
+  - intros Hp t Ht. destruct (Hto t Ht) as (sv & Hsv & ->). cbn. apply orb_true_iff in H6 as [E|E]; [apply Z.eqb_eq in E; contradiction|].
+    rewrite forallb_forall in E. apply negb_true_iff. apply (E sv Hsv).
+  - exact H7.
+  - intros i Hi. specialize (H8 i Hi). apply andb_true_iff in H8 as [A C]. apply andb_true_iff in A as [A B]. apply memZ_In in A.
+    split; [exact A|]. intros _. rewrite iflag_VW, isvv_VW. split; [exact B|]. destruct (isv (inds s) i) as [k|]; [|discriminate].
+    exists k. split; [reflexivity|]. rewrite Hids. apply negb_true_iff in C. intros Hin. apply memZ_In in Hin. congruence.
+  - intros i k Hi Hk Hs _. rewrite isvv_VW in Hk. specialize (H5 i Hi). rewrite Hk in H5. apply andb_true_iff in H5 as [_ B]. rewrite Hids in Hs.
+    destruct (find_server k (n_servers nd)) as [sv0|] eqn:Ef; [|apply memZ_In; exact B].
+    exfalso. apply Hs. destruct (find_server_id _ _ _ Ef) as [<- Hin0]. apply in_map. exact Hin0.
+Qed.
+
+Lemma node_b_sound nc nd s : node_b nc nd (inds s) = true -> NodeOK nc None [] (nv nd) (isvv (VW s)) (iflag (VW s)).
+Proof.
+  unfold node_b, NodeOK. change (v_inf (nv nd)) with (nd_inf nd). destruct (nc_srv nc).
+  - destruct (nd_inf nd); [|apply fin_b_sound]. intros H i Hi. rewrite forallb_forall in H.
+    assert (Hi' : In i (all_individuals nd)) by (unfold memv, mem in Hi; cbn in Hi; rewrite app_nil_r in Hi; exact Hi).
+    specialize (H i Hi'). rewrite isvv_VW. destruct (isv (inds s) i); [discriminate|reflexivity].
+  - intros H. apply andb_true_iff in H as [A B]. apply negb_true_iff in A. split; [exact A|apply fin_b_sound; exact B].
+  - cbn. destruct (n_interrupted nd); [|discriminate]. destruct (n_servers nd); [|discriminate]. auto.
+Qed.
+
+Lemma nodes_b_sound s : forall ncs nds, nodes_b ncs nds (inds s) = true ->
+  (length nds <= length ncs)%nat /\
+  forall k nd nc, nth_error nds k = Some nd -> nth_error ncs k = Some nc -> NodeOK nc None [] (nv nd) (isvv (VW s)) (iflag (VW s)).
+Proof.
+  intros ncs nds; revert ncs; induction nds as [|nd r IH]; intros ncs H; cbn in H.
+  - split; [cbn; lia|]. intros [|k]; discriminate.
+  - destruct ncs as [|nc rc]; [discriminate|]. apply andb_true_iff in H as [A B]. destruct (IH _ B) as [L R]. split; [cbn; lia|].
+    intros [|k] nd' nc' Hk Hc; cbn in Hk, Hc; [injection Hk as <-; injection Hc as <-; apply node_b_sound; exact A|eapply R; eauto].
+Qed.
+
+Theorem srvinv2_b_sound cf s : srvinv2_b cf s = true -> SrvInv2 cf s.
+Proof.
+  unfold srvinv2_b. intros H. apply andb_true_iff in H as [H H3]. apply andb_true_iff in H as [H1 H2].
+  apply Conserve2.wfx2_b_sound in H1. destruct (nodes_b_sound s _ _ H2) as [L R]. rewrite forallb_forall in H3.
+  split.
+  - split; [rewrite shv_VW; exact H1|]. split; [|split; [intros i []|cbn; rewrite map_length; exact L]].
+    intros k n nc Hk Hc. cbn in Hk. rewrite nth_error_map in Hk. destruct (nth_error (nodes s) k) as [nd|] eqn:E; [|discriminate].
+    cbn in Hk. injection Hk as <-. eapply R; eauto.
+  - intros j nd Hj Hn. assert (Hin : In nd (nodes s)) by (unfold nthZ in Hn; destruct (j - 1 <? 0); [discriminate|eapply nth_error_In; eauto]).
+    specialize (H3 nd Hin). unfold next_b in H3. apply andb_true_iff in H3 as [H3 C]. apply andb_true_iff in H3 as [A B].
+    split; [|split].
+    + intros Hty i Hi n Hw Hinf Hin'. rewrite (wnode_VW s j nd Hj Hn) in Hw. injection Hw as <-. rewrite Hty, Z.eqb_refl in A.
+      change (v_inf (nv nd)) with (nd_inf nd) in Hinf. rewrite Hinf in A. cbn in A. rewrite forallb_forall in A. specialize (A i Hi).
+      apply negb_true_iff in A. apply memZ_In in Hin'. cbn in Hin'. congruence.
+    + intros Hty i Hi. rewrite Hty, Z.eqb_refl in B. rewrite forallb_forall in B. specialize (B i Hi). rewrite isvv_VW. destruct (isv (inds s) i); [discriminate|reflexivity].
+    + intros Hty. rewrite Hty, Z.eqb_refl in C. exact C.
+Qed.
+
+(* ---------- a weaker executable test, COMPLETE for the invariant: used to refute it outside the scope ---------- *)
+(* at a finite, not slotted node every customer that records a server records one that is at the node, or is on the list of
+   interrupted customers; and no two customers record the same server of the node *)
+Definition rec_srv (nd : node) (il : list ind) (i : Z) : list Z :=
+  match isv il i with Some k => if memZ k (map sv_id (n_servers nd)) then [k] else [] | None => [] end.
+Definition link_node_b (nc : ncfg) (nd : node) (il : list ind) : bool :=
+  if nc_slotted nc || nd_inf nd then true
+  else forallb (fun i => match isv il i with None => true | Some k => memZ k (map sv_id (n_servers nd)) || memZ i (n_interrupted nd) end) (all_individuals nd)
+       && nodupZ_b (flat_map (rec_srv nd il) (all_individuals nd)).
+Fixpoint links_b (ncs : list ncfg) (nds : list node) (il : list ind) {struct nds} : bool :=
+  match nds, ncs with nd :: r, nc :: rc => link_node_b nc nd il && links_b rc r il | _, _ => true end.
+
+Lemma nodupZ_b_complete l : NoDup l -> nodupZ_b l = true.
+Proof.
+  induction l as [|x r IH]; cbn; [reflexivity|]. intros H. inversion H as [|? ? Hn HNr]; subst. rewrite (IH HNr), andb_true_r.
+  apply negb_true_iff. destruct (memZ x r) eqn:E; [apply memZ_In in E; contradiction|reflexivity].
+Qed.
+Lemma rec_srv_filter nd il l : flat_map (rec_srv nd il) l = map (fun i => match isv il i with Some k => k | None => 0 end) (filter (in_service nd il) l).
+Proof.
+  induction l as [|i r IH]; cbn; [reflexivity|]. unfold rec_srv at 1, in_service at 1. destruct (isv il i) as [k|] eqn:E; [|exact IH].
+  destruct (memZ k (map sv_id (n_servers nd))); cbn; [rewrite E, IH; reflexivity|exact IH].
+Qed.
+
+Lemma NoDup_map_eq {A B} (f : A -> B) (l : list A) a b : NoDup (map f l) -> In a l -> In b l -> f a = f b -> a = b.
+Proof.
+  induction l as [|x r IH]; cbn; intros HN Ha Hb E; [destruct Ha|]. inversion HN as [|? ? Hn HNr]; subst.
+  destruct Ha as [<-|Ha], Hb as [<-|Hb]; auto.
+  - exfalso. apply Hn. rewrite E. apply in_map. exact Hb.
+  - exfalso. apply Hn. rewrite <- E. apply in_map. exact Ha.
+Qed.
+
+Theorem links_b_complete cf s : SrvInv2 cf s -> links_b (cf_nodes cf) (nodes s) (inds s) = true.
+Proof.
+  intros HI. destruct (SrvInv2_means cf s HI) as [_ HM].
+  assert (G : forall ncs nds, (forall k nd nc, nth_error nds k = Some nd -> nth_error ncs k = Some nc -> link_node_b nc nd (inds s) = true) -> links_b ncs nds (inds s) = true).
+  { intros ncs nds; revert ncs; induction nds as [|nd r IH]; intros ncs H; cbn; [reflexivity|]. destruct ncs as [|nc rc]; [reflexivity|].
+    rewrite (H 0%nat nd nc eq_refl eq_refl). cbn. apply IH. intros k nd' nc' Hk Hc. apply (H (S k)); assumption. }
+  apply G. intros k nd nc Hk Hc. unfold link_node_b. destruct (nc_slotted nc) eqn:Es; [reflexivity|]. cbn [orb].
+  specialize (HM k nd nc Hk Hc Es). destruct (nd_inf nd); [reflexivity|].
+  destruct HM as (_ & _ & _ & _ & M5 & _ & _ & _ & M9 & _). apply andb_true_iff. split.
+  - apply forallb_forall. intros i Hi. destruct (isv (inds s) i) as [sid|] eqn:E; [|reflexivity].
+    destruct (M5 i sid Hi E) as [(sv & Hsv & Hid & _)|[_ Hint]]; apply orb_true_iff; [left; apply memZ_In; rewrite <- Hid; apply in_map; exact Hsv|right; apply memZ_In; exact Hint].
+  - apply nodupZ_b_complete. rewrite rec_srv_filter. apply NoDup_map_inj.
+    + eapply NoDup_map_inv. exact M9.
+    + intros a b Ha Hb E. eapply NoDup_map_eq; [exact M9|exact Ha|exact Hb|].
+      apply filter_In in Ha as [_ Ha]. apply filter_In in Hb as [_ Hb]. unfold in_service in Ha, Hb.
+      destruct (isv (inds s) a); [|discriminate]. destruct (isv (inds s) b); [|discriminate]. congruence.
+Qed.
+
+(* ====================================================================================================================== *)
+(* Part 10.  Examples and closed witnesses                                                                               *)
+(* ====================================================================================================================== *)
+(* one node, two classes (class 0 has priority over class 1), a schedule of one server until 10, one server until 20, ...;
+   pp = priority_preempt option, pre = the schedule's pre-emption option, rt = the node's router *)
+Definition x_nc (pp pre : Z) : ncfg := mkNcfg None None 0 (SSched (mkSched [10; 20] [1; 1] 0 pre)) pp false [false; false] 0.
+Definition x_cf (pp pre : Z) (rt : nrouter) : config :=
+  mkCfg 2 [x_nc pp pre] [0; 1] 2 None [RtNR [rt]; RtNR [rt]] [[None]; [None]] false [[false; false]; [false; false]].
+Definition x_node : node := mkNode 1 0 0 [[]; []] [] [] 0 (Some 0) [] (Some 0) 0 [] 0 [] [] [] 1 (Some 0) 0 None None.
+Definition no_draws : draws := mkDraws [] [] [] [] [] [].
+Definition x_s0 : sim := mkSim 0 1 (mkArr 0 0 [[Some 11; Some 5]] 1 1 (Some 5)) [x_node] [] 0 0 [] no_draws [] [[0]; [0]].
+(* shift change at 0; class-1 customer at 5 (service 100); shift change at 10; class-0 customer at 11; class-0 customer at 12 *)
+Definition x_ds : list draws :=
+  [ no_draws; mkDraws [1000] [1] [100] [] [] []; no_draws; mkDraws [1] [1] [50] [] [] []; mkDraws [1000] [1] [30] [] [] [] ].
+Definition chk (cf : config) (s : sim) (ds : list draws) : option (bool * bool) :=
+  match run_many cf s ds with Ok s' => Some (srvinv2_b cf s', links_b (cf_nodes cf) (nodes s') (inds s')) | _ => None end.
+
+(* inside the scope: priority pre-emption (resume) at a node with a PRE-EMPTIVE (resume) schedule.  The invariant holds of the
+   initial state and (by the theorem, and here by computation) after each of the five events: the shift change at 10 interrupts
+   customer 1, which resumes on the new server 2; customer 2 pre-empts it at 11; customer 3 waits at 12 *)
+Example ex_in_scope :
+  srv_scope (x_cf 1 1 RLeave) = true /\ srvinv2_b (x_cf 1 1 RLeave) x_s0 = true /\
+  map (fun n => chk (x_cf 1 1 RLeave) x_s0 (firstn n x_ds)) [1; 2; 3; 4; 5]%nat = repeat (Some (true, true)) 5 /\
+  match run_many (x_cf 1 1 RLeave) x_s0 x_ds with
+  | Ok s => map (fun nd => (n_queues nd, map (fun sv => (sv_id sv, sv_cust sv, sv_busy sv)) (n_servers nd), n_interrupted nd)) (nodes s) = [([[2; 3]; [1]], [(2, Some 2, true)], [])] /\
+            map (fun x => (i_id x, i_server x)) (inds s) = [(1, None); (2, Some 2); (3, None)]
+  | _ => False
+  end.
+Proof. vm_compute. repeat split; reflexivity. Qed.
+Example ex_invariant : SrvInv2 (x_cf 1 1 RLeave) x_s0.
+Proof. apply srvinv2_b_sound. vm_compute. reflexivity. Qed.
+Example ex_run_invariant : forall s', run_many (x_cf 1 1 RLeave) x_s0 x_ds = Ok s' -> SrvInv2 (x_cf 1 1 RLeave) s'.
+Proof. intros s'. apply run_many_srv2; [vm_compute; reflexivity|apply ex_invariant]. Qed.
+
+(* F-12d: priority pre-emption at a node with a NON-pre-emptive schedule.  The victim can be the customer of a server that is
+   finishing overtime; detatch_server retires that server and the pre-emptor is attached to it: it records a server that is
+   not at the node and is not interrupted.  (The configuration violates only that clause of the scope.) *)
+Theorem link_refuted_F12d : exists cf s ds s',
+  srv_scope cf = false /\ srvinv2_b cf s = true /\ run_many cf s ds = Ok s' /\ links_b (cf_nodes cf) (nodes s') (inds s') = false.
+Proof. exists (x_cf 1 0 RLeave), x_s0, x_ds. eexists. split; [vm_compute; reflexivity|]. split; [vm_compute; reflexivity|]. split; vm_compute; reflexivity. Qed.
+
+(* F-12a: a schedule with pre-emption option 'reroute' and a routing self-loop.  The interrupted customer is sent back into the
+   same node during the shift change and is served at once by a server that is about to be retired: afterwards it records a
+   retired server, is not interrupted, and the new server stays idle. *)
+Definition x_ds_a : list draws := [ no_draws; mkDraws [1000] [1] [100] [] [] []; mkDraws [] [] [77] [] [] [] ].
+Theorem link_refuted_F12a : exists cf s ds s',
+  srv_scope cf = false /\ srvinv2_b cf s = true /\ run_many cf s ds = Ok s' /\ links_b (cf_nodes cf) (nodes s') (inds s') = false.
+Proof. exists (x_cf 0 4 (RDirect 1)), x_s0, x_ds_a. eexists. split; [vm_compute; reflexivity|]. split; [vm_compute; reflexivity|]. split; vm_compute; reflexivity. Qed.
+
+(* priority pre-emption with option 'reroute' and a routing self-loop (the region of F-11a).  From a state that satisfies the
+   invariant in which a class-0 customer waits while a class-1 customer is served (SIRO discipline): the victim is sent back
+   into the same node, where the freed server is given to customer 3, and then the same server is given to the pre-emptor 2:
+   two customers record server 1.  (This start state is not claimed to be reachable from an empty system.) *)
+Definition y_cf : config :=
+  mkCfg 2 [mkNcfg None None 2 SFixed 4 false [false; false] 0] [0; 1] 2 None [RtNR [RDirect 1]; RtNR [RDirect 1]] [[None]; [None]] false [[false; false]; [false; false]].
+Definition y_c1 : ind := mkInd 1 1 1 1 1 1 (Some 1) (Some 0) (Some 0) (Some 100) (Some 100) None false (Some 1) None (Some 0) None 0 0 false XI XI None None None None None.
+Definition y_c2 : ind := mkInd 2 0 0 0 0 0 (Some 1) (Some 1) None None None None false None None (Some 1) None 0 0 false XI XI None None None None None.
+Definition y_node : node :=
+  mkNode 1 2 1 [[2]; [1]] [mkServer 1 (Some 1) true (Some 100) 0 None 0 false 0 None] [] 0 (Some 100) [1] (Some 1) 1 [] 0 [] [] [] 0 None 0 None None.
+Definition y_s0 : sim := mkSim 5 0 (mkArr 2 2 [[Some 5; None]] 1 0 (Some 5)) [y_node] [] 0 0 [y_c1; y_c2] no_draws [] [[0]; [0]].
+Definition y_ds : list draws := [ mkDraws [1000] [1] [10; 20] [0; 9007199254740991] [] [] ].
+Theorem link_refuted_reroute_preempt : exists cf s ds s',
+  srv_scope cf = false /\ srvinv2_b cf s = true /\ run_many cf s ds = Ok s' /\ links_b (cf_nodes cf) (nodes s') (inds s') = false /\
+  map (fun x => (i_id x, i_server x)) (inds s') = [(1, None); (2, Some 1); (3, Some 1)].
+Proof. exists y_cf, y_s0, y_ds. eexists. split; [vm_compute; reflexivity|]. split; [vm_compute; reflexivity|]. split; [vm_compute; reflexivity|]. split; vm_compute; reflexivity. Qed.
+
+(* in each of the three cases the invariant itself fails in the final state *)
+Corollary refuted_means cf s' : links_b (cf_nodes cf) (nodes s') (inds s') = false -> ~ SrvInv2 cf s'.
+Proof. intros H HI. rewrite (links_b_complete cf s' HI) in H. discriminate. Qed.
+
+(* ====================================================================================================================== *)
+(* Part 11.  C05 (work conservation): meaning, executable test, examples                                                 *)
+(* ====================================================================================================================== *)
+Definition waits (il : list ind) (i : Z) : bool := match find_ind i il with Some x => match i_server x with None => true | Some _ => false end | None => false end.
+Lemma waitv_VW s i : waitv (VW s) i <-> waits (inds s) i = true.
+Proof.
+  unfold waitv, waits. cbn. rewrite fiv_find. destruct (find_ind i (inds s)) as [x|]; cbn.
+  - destruct (i_server x) as [k|].
+    + split; [intros (bb & H); discriminate H|discriminate].
+    + split; [reflexivity|]. intros _. exists (i_interrupted x). reflexivity.
+  - split; [intros (bb & H); discriminate H|discriminate].
+Qed.
+
+Theorem NonIdle2_means cf s : NonIdle2 cf s ->
+  forall k nd nc, nth_error (nodes s) k = Some nd -> nth_error (cf_nodes cf) k = Some nc -> nc_slotted nc = false -> nd_inf nd = false -> n_id nd <> 0 ->
+    (* if some customer of the node is waiting: it is in a queue of the node and records no server ... *)
+    (exists i, In i (all_individuals nd) /\ waits (inds s) i = true) ->
+    (* ... then every server of the node that is on duty is busy *)
+    forall sv, In sv (n_servers nd) -> sv_offduty sv = false -> sv_busy sv = true.
+Proof.
+  intros HN k nd nc Hk Hc Hs Hi Hid (i & Hi1 & Hi2) sv Hsv Ho.
+  assert (Hk' : nth_error (w_ns (VW s)) k = Some (nv nd)) by (cbn; rewrite nth_error_map, Hk; reflexivity).
+  refine (HN k (nv nd) nc Hk' Hc Hs Hi Hid _ (sc sv) _ Ho (fun F => F)).
+  - exists i. split; [exact Hi1|]. split; [intros []|apply waitv_VW; exact Hi2].
+  - cbn. apply in_map. exact Hsv.
+Qed.
+
+Definition nonidle_node_b (nc : ncfg) (nd : node) (il : list ind) : bool :=
+  nc_slotted nc || nd_inf nd || negb (existsb (waits il) (all_individuals nd)) || forallb (fun sv => sv_offduty sv || sv_busy sv) (n_servers nd).
+Fixpoint nonidle_nodes_b (ncs : list ncfg) (nds : list node) (il : list ind) {struct nds} : bool :=
+  match nds, ncs with nd :: r, nc :: rc => nonidle_node_b nc nd il && nonidle_nodes_b rc r il | _, _ => true end.
+Definition nonidle2_b (cf : config) (s : sim) : bool := nonidle_nodes_b (cf_nodes cf) (nodes s) (inds s).
+
+Theorem nonidle2_b_sound cf s : nonidle2_b cf s = true -> NonIdle2 cf s.
+Proof.
+  unfold nonidle2_b. intros H k n nc Hk Hc Hs Hi _ (c & Hc1 & _ & Hc3) t Ht Ho _.
+  cbn in Hk. rewrite nth_error_map in Hk. destruct (nth_error (nodes s) k) as [nd|] eqn:Ek; [|discriminate]. cbn in Hk. injection Hk as <-.
+  assert (G : forall ncs nds, nonidle_nodes_b ncs nds (inds s) = true -> forall k nd nc, nth_error nds k = Some nd -> nth_error ncs k = Some nc -> nonidle_node_b nc nd (inds s) = true).
+  { intros ncs nds; revert ncs; induction nds as [|x r IH]; intros ncs Hb [|k0] nd0 nc0 Hk0 Hc0; cbn in Hk0; try discriminate;
+      (destruct ncs as [|y rc]; cbn in Hc0; [discriminate|]); cbn in Hb; apply andb_true_iff in Hb as [Hb1 Hb2].
+    - injection Hk0 as <-. injection Hc0 as <-. exact Hb1.
+    - eapply IH; eauto. }
+  specialize (G _ _ H k nd nc Ek Hc). unfold nonidle_node_b in G. rewrite Hs in G. change (v_inf (nv nd)) with (nd_inf nd) in Hi. rewrite Hi in G. cbn [orb] in G.
+  apply orb_true_iff in G as [G|G].
+  - exfalso. apply negb_true_iff in G. assert (existsb (waits (inds s)) (all_individuals nd) = true); [|congruence].
+    apply existsb_exists. exists c. split; [exact Hc1|apply waitv_VW; exact Hc3].
+  - rewrite forallb_forall in G. cbn in Ht. apply in_map_iff in Ht as (sv & <- & Hsv). specialize (G sv Hsv). cbn in Ho |- *. rewrite Ho in G. exact G.
+Qed.
+
+(* the running example: both invariants hold initially and after every event (here by computation; by the theorems, for any draws) *)
+Example ex_nonidle :
+  nonidle2_b (x_cf 1 1 RLeave) x_s0 = true /\
+  map (fun n => match run_many (x_cf 1 1 RLeave) x_s0 (firstn n x_ds) with Ok s => nonidle2_b (x_cf 1 1 RLeave) s | _ => false end) [1; 2; 3; 4; 5]%nat = repeat true 5.
+Proof. vm_compute. split; reflexivity. Qed.
+Example ex_run_nonidle : forall s', run_many (x_cf 1 1 RLeave) x_s0 x_ds = Ok s' -> NonIdle2 (x_cf 1 1 RLeave) s'.
+Proof.
+  intros s'. apply run_many_nonidle2; [vm_compute; reflexivity|apply ex_invariant|apply nonidle2_b_sound; vm_compute; reflexivity].
+Qed.
+
+Print Assumptions run_many_srv2.
+Print Assumptions run_many_nonidle2.
+Print Assumptions event_step_srv2.
+Print Assumptions event_step_nonidle2.
+Print Assumptions SrvInv2_means.
+Print Assumptions NonIdle2_means.
+Print Assumptions srvinv2_b_sound.
+Print Assumptions nonidle2_b_sound.
+Print Assumptions links_b_complete.
+Print Assumptions ex_in_scope.
+Print Assumptions ex_run_invariant.
+Print Assumptions ex_run_nonidle.
+Print Assumptions link_refuted_F12d.
+Print Assumptions link_refuted_F12a.
+Print Assumptions link_refuted_reroute_preempt.
+Print Assumptions refuted_means.
